@@ -1,0 +1,12541 @@
+	.file	"test_jflow.c"
+	.text
+.Ltext0:
+	.file 0 "/repo/aldor/aldor/src" "test/test_jflow.c"
+	.section	.rodata
+.LC0:
+	.string	"testJFlow1"
+.LC1:
+	.string	"testJFlow2"
+	.text
+	.globl	jflowTest
+	.type	jflowTest, @function
+jflowTest:
+.LFB0:
+	.file 1 "test/test_jflow.c"
+	.loc 1 20 1
+	.cfi_startproc
+	pushq	%rbp
+	.cfi_def_cfa_offset 16
+	.cfi_offset 6, -16
+	movq	%rsp, %rbp
+	.cfi_def_cfa_register 6
+	.loc 1 21 2
+	call	dbInit@PLT
+	.loc 1 23 2
+	leaq	testJFlow1(%rip), %rax
+	movq	%rax, %rsi
+	leaq	.LC0(%rip), %rax
+	movq	%rax, %rdi
+	call	showTest@PLT
+	.loc 1 24 2
+	leaq	testJFlow2(%rip), %rax
+	movq	%rax, %rsi
+	leaq	.LC1(%rip), %rax
+	movq	%rax, %rdi
+	call	showTest@PLT
+	.loc 1 26 2
+	call	dbFini@PLT
+	.loc 1 27 1
+	nop
+	popq	%rbp
+	.cfi_def_cfa 7, 8
+	ret
+	.cfi_endproc
+.LFE0:
+	.size	jflowTest, .-jflowTest
+	.section	.rodata
+.LC2:
+	.string	"control"
+	.text
+	.type	testJFlow1, @function
+testJFlow1:
+.LFB1:
+	.loc 1 33 1
+	.cfi_startproc
+	pushq	%rbp
+	.cfi_def_cfa_offset 16
+	.cfi_offset 6, -16
+	movq	%rsp, %rbp
+	.cfi_def_cfa_register 6
+	pushq	%r15
+	pushq	%r14
+	pushq	%r13
+	pushq	%r12
+	pushq	%rbx
+	subq	$56, %rsp
+	.cfi_offset 15, -24
+	.cfi_offset 14, -32
+	.cfi_offset 13, -40
+	.cfi_offset 12, -48
+	.cfi_offset 3, -56
+	.loc 1 36 9
+	movl	$1, %edx
+	movl	$1, %esi
+	movl	$5, %edi
+	movl	$0, %eax
+	call	foamNew@PLT
+	movq	%rax, %rdx
+	movl	$1, %esi
+	movl	$25, %edi
+	movl	$0, %eax
+	call	foamNew@PLT
+	movq	%rax, %r15
+	movl	$0, %edx
+	movl	$1, %esi
+	movl	$50, %edi
+	movl	$0, %eax
+	call	foamNew@PLT
+	movl	$0, %ecx
+	movq	%rax, %rdx
+	movl	$2, %esi
+	movl	$34, %edi
+	movl	$0, %eax
+	call	foamNew@PLT
+	movq	%rax, %r14
+	movl	$1, %edx
+	movl	$1, %esi
+	movl	$60, %edi
+	movl	$0, %eax
+	call	foamNew@PLT
+	movq	%rax, %r13
+	movl	$0, %edx
+	movl	$1, %esi
+	movl	$51, %edi
+	movl	$0, %eax
+	call	foamNew@PLT
+	movl	$0, %ecx
+	movq	%rax, %rdx
+	movl	$15, %esi
+	movl	$2, %edi
+	movl	$0, %eax
+	call	foamNewPCall@PLT
+	movl	$1, %ecx
+	movq	%rax, %rdx
+	movl	$2, %esi
+	movl	$34, %edi
+	movl	$0, %eax
+	call	foamNew@PLT
+	movq	%rax, %r12
+	movl	$0, %edx
+	movl	$1, %esi
+	movl	$60, %edi
+	movl	$0, %eax
+	call	foamNew@PLT
+	movq	%rax, %rbx
+	movl	$0, %edx
+	movl	$1, %esi
+	movl	$5, %edi
+	movl	$0, %eax
+	call	foamNew@PLT
+	movq	%rax, -88(%rbp)
+	movl	$0, %edx
+	movl	$1, %esi
+	movl	$50, %edi
+	movl	$0, %eax
+	call	foamNew@PLT
+	movq	-88(%rbp), %rcx
+	movq	%rax, %rdx
+	movl	$2, %esi
+	movl	$31, %edi
+	movl	$0, %eax
+	call	foamNew@PLT
+	subq	$8, %rsp
+	pushq	$0
+	movq	%r15, %r9
+	movq	%r14, %r8
+	movq	%r13, %rcx
+	movq	%r12, %rdx
+	movq	%rbx, %rsi
+	movq	%rax, %rdi
+	movl	$0, %eax
+	call	foamNewSeq@PLT
+	addq	$16, %rsp
+	movq	%rax, -56(%rbp)
+	.loc 1 45 11
+	leaq	.LC2(%rip), %rax
+	movq	%rax, %rdi
+	call	strCopy@PLT
+	movl	$4, %r9d
+	movl	$32767, %r8d
+	movq	%rax, %rcx
+	movl	$5, %edx
+	movl	$4, %esi
+	movl	$47, %edi
+	movl	$0, %eax
+	call	foamNew@PLT
+	movl	$0, %edx
+	movq	%rax, %rsi
+	movl	$3, %edi
+	movl	$0, %eax
+	call	foamNewDDecl@PLT
+	movq	%rax, -64(%rbp)
+	.loc 1 48 9
+	movq	-56(%rbp), %rdx
+	movq	-64(%rbp), %rax
+	movq	%rdx, %rsi
+	movq	%rax, %rdi
+	call	fmTestProgFrCode
+	movq	%rax, -72(%rbp)
+	.loc 1 50 2
+	movq	-72(%rbp), %rax
+	movq	%rax, %rdi
+	call	jflowProg@PLT
+	.loc 1 52 2
+	movq	-72(%rbp), %rax
+	movq	%rax, %rdi
+	call	foamPrintDb@PLT
+	.loc 1 53 2
+	movl	$0, %eax
+	call	cmdDebugReset@PLT
+	.loc 1 54 1
+	nop
+	leaq	-40(%rbp), %rsp
+	popq	%rbx
+	popq	%r12
+	popq	%r13
+	popq	%r14
+	popq	%r15
+	popq	%rbp
+	.cfi_def_cfa 7, 8
+	ret
+	.cfi_endproc
+.LFE1:
+	.size	testJFlow1, .-testJFlow1
+	.section	.rodata
+.LC3:
+	.string	"good"
+	.text
+	.type	testJFlow2, @function
+testJFlow2:
+.LFB2:
+	.loc 1 58 1
+	.cfi_startproc
+	pushq	%rbp
+	.cfi_def_cfa_offset 16
+	.cfi_offset 6, -16
+	movq	%rsp, %rbp
+	.cfi_def_cfa_register 6
+	pushq	%r15
+	pushq	%r14
+	pushq	%r13
+	pushq	%r12
+	pushq	%rbx
+	subq	$200, %rsp
+	.cfi_offset 15, -24
+	.cfi_offset 14, -32
+	.cfi_offset 13, -40
+	.cfi_offset 12, -48
+	.cfi_offset 3, -56
+	.loc 1 61 9
+	movl	$4, %edx
+	movl	$1, %esi
+	movl	$35, %edi
+	movl	$0, %eax
+	call	foamNew@PLT
+	movq	%rax, -88(%rbp)
+	movl	$0, %edx
+	movl	$1, %esi
+	movl	$2, %edi
+	movl	$0, %eax
+	call	foamNew@PLT
+	movq	%rax, %rbx
+	movl	$1, %edx
+	movl	$1, %esi
+	movl	$50, %edi
+	movl	$0, %eax
+	call	foamNew@PLT
+	movq	%rbx, %rcx
+	movq	%rax, %rdx
+	movl	$2, %esi
+	movl	$31, %edi
+	movl	$0, %eax
+	call	foamNew@PLT
+	movq	%rax, -96(%rbp)
+	movl	$3, %edx
+	movl	$1, %esi
+	movl	$60, %edi
+	movl	$0, %eax
+	call	foamNew@PLT
+	movq	%rax, -104(%rbp)
+	movl	$8, %edx
+	movl	$1, %esi
+	movl	$35, %edi
+	movl	$0, %eax
+	call	foamNew@PLT
+	movq	%rax, -112(%rbp)
+	movl	$0, %esi
+	movl	$8, %edi
+	movl	$0, %eax
+	call	fmTestSideEffectingStmt
+	movq	%rax, -120(%rbp)
+	movl	$7, %edx
+	movl	$1, %esi
+	movl	$60, %edi
+	movl	$0, %eax
+	call	foamNew@PLT
+	movq	%rax, -128(%rbp)
+	movl	$0, %esi
+	movl	$8, %edi
+	movl	$0, %eax
+	call	fmTestSideEffectingStmt
+	movq	%rax, %rdx
+	movl	$1, %esi
+	movl	$25, %edi
+	movl	$0, %eax
+	call	foamNew@PLT
+	movq	%rax, -136(%rbp)
+	movl	$8, %edx
+	movl	$1, %esi
+	movl	$60, %edi
+	movl	$0, %eax
+	call	foamNew@PLT
+	movq	%rax, -144(%rbp)
+	movl	$0, %esi
+	movl	$8, %edi
+	movl	$0, %eax
+	call	fmTestSideEffectingStmt
+	movq	%rax, -152(%rbp)
+	movl	$0, %edx
+	movl	$1, %esi
+	movl	$50, %edi
+	movl	$0, %eax
+	call	foamNew@PLT
+	movl	$7, %ecx
+	movq	%rax, %rdx
+	movl	$2, %esi
+	movl	$34, %edi
+	movl	$0, %eax
+	call	foamNew@PLT
+	movq	%rax, -160(%rbp)
+	movl	$2, %edx
+	movl	$1, %esi
+	movl	$60, %edi
+	movl	$0, %eax
+	call	foamNew@PLT
+	movq	%rax, -168(%rbp)
+	movl	$6, %edx
+	movl	$1, %esi
+	movl	$35, %edi
+	movl	$0, %eax
+	call	foamNew@PLT
+	movq	%rax, -176(%rbp)
+	movl	$0, %edx
+	movl	$1, %esi
+	movl	$2, %edi
+	movl	$0, %eax
+	call	foamNew@PLT
+	movq	%rax, %rbx
+	movl	$0, %edx
+	movl	$1, %esi
+	movl	$50, %edi
+	movl	$0, %eax
+	call	foamNew@PLT
+	movq	%rbx, %rcx
+	movq	%rax, %rdx
+	movl	$2, %esi
+	movl	$31, %edi
+	movl	$0, %eax
+	call	foamNew@PLT
+	movq	%rax, -184(%rbp)
+	movl	$5, %edx
+	movl	$1, %esi
+	movl	$60, %edi
+	movl	$0, %eax
+	call	foamNew@PLT
+	movq	%rax, -192(%rbp)
+	movl	$1, %edx
+	movl	$1, %esi
+	movl	$35, %edi
+	movl	$0, %eax
+	call	foamNew@PLT
+	movq	%rax, -200(%rbp)
+	movl	$6, %edx
+	movl	$1, %esi
+	movl	$60, %edi
+	movl	$0, %eax
+	call	foamNew@PLT
+	movq	%rax, -208(%rbp)
+	movl	$0, %esi
+	movl	$8, %edi
+	movl	$0, %eax
+	call	fmTestSideEffectingStmt
+	movq	%rax, -216(%rbp)
+	movl	$0, %esi
+	movl	$2, %edi
+	movl	$0, %eax
+	call	fmTestSideEffectingStmt
+	movl	$5, %ecx
+	movq	%rax, %rdx
+	movl	$2, %esi
+	movl	$34, %edi
+	movl	$0, %eax
+	call	foamNew@PLT
+	movq	%rax, -224(%rbp)
+	movl	$1, %edx
+	movl	$1, %esi
+	movl	$50, %edi
+	movl	$0, %eax
+	call	foamNew@PLT
+	movl	$0, %edx
+	movq	%rax, %rsi
+	movl	$2, %edi
+	movl	$0, %eax
+	call	foamNewBCall@PLT
+	movl	$2, %ecx
+	movq	%rax, %rdx
+	movl	$2, %esi
+	movl	$34, %edi
+	movl	$0, %eax
+	call	foamNew@PLT
+	movq	%rax, -232(%rbp)
+	movl	$4, %edx
+	movl	$1, %esi
+	movl	$60, %edi
+	movl	$0, %eax
+	call	foamNew@PLT
+	movq	%rax, -240(%rbp)
+	movl	$0, %esi
+	movl	$2, %edi
+	movl	$0, %eax
+	call	fmTestSideEffectingStmt
+	movl	$3, %ecx
+	movq	%rax, %rdx
+	movl	$2, %esi
+	movl	$34, %edi
+	movl	$0, %eax
+	call	foamNew@PLT
+	movq	%rax, %r15
+	movl	$0, %edx
+	movl	$1, %esi
+	movl	$50, %edi
+	movl	$0, %eax
+	call	foamNew@PLT
+	movl	$0, %edx
+	movq	%rax, %rsi
+	movl	$2, %edi
+	movl	$0, %eax
+	call	foamNewBCall@PLT
+	movl	$3, %ecx
+	movq	%rax, %rdx
+	movl	$2, %esi
+	movl	$34, %edi
+	movl	$0, %eax
+	call	foamNew@PLT
+	movq	%rax, %r14
+	movl	$1, %edx
+	movl	$1, %esi
+	movl	$2, %edi
+	movl	$0, %eax
+	call	foamNew@PLT
+	movq	%rax, %rbx
+	movl	$1, %edx
+	movl	$1, %esi
+	movl	$50, %edi
+	movl	$0, %eax
+	call	foamNew@PLT
+	movq	%rbx, %rcx
+	movq	%rax, %rdx
+	movl	$2, %esi
+	movl	$31, %edi
+	movl	$0, %eax
+	call	foamNew@PLT
+	movq	%rax, %r13
+	movl	$1, %edx
+	movl	$1, %esi
+	movl	$60, %edi
+	movl	$0, %eax
+	call	foamNew@PLT
+	movq	%rax, %r12
+	movl	$1, %edx
+	movl	$1, %esi
+	movl	$2, %edi
+	movl	$0, %eax
+	call	foamNew@PLT
+	movq	%rax, %rbx
+	movl	$0, %edx
+	movl	$1, %esi
+	movl	$50, %edi
+	movl	$0, %eax
+	call	foamNew@PLT
+	movq	%rbx, %rcx
+	movq	%rax, %rdx
+	movl	$2, %esi
+	movl	$31, %edi
+	movl	$0, %eax
+	call	foamNew@PLT
+	pushq	$0
+	pushq	-88(%rbp)
+	pushq	-96(%rbp)
+	pushq	-104(%rbp)
+	pushq	-112(%rbp)
+	pushq	-120(%rbp)
+	pushq	-128(%rbp)
+	pushq	-136(%rbp)
+	pushq	-144(%rbp)
+	pushq	-152(%rbp)
+	pushq	-160(%rbp)
+	pushq	-168(%rbp)
+	pushq	-176(%rbp)
+	pushq	-184(%rbp)
+	pushq	-192(%rbp)
+	pushq	-200(%rbp)
+	pushq	-208(%rbp)
+	pushq	-216(%rbp)
+	pushq	-224(%rbp)
+	pushq	-232(%rbp)
+	movq	-240(%rbp), %r9
+	movq	%r15, %r8
+	movq	%r14, %rcx
+	movq	%r13, %rdx
+	movq	%r12, %rsi
+	movq	%rax, %rdi
+	movl	$0, %eax
+	call	foamNewSeq@PLT
+	addq	$160, %rsp
+	movq	%rax, -56(%rbp)
+	.loc 1 89 11
+	leaq	.LC2(%rip), %rax
+	movq	%rax, %rdi
+	call	strCopy@PLT
+	movl	$4, %r9d
+	movl	$32767, %r8d
+	movq	%rax, %rcx
+	movl	$2, %edx
+	movl	$4, %esi
+	movl	$47, %edi
+	movl	$0, %eax
+	call	foamNew@PLT
+	movq	%rax, %rbx
+	leaq	.LC3(%rip), %rax
+	movq	%rax, %rdi
+	call	strCopy@PLT
+	movl	$4, %r9d
+	movl	$32767, %r8d
+	movq	%rax, %rcx
+	movl	$2, %edx
+	movl	$4, %esi
+	movl	$47, %edi
+	movl	$0, %eax
+	call	foamNew@PLT
+	movl	$0, %ecx
+	movq	%rbx, %rdx
+	movq	%rax, %rsi
+	movl	$3, %edi
+	movl	$0, %eax
+	call	foamNewDDecl@PLT
+	movq	%rax, -64(%rbp)
+	.loc 1 96 9
+	movq	-56(%rbp), %rdx
+	movq	-64(%rbp), %rax
+	movq	%rdx, %rsi
+	movq	%rax, %rdi
+	call	fmTestProgFrCode
+	movq	%rax, -72(%rbp)
+	.loc 1 97 2
+	movq	-72(%rbp), %rax
+	movq	%rax, %rdi
+	call	foamPrintDb@PLT
+	.loc 1 99 2
+	movq	-72(%rbp), %rax
+	movq	%rax, %rdi
+	call	jflowProg@PLT
+	.loc 1 101 2
+	movq	-72(%rbp), %rax
+	movq	%rax, %rdi
+	call	foamPrintDb@PLT
+	.loc 1 102 2
+	movl	$0, %eax
+	call	cmdDebugReset@PLT
+	.loc 1 103 1
+	nop
+	leaq	-40(%rbp), %rsp
+	popq	%rbx
+	popq	%r12
+	popq	%r13
+	popq	%r14
+	popq	%r15
+	popq	%rbp
+	.cfi_def_cfa 7, 8
+	ret
+	.cfi_endproc
+.LFE2:
+	.size	testJFlow2, .-testJFlow2
+	.type	fmTestProgFrCode, @function
+fmTestProgFrCode:
+.LFB3:
+	.loc 1 107 1
+	.cfi_startproc
+	pushq	%rbp
+	.cfi_def_cfa_offset 16
+	.cfi_offset 6, -16
+	movq	%rsp, %rbp
+	.cfi_def_cfa_register 6
+	subq	$32, %rsp
+	movq	%rdi, -24(%rbp)
+	movq	%rsi, -32(%rbp)
+	.loc 1 108 14
+	call	foamNewProgEmpty@PLT
+	movq	%rax, -8(%rbp)
+	.loc 1 109 16
+	movq	-32(%rbp), %rax
+	movq	%rax, %rdi
+	call	fmTestNLabels
+	movl	%eax, -12(%rbp)
+	.loc 1 111 24
+	movq	-8(%rbp), %rax
+	movq	-24(%rbp), %rdx
+	movq	%rdx, 120(%rax)
+	.loc 1 112 22
+	movq	-8(%rbp), %rax
+	movq	-32(%rbp), %rdx
+	movq	%rdx, 144(%rax)
+	.loc 1 113 26
+	movl	$0, %edx
+	movl	$1, %esi
+	movl	$68, %edi
+	movl	$0, %eax
+	call	foamNew@PLT
+	.loc 1 113 24
+	movq	-8(%rbp), %rdx
+	movq	%rax, 112(%rdx)
+	.loc 1 114 26
+	movl	$0, %edx
+	movl	$1, %esi
+	movl	$68, %edi
+	movl	$0, %eax
+	call	foamNew@PLT
+	.loc 1 114 24
+	movq	-8(%rbp), %rdx
+	movq	%rax, 128(%rdx)
+	.loc 1 115 25
+	movl	-12(%rbp), %eax
+	movslq	%eax, %rdx
+	movq	-8(%rbp), %rax
+	movq	%rdx, 56(%rax)
+	.loc 1 116 26
+	movl	$0, %esi
+	movl	$70, %edi
+	movl	$0, %eax
+	call	foamNew@PLT
+	.loc 1 116 24
+	movq	-8(%rbp), %rdx
+	movq	%rax, 136(%rdx)
+	.loc 1 117 27
+	movq	-8(%rbp), %rax
+	movl	$0, %ecx
+	movl	$0, %edx
+	movq	%rax, %rsi
+	movl	$0, %edi
+	call	inlInfoNew@PLT
+	.loc 1 117 25
+	movq	-8(%rbp), %rdx
+	movq	%rax, 16(%rdx)
+	.loc 1 119 9
+	movq	-8(%rbp), %rax
+	.loc 1 120 1
+	leave
+	.cfi_def_cfa 7, 8
+	ret
+	.cfi_endproc
+.LFE3:
+	.size	fmTestProgFrCode, .-fmTestProgFrCode
+	.type	fmTestSideEffectingStmt, @function
+fmTestSideEffectingStmt:
+.LFB4:
+	.loc 1 124 1
+	.cfi_startproc
+	pushq	%rbp
+	.cfi_def_cfa_offset 16
+	.cfi_offset 6, -16
+	movq	%rsp, %rbp
+	.cfi_def_cfa_register 6
+	subq	$240, %rsp
+	movl	%edi, -228(%rbp)
+	movq	%rsi, -168(%rbp)
+	movq	%rdx, -160(%rbp)
+	movq	%rcx, -152(%rbp)
+	movq	%r8, -144(%rbp)
+	movq	%r9, -136(%rbp)
+	testb	%al, %al
+	je	.L11
+	movaps	%xmm0, -128(%rbp)
+	movaps	%xmm1, -112(%rbp)
+	movaps	%xmm2, -96(%rbp)
+	movaps	%xmm3, -80(%rbp)
+	movaps	%xmm4, -64(%rbp)
+	movaps	%xmm5, -48(%rbp)
+	movaps	%xmm6, -32(%rbp)
+	movaps	%xmm7, -16(%rbp)
+.L11:
+	.loc 1 130 1
+	movl	$8, -224(%rbp)
+	movl	$48, -220(%rbp)
+	leaq	16(%rbp), %rax
+	movq	%rax, -216(%rbp)
+	leaq	-176(%rbp), %rax
+	movq	%rax, -208(%rbp)
+	.loc 1 131 26
+	movq	Foam_listPointer(%rip), %rax
+	movq	24(%rax), %rdx
+	leaq	-224(%rbp), %rax
+	movq	%rax, %rdi
+	call	*%rdx
+.LVL0:
+	movq	%rax, -192(%rbp)
+	.loc 1 134 57
+	movq	Foam_listPointer(%rip), %rax
+	movq	128(%rax), %rdx
+	movq	-192(%rbp), %rax
+	movq	%rax, %rdi
+	call	*%rdx
+.LVL1:
+	.loc 1 134 9
+	addq	$3, %rax
+	movq	%rax, %rsi
+	movl	$77, %edi
+	call	foamNewEmpty@PLT
+	movq	%rax, -200(%rbp)
+	.loc 1 135 27
+	movq	-200(%rbp), %rax
+	movq	$2, 48(%rax)
+	.loc 1 136 23
+	movl	-228(%rbp), %edx
+	movq	-200(%rbp), %rax
+	movq	%rdx, 56(%rax)
+	.loc 1 137 23
+	movl	$0, %edx
+	movl	$1, %esi
+	movl	$51, %edi
+	movl	$0, %eax
+	call	foamNew@PLT
+	.loc 1 137 21
+	movq	-200(%rbp), %rdx
+	movq	%rax, 64(%rdx)
+	.loc 1 139 4
+	movl	$0, -180(%rbp)
+	.loc 1 140 8
+	jmp	.L8
+.L9:
+	.loc 1 141 25
+	movl	-180(%rbp), %eax
+	leal	1(%rax), %edx
+	movl	%edx, -180(%rbp)
+	.loc 1 141 38
+	movq	-192(%rbp), %rdx
+	movq	(%rdx), %rcx
+	.loc 1 141 29
+	movq	-200(%rbp), %rdx
+	cltq
+	addq	$8, %rax
+	movq	%rcx, 8(%rdx,%rax,8)
+	.loc 1 142 27
+	movq	Foam_listPointer(%rip), %rax
+	movq	56(%rax), %rdx
+	movq	-192(%rbp), %rax
+	movq	%rax, %rdi
+	call	*%rdx
+.LVL2:
+	movq	%rax, -192(%rbp)
+.L8:
+	.loc 1 140 14
+	cmpq	$0, -192(%rbp)
+	jne	.L9
+	.loc 1 145 9
+	movq	-200(%rbp), %rax
+	.loc 1 146 1
+	leave
+	.cfi_def_cfa 7, 8
+	ret
+	.cfi_endproc
+.LFE4:
+	.size	fmTestSideEffectingStmt, .-fmTestSideEffectingStmt
+	.section	.rodata
+.LC4:
+	.string	"test/test_jflow.c"
+.LC5:
+	.string	"foamTag(seq) == FOAM_Seq"
+	.text
+	.type	fmTestNLabels, @function
+fmTestNLabels:
+.LFB5:
+	.loc 1 150 1
+	.cfi_startproc
+	pushq	%rbp
+	.cfi_def_cfa_offset 16
+	.cfi_offset 6, -16
+	movq	%rsp, %rbp
+	.cfi_def_cfa_register 6
+	subq	$48, %rsp
+	movq	%rdi, -40(%rbp)
+	.loc 1 151 6
+	movl	$-1, -4(%rbp)
+	.loc 1 152 6
+	movl	$0, -8(%rbp)
+	.loc 1 153 24
+	movq	-40(%rbp), %rax
+	movzbl	(%rax), %eax
+	.loc 1 153 10
+	cmpb	$81, %al
+	je	.L13
+	.loc 1 153 44 discriminator 1
+	movl	$153, %edx
+	leaq	.LC4(%rip), %rax
+	movq	%rax, %rsi
+	leaq	.LC5(%rip), %rax
+	movq	%rax, %rdi
+	call	_do_assert@PLT
+.L13:
+	.loc 1 155 9
+	movl	$0, -8(%rbp)
+	.loc 1 155 2
+	jmp	.L14
+.L16:
+.LBB2:
+	.loc 1 156 8
+	movq	-40(%rbp), %rax
+	movl	-8(%rbp), %edx
+	movslq	%edx, %rdx
+	addq	$6, %rdx
+	movq	(%rax,%rdx,8), %rax
+	movq	%rax, -16(%rbp)
+	.loc 1 157 19
+	movq	-16(%rbp), %rax
+	movzbl	(%rax), %eax
+	.loc 1 157 6
+	cmpb	$60, %al
+	jne	.L15
+.LBB3:
+	.loc 1 158 9
+	movq	-16(%rbp), %rax
+	movq	48(%rax), %rax
+	movq	%rax, -24(%rbp)
+	.loc 1 159 12
+	movl	-4(%rbp), %eax
+	cltq
+	.loc 1 159 7
+	cmpq	%rax, -24(%rbp)
+	jle	.L15
+	.loc 1 160 14
+	movq	-24(%rbp), %rax
+	movl	%eax, -4(%rbp)
+.L15:
+.LBE3:
+.LBE2:
+	.loc 1 155 38 discriminator 2
+	addl	$1, -8(%rbp)
+.L14:
+	.loc 1 155 16 discriminator 1
+	movl	-8(%rbp), %eax
+	movslq	%eax, %rdx
+	.loc 1 155 29 discriminator 1
+	movq	-40(%rbp), %rax
+	movq	40(%rax), %rax
+	.loc 1 155 16 discriminator 1
+	cmpq	%rax, %rdx
+	jb	.L16
+	.loc 1 164 18
+	movl	-4(%rbp), %eax
+	addl	$1, %eax
+	.loc 1 165 1
+	leave
+	.cfi_def_cfa 7, 8
+	ret
+	.cfi_endproc
+.LFE5:
+	.size	fmTestNLabels, .-fmTestNLabels
+.Letext0:
+	.file 2 "/usr/include/x86_64-linux-gnu/bits/types.h"
+	.file 3 "/usr/lib/gcc/x86_64-linux-gnu/12/include/stdarg.h"
+	.file 4 "<built-in>"
+	.file 5 "/usr/lib/gcc/x86_64-linux-gnu/12/include/stddef.h"
+	.file 6 "/usr/include/x86_64-linux-gnu/bits/types/struct_FILE.h"
+	.file 7 "/usr/include/x86_64-linux-gnu/bits/types/FILE.h"
+	.file 8 "./cport.h"
+	.file 9 "./buffer.h"
+	.file 10 "./ostream.h"
+	.file 11 "./axlgen.h"
+	.file 12 "./fname.h"
+	.file 13 "./srcpos.h"
+	.file 14 "./axlobs.h"
+	.file 15 "./symbol.h"
+	.file 16 "./absyn.h"
+	.file 17 "./syme.h"
+	.file 18 "./foam.h"
+	.file 19 "./lib.h"
+	.file 20 "./of_inlin.h"
+	.file 21 "./assert.h0"
+	.file 22 "./of_jflow.h"
+	.file 23 "./strops.h"
+	.file 24 "test/testlib.h"
+	.file 25 "./debug.h"
+	.file 26 "./cmdline.h"
+	.section	.debug_info,"",@progbits
+.Ldebug_info0:
+	.long	0x476f
+	.value	0x5
+	.byte	0x1
+	.byte	0x8
+	.long	.Ldebug_abbrev0
+	.uleb128 0x2d
+	.long	.LASF889
+	.byte	0xc
+	.long	.LASF0
+	.long	.LASF1
+	.quad	.Ltext0
+	.quad	.Letext0-.Ltext0
+	.long	.Ldebug_line0
+	.uleb128 0x2e
+	.byte	0x4
+	.byte	0x5
+	.string	"int"
+	.uleb128 0x10
+	.byte	0x1
+	.byte	0x8
+	.long	.LASF2
+	.uleb128 0x10
+	.byte	0x2
+	.byte	0x7
+	.long	.LASF3
+	.uleb128 0x10
+	.byte	0x4
+	.byte	0x7
+	.long	.LASF4
+	.uleb128 0x10
+	.byte	0x8
+	.byte	0x7
+	.long	.LASF5
+	.uleb128 0x10
+	.byte	0x1
+	.byte	0x6
+	.long	.LASF6
+	.uleb128 0x10
+	.byte	0x2
+	.byte	0x5
+	.long	.LASF7
+	.uleb128 0x10
+	.byte	0x8
+	.byte	0x5
+	.long	.LASF8
+	.uleb128 0x9
+	.long	.LASF9
+	.byte	0x2
+	.byte	0x98
+	.byte	0x12
+	.long	0x5f
+	.uleb128 0x9
+	.long	.LASF10
+	.byte	0x2
+	.byte	0x99
+	.byte	0x12
+	.long	0x5f
+	.uleb128 0x2f
+	.byte	0x8
+	.uleb128 0x8
+	.long	0x85
+	.uleb128 0x10
+	.byte	0x1
+	.byte	0x6
+	.long	.LASF11
+	.uleb128 0x20
+	.long	0x85
+	.uleb128 0x10
+	.byte	0x4
+	.byte	0x4
+	.long	.LASF12
+	.uleb128 0x10
+	.byte	0x8
+	.byte	0x4
+	.long	.LASF13
+	.uleb128 0x9
+	.long	.LASF14
+	.byte	0x3
+	.byte	0x28
+	.byte	0x1b
+	.long	0xab
+	.uleb128 0x30
+	.long	.LASF890
+	.long	0xb4
+	.uleb128 0x11
+	.long	0xc4
+	.long	0xc4
+	.uleb128 0x12
+	.long	0x4a
+	.byte	0
+	.byte	0
+	.uleb128 0x31
+	.long	.LASF891
+	.byte	0x18
+	.byte	0x4
+	.byte	0
+	.long	0xf9
+	.uleb128 0x1a
+	.long	.LASF15
+	.long	0x43
+	.byte	0
+	.uleb128 0x1a
+	.long	.LASF16
+	.long	0x43
+	.byte	0x4
+	.uleb128 0x1a
+	.long	.LASF17
+	.long	0x7e
+	.byte	0x8
+	.uleb128 0x1a
+	.long	.LASF18
+	.long	0x7e
+	.byte	0x10
+	.byte	0
+	.uleb128 0x9
+	.long	.LASF19
+	.byte	0x3
+	.byte	0x63
+	.byte	0x18
+	.long	0x9f
+	.uleb128 0x9
+	.long	.LASF20
+	.byte	0x5
+	.byte	0xd6
+	.byte	0x1b
+	.long	0x4a
+	.uleb128 0xe
+	.long	.LASF74
+	.byte	0xd8
+	.byte	0x6
+	.byte	0x31
+	.byte	0x8
+	.long	0x298
+	.uleb128 0x7
+	.long	.LASF21
+	.byte	0x6
+	.byte	0x33
+	.byte	0x7
+	.long	0x2e
+	.byte	0
+	.uleb128 0x7
+	.long	.LASF22
+	.byte	0x6
+	.byte	0x36
+	.byte	0x9
+	.long	0x80
+	.byte	0x8
+	.uleb128 0x7
+	.long	.LASF23
+	.byte	0x6
+	.byte	0x37
+	.byte	0x9
+	.long	0x80
+	.byte	0x10
+	.uleb128 0x7
+	.long	.LASF24
+	.byte	0x6
+	.byte	0x38
+	.byte	0x9
+	.long	0x80
+	.byte	0x18
+	.uleb128 0x7
+	.long	.LASF25
+	.byte	0x6
+	.byte	0x39
+	.byte	0x9
+	.long	0x80
+	.byte	0x20
+	.uleb128 0x7
+	.long	.LASF26
+	.byte	0x6
+	.byte	0x3a
+	.byte	0x9
+	.long	0x80
+	.byte	0x28
+	.uleb128 0x7
+	.long	.LASF27
+	.byte	0x6
+	.byte	0x3b
+	.byte	0x9
+	.long	0x80
+	.byte	0x30
+	.uleb128 0x7
+	.long	.LASF28
+	.byte	0x6
+	.byte	0x3c
+	.byte	0x9
+	.long	0x80
+	.byte	0x38
+	.uleb128 0x7
+	.long	.LASF29
+	.byte	0x6
+	.byte	0x3d
+	.byte	0x9
+	.long	0x80
+	.byte	0x40
+	.uleb128 0x7
+	.long	.LASF30
+	.byte	0x6
+	.byte	0x40
+	.byte	0x9
+	.long	0x80
+	.byte	0x48
+	.uleb128 0x7
+	.long	.LASF31
+	.byte	0x6
+	.byte	0x41
+	.byte	0x9
+	.long	0x80
+	.byte	0x50
+	.uleb128 0x7
+	.long	.LASF32
+	.byte	0x6
+	.byte	0x42
+	.byte	0x9
+	.long	0x80
+	.byte	0x58
+	.uleb128 0x7
+	.long	.LASF33
+	.byte	0x6
+	.byte	0x44
+	.byte	0x16
+	.long	0x2b1
+	.byte	0x60
+	.uleb128 0x7
+	.long	.LASF34
+	.byte	0x6
+	.byte	0x46
+	.byte	0x14
+	.long	0x2b6
+	.byte	0x68
+	.uleb128 0x7
+	.long	.LASF35
+	.byte	0x6
+	.byte	0x48
+	.byte	0x7
+	.long	0x2e
+	.byte	0x70
+	.uleb128 0x7
+	.long	.LASF36
+	.byte	0x6
+	.byte	0x49
+	.byte	0x7
+	.long	0x2e
+	.byte	0x74
+	.uleb128 0x7
+	.long	.LASF37
+	.byte	0x6
+	.byte	0x4a
+	.byte	0xb
+	.long	0x66
+	.byte	0x78
+	.uleb128 0x7
+	.long	.LASF38
+	.byte	0x6
+	.byte	0x4d
+	.byte	0x12
+	.long	0x3c
+	.byte	0x80
+	.uleb128 0x7
+	.long	.LASF39
+	.byte	0x6
+	.byte	0x4e
+	.byte	0xf
+	.long	0x51
+	.byte	0x82
+	.uleb128 0x7
+	.long	.LASF40
+	.byte	0x6
+	.byte	0x4f
+	.byte	0x8
+	.long	0x2bb
+	.byte	0x83
+	.uleb128 0x7
+	.long	.LASF41
+	.byte	0x6
+	.byte	0x51
+	.byte	0xf
+	.long	0x2cb
+	.byte	0x88
+	.uleb128 0x7
+	.long	.LASF42
+	.byte	0x6
+	.byte	0x59
+	.byte	0xd
+	.long	0x72
+	.byte	0x90
+	.uleb128 0x7
+	.long	.LASF43
+	.byte	0x6
+	.byte	0x5b
+	.byte	0x17
+	.long	0x2d5
+	.byte	0x98
+	.uleb128 0x7
+	.long	.LASF44
+	.byte	0x6
+	.byte	0x5c
+	.byte	0x19
+	.long	0x2df
+	.byte	0xa0
+	.uleb128 0x7
+	.long	.LASF45
+	.byte	0x6
+	.byte	0x5d
+	.byte	0x14
+	.long	0x2b6
+	.byte	0xa8
+	.uleb128 0x7
+	.long	.LASF46
+	.byte	0x6
+	.byte	0x5e
+	.byte	0x9
+	.long	0x7e
+	.byte	0xb0
+	.uleb128 0x7
+	.long	.LASF47
+	.byte	0x6
+	.byte	0x5f
+	.byte	0xa
+	.long	0x105
+	.byte	0xb8
+	.uleb128 0x7
+	.long	.LASF48
+	.byte	0x6
+	.byte	0x60
+	.byte	0x7
+	.long	0x2e
+	.byte	0xc0
+	.uleb128 0x7
+	.long	.LASF49
+	.byte	0x6
+	.byte	0x62
+	.byte	0x8
+	.long	0x2e4
+	.byte	0xc4
+	.byte	0
+	.uleb128 0x9
+	.long	.LASF50
+	.byte	0x7
+	.byte	0x7
+	.byte	0x19
+	.long	0x111
+	.uleb128 0x32
+	.long	.LASF892
+	.byte	0x6
+	.byte	0x2b
+	.byte	0xe
+	.uleb128 0xd
+	.long	.LASF51
+	.uleb128 0x8
+	.long	0x2ac
+	.uleb128 0x8
+	.long	0x111
+	.uleb128 0x11
+	.long	0x85
+	.long	0x2cb
+	.uleb128 0x12
+	.long	0x4a
+	.byte	0
+	.byte	0
+	.uleb128 0x8
+	.long	0x2a4
+	.uleb128 0xd
+	.long	.LASF52
+	.uleb128 0x8
+	.long	0x2d0
+	.uleb128 0xd
+	.long	.LASF53
+	.uleb128 0x8
+	.long	0x2da
+	.uleb128 0x11
+	.long	0x85
+	.long	0x2f4
+	.uleb128 0x12
+	.long	0x4a
+	.byte	0x13
+	.byte	0
+	.uleb128 0x8
+	.long	0x298
+	.uleb128 0x10
+	.byte	0x8
+	.byte	0x5
+	.long	.LASF54
+	.uleb128 0x8
+	.long	0x8c
+	.uleb128 0xc
+	.long	.LASF55
+	.byte	0x8
+	.value	0x138
+	.byte	0x17
+	.long	0x35
+	.uleb128 0xc
+	.long	.LASF56
+	.byte	0x8
+	.value	0x139
+	.byte	0x18
+	.long	0x3c
+	.uleb128 0xc
+	.long	.LASF57
+	.byte	0x8
+	.value	0x13a
+	.byte	0x17
+	.long	0x4a
+	.uleb128 0xc
+	.long	.LASF58
+	.byte	0x8
+	.value	0x141
+	.byte	0x10
+	.long	0x5f
+	.uleb128 0xc
+	.long	.LASF59
+	.byte	0x8
+	.value	0x142
+	.byte	0x19
+	.long	0x4a
+	.uleb128 0xc
+	.long	.LASF60
+	.byte	0x8
+	.value	0x156
+	.byte	0xd
+	.long	0x2e
+	.uleb128 0xc
+	.long	.LASF61
+	.byte	0x8
+	.value	0x157
+	.byte	0xf
+	.long	0x339
+	.uleb128 0xc
+	.long	.LASF62
+	.byte	0x8
+	.value	0x158
+	.byte	0x10
+	.long	0x105
+	.uleb128 0xc
+	.long	.LASF63
+	.byte	0x8
+	.value	0x159
+	.byte	0xf
+	.long	0x31f
+	.uleb128 0xc
+	.long	.LASF64
+	.byte	0x8
+	.value	0x166
+	.byte	0x12
+	.long	0x7e
+	.uleb128 0xc
+	.long	.LASF65
+	.byte	0x8
+	.value	0x16a
+	.byte	0xf
+	.long	0x80
+	.uleb128 0xc
+	.long	.LASF66
+	.byte	0x8
+	.value	0x16b
+	.byte	0x15
+	.long	0x300
+	.uleb128 0xc
+	.long	.LASF67
+	.byte	0x8
+	.value	0x176
+	.byte	0x11
+	.long	0x91
+	.uleb128 0xc
+	.long	.LASF68
+	.byte	0x8
+	.value	0x178
+	.byte	0x10
+	.long	0x98
+	.uleb128 0xc
+	.long	.LASF69
+	.byte	0x8
+	.value	0x17a
+	.byte	0x10
+	.long	0x98
+	.uleb128 0x9
+	.long	.LASF70
+	.byte	0x9
+	.byte	0x10
+	.byte	0x18
+	.long	0x3d4
+	.uleb128 0x8
+	.long	0x3d9
+	.uleb128 0xd
+	.long	.LASF71
+	.uleb128 0x9
+	.long	.LASF72
+	.byte	0xa
+	.byte	0x7
+	.byte	0xf
+	.long	0x3ea
+	.uleb128 0x8
+	.long	0x3ef
+	.uleb128 0xa
+	.long	0x2e
+	.long	0x403
+	.uleb128 0x6
+	.long	0x394
+	.uleb128 0x6
+	.long	0x2e
+	.byte	0
+	.uleb128 0x9
+	.long	.LASF73
+	.byte	0xa
+	.byte	0x9
+	.byte	0x19
+	.long	0x40f
+	.uleb128 0x8
+	.long	0x414
+	.uleb128 0xe
+	.long	.LASF75
+	.byte	0x10
+	.byte	0xa
+	.byte	0x15
+	.byte	0x8
+	.long	0x43c
+	.uleb128 0x18
+	.string	"ops"
+	.byte	0xa
+	.byte	0x16
+	.byte	0xd
+	.long	0x4d8
+	.byte	0
+	.uleb128 0x7
+	.long	.LASF76
+	.byte	0xa
+	.byte	0x1a
+	.byte	0x4
+	.long	0x4e9
+	.byte	0x8
+	.byte	0
+	.uleb128 0x9
+	.long	.LASF77
+	.byte	0xa
+	.byte	0xb
+	.byte	0xe
+	.long	0x448
+	.uleb128 0x19
+	.long	0x458
+	.uleb128 0x6
+	.long	0x403
+	.uleb128 0x6
+	.long	0x85
+	.byte	0
+	.uleb128 0x9
+	.long	.LASF78
+	.byte	0xa
+	.byte	0xc
+	.byte	0xd
+	.long	0x464
+	.uleb128 0xa
+	.long	0x2e
+	.long	0x47d
+	.uleb128 0x6
+	.long	0x403
+	.uleb128 0x6
+	.long	0x300
+	.uleb128 0x6
+	.long	0x2e
+	.byte	0
+	.uleb128 0x9
+	.long	.LASF79
+	.byte	0xa
+	.byte	0xd
+	.byte	0xe
+	.long	0x489
+	.uleb128 0x19
+	.long	0x494
+	.uleb128 0x6
+	.long	0x403
+	.byte	0
+	.uleb128 0xe
+	.long	.LASF80
+	.byte	0x18
+	.byte	0xa
+	.byte	0xf
+	.byte	0x10
+	.long	0x4c9
+	.uleb128 0x7
+	.long	.LASF81
+	.byte	0xa
+	.byte	0x10
+	.byte	0x12
+	.long	0x4c9
+	.byte	0
+	.uleb128 0x7
+	.long	.LASF82
+	.byte	0xa
+	.byte	0x11
+	.byte	0x14
+	.long	0x4ce
+	.byte	0x8
+	.uleb128 0x7
+	.long	.LASF83
+	.byte	0xa
+	.byte	0x12
+	.byte	0xe
+	.long	0x4d3
+	.byte	0x10
+	.byte	0
+	.uleb128 0x8
+	.long	0x43c
+	.uleb128 0x8
+	.long	0x458
+	.uleb128 0x8
+	.long	0x47d
+	.uleb128 0x9
+	.long	.LASF84
+	.byte	0xa
+	.byte	0x13
+	.byte	0x4
+	.long	0x4e4
+	.uleb128 0x8
+	.long	0x494
+	.uleb128 0x33
+	.byte	0x8
+	.byte	0xa
+	.byte	0x17
+	.byte	0x2
+	.long	0x509
+	.uleb128 0x21
+	.string	"obj"
+	.byte	0x18
+	.byte	0xb
+	.long	0x37a
+	.uleb128 0x21
+	.string	"fun"
+	.byte	0x19
+	.byte	0x11
+	.long	0x3de
+	.byte	0
+	.uleb128 0x8
+	.long	0xc4
+	.uleb128 0x8
+	.long	0x2e
+	.uleb128 0x9
+	.long	.LASF85
+	.byte	0xb
+	.byte	0x28
+	.byte	0x1b
+	.long	0x51f
+	.uleb128 0x8
+	.long	0x524
+	.uleb128 0xe
+	.long	.LASF86
+	.byte	0x50
+	.byte	0xc
+	.byte	0xe
+	.byte	0x8
+	.long	0x53f
+	.uleb128 0x7
+	.long	.LASF87
+	.byte	0xc
+	.byte	0xf
+	.byte	0x9
+	.long	0x1810
+	.byte	0
+	.byte	0
+	.uleb128 0x9
+	.long	.LASF88
+	.byte	0xb
+	.byte	0x29
+	.byte	0xf
+	.long	0x31f
+	.uleb128 0x9
+	.long	.LASF89
+	.byte	0xb
+	.byte	0x2a
+	.byte	0x1b
+	.long	0x557
+	.uleb128 0x8
+	.long	0x55c
+	.uleb128 0xe
+	.long	.LASF90
+	.byte	0x10
+	.byte	0xd
+	.byte	0x43
+	.byte	0x8
+	.long	0x584
+	.uleb128 0x7
+	.long	.LASF91
+	.byte	0xd
+	.byte	0x44
+	.byte	0x9
+	.long	0x53f
+	.byte	0
+	.uleb128 0x7
+	.long	.LASF92
+	.byte	0xd
+	.byte	0x45
+	.byte	0xe
+	.long	0x584
+	.byte	0x8
+	.byte	0
+	.uleb128 0x9
+	.long	.LASF93
+	.byte	0xb
+	.byte	0x2b
+	.byte	0x19
+	.long	0x590
+	.uleb128 0x34
+	.long	.LASF101
+	.byte	0x8
+	.byte	0xd
+	.byte	0x3e
+	.byte	0x7
+	.long	0x5b4
+	.uleb128 0x22
+	.long	.LASF91
+	.byte	0x3f
+	.byte	0x9
+	.long	0x53f
+	.uleb128 0x22
+	.long	.LASF94
+	.byte	0x40
+	.byte	0xd
+	.long	0x54b
+	.byte	0
+	.uleb128 0x9
+	.long	.LASF95
+	.byte	0xb
+	.byte	0x2e
+	.byte	0x17
+	.long	0x5c0
+	.uleb128 0x8
+	.long	0x5c5
+	.uleb128 0xd
+	.long	.LASF96
+	.uleb128 0x9
+	.long	.LASF97
+	.byte	0xe
+	.byte	0x19
+	.byte	0x19
+	.long	0x5d6
+	.uleb128 0x8
+	.long	0x5db
+	.uleb128 0xe
+	.long	.LASF98
+	.byte	0x10
+	.byte	0xf
+	.byte	0x19
+	.byte	0x8
+	.long	0x603
+	.uleb128 0x7
+	.long	.LASF99
+	.byte	0xf
+	.byte	0x1a
+	.byte	0x13
+	.long	0x1820
+	.byte	0
+	.uleb128 0x18
+	.string	"str"
+	.byte	0xf
+	.byte	0x1b
+	.byte	0x9
+	.long	0x387
+	.byte	0x8
+	.byte	0
+	.uleb128 0x23
+	.string	"Doc"
+	.byte	0x1c
+	.long	0x60d
+	.uleb128 0x8
+	.long	0x612
+	.uleb128 0x35
+	.string	"doc"
+	.uleb128 0x9
+	.long	.LASF100
+	.byte	0xe
+	.byte	0x1d
+	.byte	0x17
+	.long	0x623
+	.uleb128 0x8
+	.long	0x628
+	.uleb128 0x24
+	.long	.LASF102
+	.byte	0x80
+	.byte	0x10
+	.value	0x2e0
+	.long	0x9eb
+	.uleb128 0x4
+	.long	.LASF103
+	.byte	0x10
+	.value	0x2e4
+	.byte	0xf
+	.long	0x18f4
+	.uleb128 0x4
+	.long	.LASF104
+	.byte	0x10
+	.value	0x2e5
+	.byte	0xf
+	.long	0x19b2
+	.uleb128 0x4
+	.long	.LASF105
+	.byte	0x10
+	.value	0x2ec
+	.byte	0x11
+	.long	0x19dc
+	.uleb128 0x4
+	.long	.LASF106
+	.byte	0x10
+	.value	0x2ed
+	.byte	0xe
+	.long	0x1a06
+	.uleb128 0x4
+	.long	.LASF107
+	.byte	0x10
+	.value	0x2ee
+	.byte	0x10
+	.long	0x1a30
+	.uleb128 0x4
+	.long	.LASF108
+	.byte	0x10
+	.value	0x2f0
+	.byte	0x13
+	.long	0x1a5a
+	.uleb128 0x4
+	.long	.LASF109
+	.byte	0x10
+	.value	0x2f1
+	.byte	0x16
+	.long	0x1a84
+	.uleb128 0x4
+	.long	.LASF110
+	.byte	0x10
+	.value	0x2f2
+	.byte	0x15
+	.long	0x1ad8
+	.uleb128 0x4
+	.long	.LASF111
+	.byte	0x10
+	.value	0x2f3
+	.byte	0x14
+	.long	0x1aae
+	.uleb128 0x4
+	.long	.LASF112
+	.byte	0x10
+	.value	0x2f6
+	.byte	0xf
+	.long	0x1b02
+	.uleb128 0x4
+	.long	.LASF113
+	.byte	0x10
+	.value	0x2f7
+	.byte	0xf
+	.long	0x1b3a
+	.uleb128 0x4
+	.long	.LASF114
+	.byte	0x10
+	.value	0x2f8
+	.byte	0x11
+	.long	0x1b64
+	.uleb128 0x4
+	.long	.LASF115
+	.byte	0x10
+	.value	0x2f9
+	.byte	0x12
+	.long	0x1b9b
+	.uleb128 0x4
+	.long	.LASF116
+	.byte	0x10
+	.value	0x2fa
+	.byte	0x12
+	.long	0x1bc5
+	.uleb128 0x4
+	.long	.LASF117
+	.byte	0x10
+	.value	0x2fb
+	.byte	0x11
+	.long	0x1bfd
+	.uleb128 0x4
+	.long	.LASF118
+	.byte	0x10
+	.value	0x2fc
+	.byte	0x13
+	.long	0x1c27
+	.uleb128 0x4
+	.long	.LASF119
+	.byte	0x10
+	.value	0x2fd
+	.byte	0x13
+	.long	0x1c51
+	.uleb128 0x4
+	.long	.LASF120
+	.byte	0x10
+	.value	0x2fe
+	.byte	0x14
+	.long	0x1cea
+	.uleb128 0x4
+	.long	.LASF121
+	.byte	0x10
+	.value	0x2ff
+	.byte	0x13
+	.long	0x1d22
+	.uleb128 0x4
+	.long	.LASF122
+	.byte	0x10
+	.value	0x300
+	.byte	0x11
+	.long	0x1d5a
+	.uleb128 0x4
+	.long	.LASF123
+	.byte	0x10
+	.value	0x301
+	.byte	0x13
+	.long	0x1d84
+	.uleb128 0x4
+	.long	.LASF124
+	.byte	0x10
+	.value	0x302
+	.byte	0x12
+	.long	0x1dae
+	.uleb128 0x4
+	.long	.LASF125
+	.byte	0x10
+	.value	0x303
+	.byte	0x13
+	.long	0x1de6
+	.uleb128 0x4
+	.long	.LASF126
+	.byte	0x10
+	.value	0x304
+	.byte	0xe
+	.long	0x1c88
+	.uleb128 0x4
+	.long	.LASF127
+	.byte	0x10
+	.value	0x305
+	.byte	0x16
+	.long	0x1cb2
+	.uleb128 0x4
+	.long	.LASF128
+	.byte	0x10
+	.value	0x306
+	.byte	0x12
+	.long	0x1e10
+	.uleb128 0x4
+	.long	.LASF129
+	.byte	0x10
+	.value	0x307
+	.byte	0x10
+	.long	0x1e48
+	.uleb128 0x4
+	.long	.LASF130
+	.byte	0x10
+	.value	0x308
+	.byte	0x12
+	.long	0x1e80
+	.uleb128 0x4
+	.long	.LASF131
+	.byte	0x10
+	.value	0x309
+	.byte	0x12
+	.long	0x1ec6
+	.uleb128 0x4
+	.long	.LASF132
+	.byte	0x10
+	.value	0x30a
+	.byte	0xf
+	.long	0x1ef0
+	.uleb128 0x4
+	.long	.LASF133
+	.byte	0x10
+	.value	0x30b
+	.byte	0x11
+	.long	0x1f1a
+	.uleb128 0x4
+	.long	.LASF134
+	.byte	0x10
+	.value	0x30c
+	.byte	0xf
+	.long	0x1f44
+	.uleb128 0x4
+	.long	.LASF135
+	.byte	0x10
+	.value	0x30d
+	.byte	0x19
+	.long	0x1f8a
+	.uleb128 0x4
+	.long	.LASF136
+	.byte	0x10
+	.value	0x30e
+	.byte	0x19
+	.long	0x1fc2
+	.uleb128 0x4
+	.long	.LASF137
+	.byte	0x10
+	.value	0x30f
+	.byte	0x10
+	.long	0x1ffa
+	.uleb128 0x4
+	.long	.LASF138
+	.byte	0x10
+	.value	0x310
+	.byte	0x14
+	.long	0x2024
+	.uleb128 0x4
+	.long	.LASF139
+	.byte	0x10
+	.value	0x311
+	.byte	0x10
+	.long	0x205c
+	.uleb128 0x4
+	.long	.LASF140
+	.byte	0x10
+	.value	0x312
+	.byte	0xf
+	.long	0x2086
+	.uleb128 0x4
+	.long	.LASF141
+	.byte	0x10
+	.value	0x313
+	.byte	0x10
+	.long	0x20be
+	.uleb128 0x4
+	.long	.LASF142
+	.byte	0x10
+	.value	0x314
+	.byte	0x10
+	.long	0x20e8
+	.uleb128 0x4
+	.long	.LASF143
+	.byte	0x10
+	.value	0x315
+	.byte	0xe
+	.long	0x2112
+	.uleb128 0x4
+	.long	.LASF144
+	.byte	0x10
+	.value	0x316
+	.byte	0x12
+	.long	0x2158
+	.uleb128 0x4
+	.long	.LASF145
+	.byte	0x10
+	.value	0x317
+	.byte	0x12
+	.long	0x2190
+	.uleb128 0x4
+	.long	.LASF146
+	.byte	0x10
+	.value	0x318
+	.byte	0x13
+	.long	0x21c8
+	.uleb128 0x4
+	.long	.LASF147
+	.byte	0x10
+	.value	0x319
+	.byte	0x11
+	.long	0x21f2
+	.uleb128 0x4
+	.long	.LASF148
+	.byte	0x10
+	.value	0x31a
+	.byte	0x12
+	.long	0x222a
+	.uleb128 0x4
+	.long	.LASF149
+	.byte	0x10
+	.value	0x31b
+	.byte	0xf
+	.long	0x2270
+	.uleb128 0x4
+	.long	.LASF150
+	.byte	0x10
+	.value	0x31c
+	.byte	0x11
+	.long	0x22a8
+	.uleb128 0x4
+	.long	.LASF151
+	.byte	0x10
+	.value	0x31d
+	.byte	0x11
+	.long	0x22d2
+	.uleb128 0x4
+	.long	.LASF152
+	.byte	0x10
+	.value	0x31e
+	.byte	0x13
+	.long	0x22fc
+	.uleb128 0x4
+	.long	.LASF153
+	.byte	0x10
+	.value	0x31f
+	.byte	0x13
+	.long	0x2334
+	.uleb128 0x4
+	.long	.LASF154
+	.byte	0x10
+	.value	0x320
+	.byte	0x11
+	.long	0x236c
+	.uleb128 0x4
+	.long	.LASF155
+	.byte	0x10
+	.value	0x321
+	.byte	0xf
+	.long	0x2388
+	.uleb128 0x4
+	.long	.LASF156
+	.byte	0x10
+	.value	0x322
+	.byte	0x13
+	.long	0x23b2
+	.uleb128 0x4
+	.long	.LASF157
+	.byte	0x10
+	.value	0x323
+	.byte	0xe
+	.long	0x23ce
+	.uleb128 0x4
+	.long	.LASF158
+	.byte	0x10
+	.value	0x324
+	.byte	0x11
+	.long	0x23f8
+	.uleb128 0x4
+	.long	.LASF159
+	.byte	0x10
+	.value	0x325
+	.byte	0x13
+	.long	0x2422
+	.uleb128 0x4
+	.long	.LASF160
+	.byte	0x10
+	.value	0x326
+	.byte	0x15
+	.long	0x2468
+	.uleb128 0x4
+	.long	.LASF161
+	.byte	0x10
+	.value	0x327
+	.byte	0x13
+	.long	0x24a0
+	.uleb128 0x4
+	.long	.LASF162
+	.byte	0x10
+	.value	0x328
+	.byte	0x11
+	.long	0x24d8
+	.uleb128 0x4
+	.long	.LASF163
+	.byte	0x10
+	.value	0x329
+	.byte	0x15
+	.long	0x2502
+	.uleb128 0x4
+	.long	.LASF164
+	.byte	0x10
+	.value	0x32a
+	.byte	0x12
+	.long	0x252c
+	.uleb128 0x4
+	.long	.LASF165
+	.byte	0x10
+	.value	0x32b
+	.byte	0x16
+	.long	0x2564
+	.uleb128 0x4
+	.long	.LASF166
+	.byte	0x10
+	.value	0x32c
+	.byte	0x15
+	.long	0x259c
+	.uleb128 0x4
+	.long	.LASF167
+	.byte	0x10
+	.value	0x32d
+	.byte	0x12
+	.long	0x25d4
+	.uleb128 0x4
+	.long	.LASF168
+	.byte	0x10
+	.value	0x32e
+	.byte	0x12
+	.long	0x25fe
+	.uleb128 0x4
+	.long	.LASF169
+	.byte	0x10
+	.value	0x32f
+	.byte	0x14
+	.long	0x2636
+	.uleb128 0x4
+	.long	.LASF170
+	.byte	0x10
+	.value	0x330
+	.byte	0x10
+	.long	0x2660
+	.uleb128 0x4
+	.long	.LASF171
+	.byte	0x10
+	.value	0x331
+	.byte	0xf
+	.long	0x268a
+	.uleb128 0x4
+	.long	.LASF172
+	.byte	0x10
+	.value	0x332
+	.byte	0x11
+	.long	0x26dd
+	.uleb128 0x4
+	.long	.LASF173
+	.byte	0x10
+	.value	0x333
+	.byte	0x11
+	.long	0x2715
+	.uleb128 0x4
+	.long	.LASF174
+	.byte	0x10
+	.value	0x334
+	.byte	0x10
+	.long	0x273f
+	.uleb128 0x4
+	.long	.LASF175
+	.byte	0x10
+	.value	0x335
+	.byte	0x11
+	.long	0x2777
+	.byte	0
+	.uleb128 0x9
+	.long	.LASF176
+	.byte	0xe
+	.byte	0x23
+	.byte	0x17
+	.long	0x9f7
+	.uleb128 0x8
+	.long	0x9fc
+	.uleb128 0xe
+	.long	.LASF177
+	.byte	0x40
+	.byte	0x11
+	.byte	0xcf
+	.byte	0x8
+	.long	0xa98
+	.uleb128 0x7
+	.long	.LASF178
+	.byte	0x11
+	.byte	0xd0
+	.byte	0x8
+	.long	0x305
+	.byte	0
+	.uleb128 0x7
+	.long	.LASF179
+	.byte	0x11
+	.byte	0xd1
+	.byte	0x8
+	.long	0x305
+	.byte	0x1
+	.uleb128 0x7
+	.long	.LASF180
+	.byte	0x11
+	.byte	0xd2
+	.byte	0x9
+	.long	0x312
+	.byte	0x2
+	.uleb128 0x18
+	.string	"id"
+	.byte	0x11
+	.byte	0xd4
+	.byte	0x9
+	.long	0x5ca
+	.byte	0x8
+	.uleb128 0x18
+	.string	"lib"
+	.byte	0x11
+	.byte	0xd5
+	.byte	0x6
+	.long	0xee6
+	.byte	0x10
+	.uleb128 0x7
+	.long	.LASF181
+	.byte	0x11
+	.byte	0xd6
+	.byte	0x7
+	.long	0x353
+	.byte	0x18
+	.uleb128 0x7
+	.long	.LASF182
+	.byte	0x11
+	.byte	0xd7
+	.byte	0x8
+	.long	0xa98
+	.byte	0x20
+	.uleb128 0x7
+	.long	.LASF183
+	.byte	0x11
+	.byte	0xd9
+	.byte	0xf
+	.long	0x43
+	.byte	0x28
+	.uleb128 0x7
+	.long	.LASF184
+	.byte	0x11
+	.byte	0xda
+	.byte	0xf
+	.long	0x43
+	.byte	0x2c
+	.uleb128 0x7
+	.long	.LASF185
+	.byte	0x11
+	.byte	0xdb
+	.byte	0x7
+	.long	0x9eb
+	.byte	0x30
+	.uleb128 0x7
+	.long	.LASF186
+	.byte	0x11
+	.byte	0xdc
+	.byte	0x9
+	.long	0x17d2
+	.byte	0x38
+	.byte	0
+	.uleb128 0x9
+	.long	.LASF187
+	.byte	0xe
+	.byte	0x24
+	.byte	0x18
+	.long	0xaa4
+	.uleb128 0x8
+	.long	0xaa9
+	.uleb128 0xd
+	.long	.LASF188
+	.uleb128 0x9
+	.long	.LASF189
+	.byte	0xe
+	.byte	0x25
+	.byte	0x18
+	.long	0xaba
+	.uleb128 0x8
+	.long	0xabf
+	.uleb128 0xd
+	.long	.LASF190
+	.uleb128 0x9
+	.long	.LASF191
+	.byte	0xe
+	.byte	0x28
+	.byte	0x16
+	.long	0xad0
+	.uleb128 0x8
+	.long	0xad5
+	.uleb128 0x24
+	.long	.LASF192
+	.byte	0x98
+	.byte	0x12
+	.value	0x4af
+	.long	0xee6
+	.uleb128 0x16
+	.string	"hdr"
+	.byte	0x12
+	.value	0x4b0
+	.byte	0x11
+	.long	0x31a9
+	.uleb128 0x4
+	.long	.LASF193
+	.byte	0x12
+	.value	0x4b1
+	.byte	0x11
+	.long	0x3272
+	.uleb128 0x4
+	.long	.LASF194
+	.byte	0x12
+	.value	0x4b3
+	.byte	0x11
+	.long	0x32ac
+	.uleb128 0x4
+	.long	.LASF195
+	.byte	0x12
+	.value	0x4b4
+	.byte	0x12
+	.long	0x32c8
+	.uleb128 0x4
+	.long	.LASF196
+	.byte	0x12
+	.value	0x4b5
+	.byte	0x12
+	.long	0x32f2
+	.uleb128 0x4
+	.long	.LASF197
+	.byte	0x12
+	.value	0x4b6
+	.byte	0x12
+	.long	0x331c
+	.uleb128 0x4
+	.long	.LASF198
+	.byte	0x12
+	.value	0x4b7
+	.byte	0x12
+	.long	0x3346
+	.uleb128 0x4
+	.long	.LASF199
+	.byte	0x12
+	.value	0x4b8
+	.byte	0x12
+	.long	0x3370
+	.uleb128 0x4
+	.long	.LASF200
+	.byte	0x12
+	.value	0x4b9
+	.byte	0x12
+	.long	0x339a
+	.uleb128 0x4
+	.long	.LASF201
+	.byte	0x12
+	.value	0x4ba
+	.byte	0x12
+	.long	0x33c4
+	.uleb128 0x4
+	.long	.LASF202
+	.byte	0x12
+	.value	0x4bb
+	.byte	0x12
+	.long	0x33ee
+	.uleb128 0x4
+	.long	.LASF203
+	.byte	0x12
+	.value	0x4bc
+	.byte	0x12
+	.long	0x3418
+	.uleb128 0x4
+	.long	.LASF204
+	.byte	0x12
+	.value	0x4bd
+	.byte	0x11
+	.long	0x3442
+	.uleb128 0x4
+	.long	.LASF205
+	.byte	0x12
+	.value	0x4be
+	.byte	0x11
+	.long	0x347c
+	.uleb128 0x4
+	.long	.LASF206
+	.byte	0x12
+	.value	0x4bf
+	.byte	0x11
+	.long	0x34c4
+	.uleb128 0x4
+	.long	.LASF207
+	.byte	0x12
+	.value	0x4c0
+	.byte	0x12
+	.long	0x350c
+	.uleb128 0x4
+	.long	.LASF208
+	.byte	0x12
+	.value	0x4c1
+	.byte	0x12
+	.long	0x3552
+	.uleb128 0x4
+	.long	.LASF209
+	.byte	0x12
+	.value	0x4c2
+	.byte	0x12
+	.long	0x3624
+	.uleb128 0x4
+	.long	.LASF210
+	.byte	0x12
+	.value	0x4c4
+	.byte	0x12
+	.long	0x36cb
+	.uleb128 0x4
+	.long	.LASF211
+	.byte	0x12
+	.value	0x4c5
+	.byte	0x13
+	.long	0x365c
+	.uleb128 0x4
+	.long	.LASF212
+	.byte	0x12
+	.value	0x4c6
+	.byte	0x13
+	.long	0x371e
+	.uleb128 0x4
+	.long	.LASF213
+	.byte	0x12
+	.value	0x4c7
+	.byte	0x14
+	.long	0x3756
+	.uleb128 0x4
+	.long	.LASF214
+	.byte	0x12
+	.value	0x4c8
+	.byte	0x12
+	.long	0x3780
+	.uleb128 0x4
+	.long	.LASF215
+	.byte	0x12
+	.value	0x4c9
+	.byte	0x12
+	.long	0x37aa
+	.uleb128 0x4
+	.long	.LASF216
+	.byte	0x12
+	.value	0x4ca
+	.byte	0x11
+	.long	0x37d4
+	.uleb128 0x4
+	.long	.LASF217
+	.byte	0x12
+	.value	0x4cb
+	.byte	0x12
+	.long	0x380c
+	.uleb128 0x4
+	.long	.LASF218
+	.byte	0x12
+	.value	0x4cd
+	.byte	0x11
+	.long	0x3836
+	.uleb128 0x4
+	.long	.LASF219
+	.byte	0x12
+	.value	0x4ce
+	.byte	0x11
+	.long	0x3860
+	.uleb128 0x4
+	.long	.LASF220
+	.byte	0x12
+	.value	0x4cf
+	.byte	0x11
+	.long	0x388a
+	.uleb128 0x4
+	.long	.LASF221
+	.byte	0x12
+	.value	0x4d0
+	.byte	0x11
+	.long	0x38c2
+	.uleb128 0x4
+	.long	.LASF222
+	.byte	0x12
+	.value	0x4d1
+	.byte	0x13
+	.long	0x3916
+	.uleb128 0x4
+	.long	.LASF223
+	.byte	0x12
+	.value	0x4d2
+	.byte	0x13
+	.long	0x38ec
+	.uleb128 0x4
+	.long	.LASF224
+	.byte	0x12
+	.value	0x4d3
+	.byte	0x11
+	.long	0x3940
+	.uleb128 0x4
+	.long	.LASF225
+	.byte	0x12
+	.value	0x4d4
+	.byte	0x12
+	.long	0x396a
+	.uleb128 0x4
+	.long	.LASF226
+	.byte	0x12
+	.value	0x4d5
+	.byte	0x12
+	.long	0x39a2
+	.uleb128 0x4
+	.long	.LASF227
+	.byte	0x12
+	.value	0x4d6
+	.byte	0x13
+	.long	0x39da
+	.uleb128 0x4
+	.long	.LASF228
+	.byte	0x12
+	.value	0x4d7
+	.byte	0x11
+	.long	0x3a04
+	.uleb128 0x4
+	.long	.LASF229
+	.byte	0x12
+	.value	0x4d8
+	.byte	0x13
+	.long	0x3a2e
+	.uleb128 0x4
+	.long	.LASF230
+	.byte	0x12
+	.value	0x4d9
+	.byte	0x12
+	.long	0x3a58
+	.uleb128 0x4
+	.long	.LASF231
+	.byte	0x12
+	.value	0x4da
+	.byte	0x13
+	.long	0x3a82
+	.uleb128 0x4
+	.long	.LASF232
+	.byte	0x12
+	.value	0x4db
+	.byte	0x15
+	.long	0x3aac
+	.uleb128 0x4
+	.long	.LASF233
+	.byte	0x12
+	.value	0x4dc
+	.byte	0x13
+	.long	0x3ad6
+	.uleb128 0x4
+	.long	.LASF234
+	.byte	0x12
+	.value	0x4dd
+	.byte	0x12
+	.long	0x3b00
+	.uleb128 0x4
+	.long	.LASF235
+	.byte	0x12
+	.value	0x4de
+	.byte	0x12
+	.long	0x3bee
+	.uleb128 0x4
+	.long	.LASF236
+	.byte	0x12
+	.value	0x4df
+	.byte	0x13
+	.long	0x3b7e
+	.uleb128 0x4
+	.long	.LASF237
+	.byte	0x12
+	.value	0x4e0
+	.byte	0x13
+	.long	0x3c34
+	.uleb128 0x4
+	.long	.LASF238
+	.byte	0x12
+	.value	0x4e1
+	.byte	0x13
+	.long	0x3c7a
+	.uleb128 0x4
+	.long	.LASF239
+	.byte	0x12
+	.value	0x4e2
+	.byte	0x12
+	.long	0x3cce
+	.uleb128 0x4
+	.long	.LASF240
+	.byte	0x12
+	.value	0x4e3
+	.byte	0x12
+	.long	0x3d22
+	.uleb128 0x4
+	.long	.LASF241
+	.byte	0x12
+	.value	0x4e5
+	.byte	0x13
+	.long	0x3d4c
+	.uleb128 0x4
+	.long	.LASF242
+	.byte	0x12
+	.value	0x4e6
+	.byte	0x11
+	.long	0x3d76
+	.uleb128 0x4
+	.long	.LASF243
+	.byte	0x12
+	.value	0x4e7
+	.byte	0x11
+	.long	0x3d92
+	.uleb128 0x4
+	.long	.LASF244
+	.byte	0x12
+	.value	0x4e8
+	.byte	0x10
+	.long	0x3dca
+	.uleb128 0x4
+	.long	.LASF245
+	.byte	0x12
+	.value	0x4e9
+	.byte	0x11
+	.long	0x3e02
+	.uleb128 0x4
+	.long	.LASF246
+	.byte	0x12
+	.value	0x4ea
+	.byte	0x14
+	.long	0x40d6
+	.uleb128 0x4
+	.long	.LASF247
+	.byte	0x12
+	.value	0x4eb
+	.byte	0x12
+	.long	0x3e2c
+	.uleb128 0x4
+	.long	.LASF248
+	.byte	0x12
+	.value	0x4ec
+	.byte	0x12
+	.long	0x3e64
+	.uleb128 0x4
+	.long	.LASF249
+	.byte	0x12
+	.value	0x4ed
+	.byte	0x13
+	.long	0x3b46
+	.uleb128 0x4
+	.long	.LASF250
+	.byte	0x12
+	.value	0x4ee
+	.byte	0x13
+	.long	0x3e8e
+	.uleb128 0x4
+	.long	.LASF251
+	.byte	0x12
+	.value	0x4ef
+	.byte	0x12
+	.long	0x3ec6
+	.uleb128 0x4
+	.long	.LASF252
+	.byte	0x12
+	.value	0x4f0
+	.byte	0x13
+	.long	0x3efe
+	.uleb128 0x4
+	.long	.LASF253
+	.byte	0x12
+	.value	0x4f1
+	.byte	0x13
+	.long	0x3f51
+	.uleb128 0x4
+	.long	.LASF254
+	.byte	0x12
+	.value	0x4f2
+	.byte	0x13
+	.long	0x3f88
+	.uleb128 0x4
+	.long	.LASF255
+	.byte	0x12
+	.value	0x4f3
+	.byte	0x13
+	.long	0x3fcd
+	.uleb128 0x4
+	.long	.LASF256
+	.byte	0x12
+	.value	0x4f4
+	.byte	0x14
+	.long	0x4020
+	.uleb128 0x4
+	.long	.LASF257
+	.byte	0x12
+	.value	0x4f5
+	.byte	0x14
+	.long	0x4074
+	.uleb128 0x4
+	.long	.LASF258
+	.byte	0x12
+	.value	0x4f6
+	.byte	0x15
+	.long	0x4145
+	.uleb128 0x4
+	.long	.LASF259
+	.byte	0x12
+	.value	0x4f7
+	.byte	0x14
+	.long	0x417d
+	.uleb128 0x4
+	.long	.LASF260
+	.byte	0x12
+	.value	0x4f8
+	.byte	0x12
+	.long	0x4199
+	.uleb128 0x4
+	.long	.LASF261
+	.byte	0x12
+	.value	0x4f9
+	.byte	0x13
+	.long	0x3bc4
+	.uleb128 0x4
+	.long	.LASF262
+	.byte	0x12
+	.value	0x4fa
+	.byte	0x14
+	.long	0x41d1
+	.uleb128 0x4
+	.long	.LASF263
+	.byte	0x12
+	.value	0x4fc
+	.byte	0x12
+	.long	0x410d
+	.uleb128 0x4
+	.long	.LASF264
+	.byte	0x12
+	.value	0x4fe
+	.byte	0x12
+	.long	0x41fb
+	.uleb128 0x4
+	.long	.LASF265
+	.byte	0x12
+	.value	0x4ff
+	.byte	0x12
+	.long	0x4225
+	.uleb128 0x4
+	.long	.LASF266
+	.byte	0x12
+	.value	0x500
+	.byte	0x12
+	.long	0x424f
+	.uleb128 0x4
+	.long	.LASF267
+	.byte	0x12
+	.value	0x501
+	.byte	0x13
+	.long	0x4279
+	.uleb128 0x4
+	.long	.LASF268
+	.byte	0x12
+	.value	0x502
+	.byte	0x13
+	.long	0x42b1
+	.uleb128 0x4
+	.long	.LASF269
+	.byte	0x12
+	.value	0x503
+	.byte	0x15
+	.long	0x42e9
+	.uleb128 0x4
+	.long	.LASF270
+	.byte	0x12
+	.value	0x504
+	.byte	0x14
+	.long	0x432f
+	.byte	0
+	.uleb128 0x23
+	.string	"Lib"
+	.byte	0x2a
+	.long	0xef0
+	.uleb128 0x8
+	.long	0xef5
+	.uleb128 0x36
+	.string	"lib"
+	.value	0x308
+	.byte	0x13
+	.byte	0x63
+	.byte	0x8
+	.long	0x10a4
+	.uleb128 0x7
+	.long	.LASF271
+	.byte	0x13
+	.byte	0x64
+	.byte	0xb
+	.long	0x513
+	.byte	0
+	.uleb128 0x7
+	.long	.LASF272
+	.byte	0x13
+	.byte	0x65
+	.byte	0xa
+	.long	0x10a4
+	.byte	0x8
+	.uleb128 0x7
+	.long	.LASF273
+	.byte	0x13
+	.byte	0x66
+	.byte	0x8
+	.long	0x305
+	.byte	0x10
+	.uleb128 0x7
+	.long	.LASF274
+	.byte	0x13
+	.byte	0x67
+	.byte	0x8
+	.long	0x305
+	.byte	0x11
+	.uleb128 0x7
+	.long	.LASF275
+	.byte	0x13
+	.byte	0x68
+	.byte	0x8
+	.long	0x305
+	.byte	0x12
+	.uleb128 0x7
+	.long	.LASF276
+	.byte	0x13
+	.byte	0x69
+	.byte	0x9
+	.long	0x387
+	.byte	0x18
+	.uleb128 0x7
+	.long	.LASF277
+	.byte	0x13
+	.byte	0x6a
+	.byte	0x9
+	.long	0x2f4
+	.byte	0x20
+	.uleb128 0x7
+	.long	.LASF278
+	.byte	0x13
+	.byte	0x6b
+	.byte	0x9
+	.long	0x36d
+	.byte	0x28
+	.uleb128 0x7
+	.long	.LASF279
+	.byte	0x13
+	.byte	0x6c
+	.byte	0x7
+	.long	0x9eb
+	.byte	0x30
+	.uleb128 0x7
+	.long	.LASF280
+	.byte	0x13
+	.byte	0x6d
+	.byte	0x7
+	.long	0x10d0
+	.byte	0x38
+	.uleb128 0x7
+	.long	.LASF281
+	.byte	0x13
+	.byte	0x70
+	.byte	0x9
+	.long	0x312
+	.byte	0x40
+	.uleb128 0x7
+	.long	.LASF282
+	.byte	0x13
+	.byte	0x71
+	.byte	0x9
+	.long	0x312
+	.byte	0x42
+	.uleb128 0x7
+	.long	.LASF283
+	.byte	0x13
+	.byte	0x72
+	.byte	0x9
+	.long	0x1204
+	.byte	0x48
+	.uleb128 0x7
+	.long	.LASF284
+	.byte	0x13
+	.byte	0x73
+	.byte	0xb
+	.long	0x11f8
+	.byte	0x50
+	.uleb128 0x7
+	.long	.LASF285
+	.byte	0x13
+	.byte	0x74
+	.byte	0xa
+	.long	0x440c
+	.byte	0x58
+	.uleb128 0x7
+	.long	.LASF286
+	.byte	0x13
+	.byte	0x75
+	.byte	0xb
+	.long	0x4411
+	.byte	0x60
+	.uleb128 0x7
+	.long	.LASF287
+	.byte	0x13
+	.byte	0x76
+	.byte	0xb
+	.long	0x11f8
+	.byte	0x68
+	.uleb128 0x7
+	.long	.LASF288
+	.byte	0x13
+	.byte	0x79
+	.byte	0x8
+	.long	0x31f
+	.byte	0x70
+	.uleb128 0x7
+	.long	.LASF289
+	.byte	0x13
+	.byte	0x7a
+	.byte	0xa
+	.long	0x11c6
+	.byte	0x78
+	.uleb128 0x7
+	.long	.LASF290
+	.byte	0x13
+	.byte	0x7b
+	.byte	0xc
+	.long	0x11ba
+	.byte	0x80
+	.uleb128 0x7
+	.long	.LASF291
+	.byte	0x13
+	.byte	0x7c
+	.byte	0x8
+	.long	0x50e
+	.byte	0x88
+	.uleb128 0x7
+	.long	.LASF292
+	.byte	0x13
+	.byte	0x7d
+	.byte	0x9
+	.long	0x3c8
+	.byte	0x90
+	.uleb128 0x7
+	.long	.LASF293
+	.byte	0x13
+	.byte	0x80
+	.byte	0x9
+	.long	0x360
+	.byte	0x98
+	.uleb128 0x7
+	.long	.LASF294
+	.byte	0x13
+	.byte	0x81
+	.byte	0x9
+	.long	0x1734
+	.byte	0xa0
+	.uleb128 0x7
+	.long	.LASF295
+	.byte	0x13
+	.byte	0x82
+	.byte	0x8
+	.long	0x50e
+	.byte	0xa8
+	.uleb128 0x7
+	.long	.LASF296
+	.byte	0x13
+	.byte	0x83
+	.byte	0x9
+	.long	0x3c8
+	.byte	0xb0
+	.uleb128 0x18
+	.string	"pos"
+	.byte	0x13
+	.byte	0x84
+	.byte	0x9
+	.long	0x3c8
+	.byte	0xb8
+	.uleb128 0x7
+	.long	.LASF297
+	.byte	0x13
+	.byte	0x85
+	.byte	0x9
+	.long	0x3c8
+	.byte	0xc0
+	.uleb128 0x7
+	.long	.LASF298
+	.byte	0x13
+	.byte	0x86
+	.byte	0x7
+	.long	0xac4
+	.byte	0xc8
+	.uleb128 0x7
+	.long	.LASF299
+	.byte	0x13
+	.byte	0x87
+	.byte	0x7
+	.long	0xac4
+	.byte	0xd0
+	.uleb128 0x7
+	.long	.LASF300
+	.byte	0x13
+	.byte	0x89
+	.byte	0x8
+	.long	0x617
+	.byte	0xd8
+	.uleb128 0x18
+	.string	"hdr"
+	.byte	0x13
+	.byte	0x8b
+	.byte	0x10
+	.long	0x438e
+	.byte	0xe0
+	.byte	0
+	.uleb128 0x9
+	.long	.LASF301
+	.byte	0xe
+	.byte	0x2c
+	.byte	0x1b
+	.long	0x10b0
+	.uleb128 0x8
+	.long	0x10b5
+	.uleb128 0xd
+	.long	.LASF302
+	.uleb128 0x9
+	.long	.LASF303
+	.byte	0xe
+	.byte	0x2e
+	.byte	0x1c
+	.long	0x10c6
+	.uleb128 0x8
+	.long	0x10cb
+	.uleb128 0xd
+	.long	.LASF304
+	.uleb128 0x9
+	.long	.LASF305
+	.byte	0xe
+	.byte	0x2f
+	.byte	0x24
+	.long	0x10dc
+	.uleb128 0x8
+	.long	0x10e1
+	.uleb128 0xe
+	.long	.LASF306
+	.byte	0x10
+	.byte	0xe
+	.byte	0x56
+	.byte	0x10
+	.long	0x1109
+	.uleb128 0x7
+	.long	.LASF307
+	.byte	0xe
+	.byte	0x56
+	.byte	0x2e
+	.long	0x10ba
+	.byte	0
+	.uleb128 0x7
+	.long	.LASF92
+	.byte	0xe
+	.byte	0x56
+	.byte	0x4f
+	.long	0x10dc
+	.byte	0x8
+	.byte	0
+	.uleb128 0x9
+	.long	.LASF308
+	.byte	0xe
+	.byte	0x30
+	.byte	0x1a
+	.long	0x1115
+	.uleb128 0x8
+	.long	0x111a
+	.uleb128 0xd
+	.long	.LASF309
+	.uleb128 0x9
+	.long	.LASF310
+	.byte	0xe
+	.byte	0x37
+	.byte	0x1a
+	.long	0x112b
+	.uleb128 0x8
+	.long	0x1130
+	.uleb128 0xd
+	.long	.LASF311
+	.uleb128 0x9
+	.long	.LASF312
+	.byte	0xe
+	.byte	0x38
+	.byte	0x1b
+	.long	0x1141
+	.uleb128 0x8
+	.long	0x1146
+	.uleb128 0xd
+	.long	.LASF313
+	.uleb128 0x9
+	.long	.LASF314
+	.byte	0xe
+	.byte	0x39
+	.byte	0x1b
+	.long	0x1157
+	.uleb128 0x8
+	.long	0x115c
+	.uleb128 0xd
+	.long	.LASF315
+	.uleb128 0x9
+	.long	.LASF316
+	.byte	0xe
+	.byte	0x3a
+	.byte	0x18
+	.long	0x116d
+	.uleb128 0x8
+	.long	0x1172
+	.uleb128 0x37
+	.long	.LASF893
+	.uleb128 0x9
+	.long	.LASF317
+	.byte	0xe
+	.byte	0x3d
+	.byte	0x22
+	.long	0x1183
+	.uleb128 0x8
+	.long	0x1188
+	.uleb128 0xd
+	.long	.LASF318
+	.uleb128 0xe
+	.long	.LASF319
+	.byte	0x10
+	.byte	0xe
+	.byte	0x52
+	.byte	0x10
+	.long	0x11b5
+	.uleb128 0x7
+	.long	.LASF307
+	.byte	0xe
+	.byte	0x52
+	.byte	0x26
+	.long	0xa98
+	.byte	0
+	.uleb128 0x7
+	.long	.LASF92
+	.byte	0xe
+	.byte	0x52
+	.byte	0x43
+	.long	0x11b5
+	.byte	0x8
+	.byte	0
+	.uleb128 0x8
+	.long	0x118d
+	.uleb128 0x9
+	.long	.LASF320
+	.byte	0xe
+	.byte	0x52
+	.byte	0x4c
+	.long	0x11b5
+	.uleb128 0x8
+	.long	0xa98
+	.uleb128 0xe
+	.long	.LASF321
+	.byte	0x10
+	.byte	0xe
+	.byte	0x57
+	.byte	0x10
+	.long	0x11f3
+	.uleb128 0x7
+	.long	.LASF307
+	.byte	0xe
+	.byte	0x57
+	.byte	0x24
+	.long	0x9eb
+	.byte	0
+	.uleb128 0x7
+	.long	.LASF92
+	.byte	0xe
+	.byte	0x57
+	.byte	0x40
+	.long	0x11f3
+	.byte	0x8
+	.byte	0
+	.uleb128 0x8
+	.long	0x11cb
+	.uleb128 0x9
+	.long	.LASF322
+	.byte	0xe
+	.byte	0x57
+	.byte	0x49
+	.long	0x11f3
+	.uleb128 0x8
+	.long	0x9eb
+	.uleb128 0xe
+	.long	.LASF323
+	.byte	0x10
+	.byte	0xe
+	.byte	0x5a
+	.byte	0x10
+	.long	0x1231
+	.uleb128 0x7
+	.long	.LASF307
+	.byte	0xe
+	.byte	0x5a
+	.byte	0x24
+	.long	0xac4
+	.byte	0
+	.uleb128 0x7
+	.long	.LASF92
+	.byte	0xe
+	.byte	0x5a
+	.byte	0x40
+	.long	0x1231
+	.byte	0x8
+	.byte	0
+	.uleb128 0x8
+	.long	0x1209
+	.uleb128 0x9
+	.long	.LASF324
+	.byte	0xe
+	.byte	0x5a
+	.byte	0x49
+	.long	0x1231
+	.uleb128 0x25
+	.long	.LASF325
+	.value	0x140
+	.byte	0xe
+	.byte	0x5a
+	.byte	0x5a
+	.long	0x1440
+	.uleb128 0x7
+	.long	.LASF326
+	.byte	0xe
+	.byte	0x5a
+	.byte	0x7a
+	.long	0x1459
+	.byte	0
+	.uleb128 0x7
+	.long	.LASF327
+	.byte	0xe
+	.byte	0x5a
+	.byte	0x9d
+	.long	0x146d
+	.byte	0x8
+	.uleb128 0x7
+	.long	.LASF328
+	.byte	0xe
+	.byte	0x5a
+	.byte	0xbb
+	.long	0x1482
+	.byte	0x10
+	.uleb128 0x7
+	.long	.LASF329
+	.byte	0xe
+	.byte	0x5a
+	.byte	0xda
+	.long	0x1496
+	.byte	0x18
+	.uleb128 0x7
+	.long	.LASF330
+	.byte	0xe
+	.byte	0x5a
+	.byte	0xfc
+	.long	0x14ab
+	.byte	0x20
+	.uleb128 0xb
+	.long	.LASF331
+	.value	0x11a
+	.long	0x14e2
+	.byte	0x28
+	.uleb128 0xb
+	.long	.LASF332
+	.value	0x156
+	.long	0x1505
+	.byte	0x30
+	.uleb128 0xb
+	.long	.LASF333
+	.value	0x197
+	.long	0x1519
+	.byte	0x38
+	.uleb128 0xb
+	.long	.LASF334
+	.value	0x1b4
+	.long	0x1529
+	.byte	0x40
+	.uleb128 0xb
+	.long	.LASF335
+	.value	0x1d1
+	.long	0x1542
+	.byte	0x48
+	.uleb128 0xb
+	.long	.LASF336
+	.value	0x1f6
+	.long	0x1567
+	.byte	0x50
+	.uleb128 0xb
+	.long	.LASF337
+	.value	0x22a
+	.long	0x1585
+	.byte	0x58
+	.uleb128 0xb
+	.long	.LASF338
+	.value	0x26c
+	.long	0x15b7
+	.byte	0x60
+	.uleb128 0x26
+	.string	"Elt"
+	.byte	0x5a
+	.value	0x2ac
+	.long	0x15d0
+	.byte	0x68
+	.uleb128 0xb
+	.long	.LASF339
+	.value	0x2d0
+	.long	0x15e9
+	.byte	0x70
+	.uleb128 0xb
+	.long	.LASF340
+	.value	0x2f5
+	.long	0x1519
+	.byte	0x78
+	.uleb128 0xb
+	.long	.LASF341
+	.value	0x314
+	.long	0x15fd
+	.byte	0x80
+	.uleb128 0xb
+	.long	.LASF342
+	.value	0x330
+	.long	0x1616
+	.byte	0x88
+	.uleb128 0xb
+	.long	.LASF343
+	.value	0x355
+	.long	0x1616
+	.byte	0x90
+	.uleb128 0xb
+	.long	.LASF344
+	.value	0x37b
+	.long	0x1616
+	.byte	0x98
+	.uleb128 0xb
+	.long	.LASF345
+	.value	0x3a4
+	.long	0x1519
+	.byte	0xa0
+	.uleb128 0xb
+	.long	.LASF346
+	.value	0x3c1
+	.long	0x1542
+	.byte	0xa8
+	.uleb128 0xb
+	.long	.LASF347
+	.value	0x3ea
+	.long	0x1643
+	.byte	0xb0
+	.uleb128 0xb
+	.long	.LASF348
+	.value	0x41d
+	.long	0x1661
+	.byte	0xb8
+	.uleb128 0x26
+	.string	"Map"
+	.byte	0x5a
+	.value	0x45c
+	.long	0x167a
+	.byte	0xc0
+	.uleb128 0xb
+	.long	.LASF349
+	.value	0x489
+	.long	0x167a
+	.byte	0xc8
+	.uleb128 0xb
+	.long	.LASF350
+	.value	0x4b7
+	.long	0x1519
+	.byte	0xd0
+	.uleb128 0xb
+	.long	.LASF351
+	.value	0x4d7
+	.long	0x1519
+	.byte	0xd8
+	.uleb128 0xb
+	.long	.LASF352
+	.value	0x4f8
+	.long	0x1542
+	.byte	0xe0
+	.uleb128 0xb
+	.long	.LASF353
+	.value	0x521
+	.long	0x1542
+	.byte	0xe8
+	.uleb128 0xb
+	.long	.LASF354
+	.value	0x547
+	.long	0x1693
+	.byte	0xf0
+	.uleb128 0xb
+	.long	.LASF355
+	.value	0x566
+	.long	0x16b1
+	.byte	0xf8
+	.uleb128 0x14
+	.long	.LASF356
+	.value	0x59e
+	.long	0x16ca
+	.value	0x100
+	.uleb128 0x14
+	.long	.LASF357
+	.value	0x5c8
+	.long	0x16e3
+	.value	0x108
+	.uleb128 0x14
+	.long	.LASF358
+	.value	0x5e6
+	.long	0x1701
+	.value	0x110
+	.uleb128 0x14
+	.long	.LASF359
+	.value	0x624
+	.long	0x171f
+	.value	0x118
+	.uleb128 0x14
+	.long	.LASF360
+	.value	0x65d
+	.long	0x1739
+	.value	0x120
+	.uleb128 0x14
+	.long	.LASF361
+	.value	0x683
+	.long	0x1770
+	.value	0x128
+	.uleb128 0x14
+	.long	.LASF362
+	.value	0x6be
+	.long	0x179d
+	.value	0x130
+	.uleb128 0x14
+	.long	.LASF363
+	.value	0x712
+	.long	0x17bb
+	.value	0x138
+	.byte	0
+	.uleb128 0x20
+	.long	0x1242
+	.uleb128 0xa
+	.long	0x1236
+	.long	0x1459
+	.uleb128 0x6
+	.long	0xac4
+	.uleb128 0x6
+	.long	0x1236
+	.byte	0
+	.uleb128 0x8
+	.long	0x1445
+	.uleb128 0xa
+	.long	0x1236
+	.long	0x146d
+	.uleb128 0x6
+	.long	0xac4
+	.byte	0
+	.uleb128 0x8
+	.long	0x145e
+	.uleb128 0xa
+	.long	0x1236
+	.long	0x1482
+	.uleb128 0x6
+	.long	0x2e
+	.uleb128 0x13
+	.byte	0
+	.uleb128 0x8
+	.long	0x1472
+	.uleb128 0xa
+	.long	0x1236
+	.long	0x1496
+	.uleb128 0x6
+	.long	0x509
+	.byte	0
+	.uleb128 0x8
+	.long	0x1487
+	.uleb128 0xa
+	.long	0x1236
+	.long	0x14ab
+	.uleb128 0x6
+	.long	0xac4
+	.uleb128 0x13
+	.byte	0
+	.uleb128 0x8
+	.long	0x149b
+	.uleb128 0xa
+	.long	0x346
+	.long	0x14c9
+	.uleb128 0x6
+	.long	0x1236
+	.uleb128 0x6
+	.long	0x1236
+	.uleb128 0x6
+	.long	0x14c9
+	.byte	0
+	.uleb128 0x8
+	.long	0x14ce
+	.uleb128 0xa
+	.long	0x346
+	.long	0x14e2
+	.uleb128 0x6
+	.long	0xac4
+	.uleb128 0x6
+	.long	0xac4
+	.byte	0
+	.uleb128 0x8
+	.long	0x14b0
+	.uleb128 0xa
+	.long	0xac4
+	.long	0x1505
+	.uleb128 0x6
+	.long	0x1236
+	.uleb128 0x6
+	.long	0xac4
+	.uleb128 0x6
+	.long	0x14c9
+	.uleb128 0x6
+	.long	0x50e
+	.byte	0
+	.uleb128 0x8
+	.long	0x14e7
+	.uleb128 0xa
+	.long	0x1236
+	.long	0x1519
+	.uleb128 0x6
+	.long	0x1236
+	.byte	0
+	.uleb128 0x8
+	.long	0x150a
+	.uleb128 0x19
+	.long	0x1529
+	.uleb128 0x6
+	.long	0x1236
+	.byte	0
+	.uleb128 0x8
+	.long	0x151e
+	.uleb128 0xa
+	.long	0x1236
+	.long	0x1542
+	.uleb128 0x6
+	.long	0x1236
+	.uleb128 0x6
+	.long	0x1236
+	.byte	0
+	.uleb128 0x8
+	.long	0x152e
+	.uleb128 0x19
+	.long	0x1557
+	.uleb128 0x6
+	.long	0x1236
+	.uleb128 0x6
+	.long	0x1557
+	.byte	0
+	.uleb128 0x8
+	.long	0x155c
+	.uleb128 0x19
+	.long	0x1567
+	.uleb128 0x6
+	.long	0xac4
+	.byte	0
+	.uleb128 0x8
+	.long	0x1547
+	.uleb128 0xa
+	.long	0x1236
+	.long	0x1585
+	.uleb128 0x6
+	.long	0x1236
+	.uleb128 0x6
+	.long	0x1236
+	.uleb128 0x6
+	.long	0x1557
+	.byte	0
+	.uleb128 0x8
+	.long	0x156c
+	.uleb128 0xa
+	.long	0x1236
+	.long	0x15a3
+	.uleb128 0x6
+	.long	0x1236
+	.uleb128 0x6
+	.long	0x1557
+	.uleb128 0x6
+	.long	0x15a3
+	.byte	0
+	.uleb128 0x8
+	.long	0x15a8
+	.uleb128 0xa
+	.long	0x346
+	.long	0x15b7
+	.uleb128 0x6
+	.long	0xac4
+	.byte	0
+	.uleb128 0x8
+	.long	0x158a
+	.uleb128 0xa
+	.long	0xac4
+	.long	0x15d0
+	.uleb128 0x6
+	.long	0x1236
+	.uleb128 0x6
+	.long	0x360
+	.byte	0
+	.uleb128 0x8
+	.long	0x15bc
+	.uleb128 0xa
+	.long	0x1236
+	.long	0x15e9
+	.uleb128 0x6
+	.long	0x1236
+	.uleb128 0x6
+	.long	0x360
+	.byte	0
+	.uleb128 0x8
+	.long	0x15d5
+	.uleb128 0xa
+	.long	0x360
+	.long	0x15fd
+	.uleb128 0x6
+	.long	0x1236
+	.byte	0
+	.uleb128 0x8
+	.long	0x15ee
+	.uleb128 0xa
+	.long	0x346
+	.long	0x1616
+	.uleb128 0x6
+	.long	0x1236
+	.uleb128 0x6
+	.long	0x360
+	.byte	0
+	.uleb128 0x8
+	.long	0x1602
+	.uleb128 0xa
+	.long	0x1236
+	.long	0x162f
+	.uleb128 0x6
+	.long	0x1236
+	.uleb128 0x6
+	.long	0x162f
+	.byte	0
+	.uleb128 0x8
+	.long	0x1634
+	.uleb128 0xa
+	.long	0xac4
+	.long	0x1643
+	.uleb128 0x6
+	.long	0xac4
+	.byte	0
+	.uleb128 0x8
+	.long	0x161b
+	.uleb128 0xa
+	.long	0x1236
+	.long	0x1661
+	.uleb128 0x6
+	.long	0x1236
+	.uleb128 0x6
+	.long	0x1236
+	.uleb128 0x6
+	.long	0x162f
+	.byte	0
+	.uleb128 0x8
+	.long	0x1648
+	.uleb128 0xa
+	.long	0x1236
+	.long	0x167a
+	.uleb128 0x6
+	.long	0x162f
+	.uleb128 0x6
+	.long	0x1236
+	.byte	0
+	.uleb128 0x8
+	.long	0x1666
+	.uleb128 0xa
+	.long	0x346
+	.long	0x1693
+	.uleb128 0x6
+	.long	0x1236
+	.uleb128 0x6
+	.long	0xac4
+	.byte	0
+	.uleb128 0x8
+	.long	0x167f
+	.uleb128 0xa
+	.long	0x346
+	.long	0x16b1
+	.uleb128 0x6
+	.long	0x1236
+	.uleb128 0x6
+	.long	0xac4
+	.uleb128 0x6
+	.long	0x14c9
+	.byte	0
+	.uleb128 0x8
+	.long	0x1698
+	.uleb128 0xa
+	.long	0x346
+	.long	0x16ca
+	.uleb128 0x6
+	.long	0x1236
+	.uleb128 0x6
+	.long	0x1236
+	.byte	0
+	.uleb128 0x8
+	.long	0x16b6
+	.uleb128 0xa
+	.long	0x2e
+	.long	0x16e3
+	.uleb128 0x6
+	.long	0x1236
+	.uleb128 0x6
+	.long	0xac4
+	.byte	0
+	.uleb128 0x8
+	.long	0x16cf
+	.uleb128 0xa
+	.long	0x2e
+	.long	0x1701
+	.uleb128 0x6
+	.long	0x1236
+	.uleb128 0x6
+	.long	0xac4
+	.uleb128 0x6
+	.long	0x14c9
+	.byte	0
+	.uleb128 0x8
+	.long	0x16e8
+	.uleb128 0xa
+	.long	0x1236
+	.long	0x171f
+	.uleb128 0x6
+	.long	0x1236
+	.uleb128 0x6
+	.long	0xac4
+	.uleb128 0x6
+	.long	0x14c9
+	.byte	0
+	.uleb128 0x8
+	.long	0x1706
+	.uleb128 0x19
+	.long	0x1734
+	.uleb128 0x6
+	.long	0x1734
+	.uleb128 0x6
+	.long	0x1236
+	.byte	0
+	.uleb128 0x8
+	.long	0xac4
+	.uleb128 0x8
+	.long	0x1724
+	.uleb128 0xa
+	.long	0x2e
+	.long	0x1757
+	.uleb128 0x6
+	.long	0x2f4
+	.uleb128 0x6
+	.long	0x1236
+	.uleb128 0x6
+	.long	0x1757
+	.byte	0
+	.uleb128 0x8
+	.long	0x175c
+	.uleb128 0xa
+	.long	0x2e
+	.long	0x1770
+	.uleb128 0x6
+	.long	0x2f4
+	.uleb128 0x6
+	.long	0xac4
+	.byte	0
+	.uleb128 0x8
+	.long	0x173e
+	.uleb128 0xa
+	.long	0x2e
+	.long	0x179d
+	.uleb128 0x6
+	.long	0x2f4
+	.uleb128 0x6
+	.long	0x1236
+	.uleb128 0x6
+	.long	0x1757
+	.uleb128 0x6
+	.long	0x80
+	.uleb128 0x6
+	.long	0x80
+	.uleb128 0x6
+	.long	0x80
+	.byte	0
+	.uleb128 0x8
+	.long	0x1775
+	.uleb128 0xa
+	.long	0x2e
+	.long	0x17bb
+	.uleb128 0x6
+	.long	0x403
+	.uleb128 0x6
+	.long	0x394
+	.uleb128 0x6
+	.long	0x1236
+	.byte	0
+	.uleb128 0x8
+	.long	0x17a2
+	.uleb128 0x38
+	.long	.LASF894
+	.byte	0xe
+	.byte	0x5a
+	.value	0x763
+	.long	0x17cd
+	.uleb128 0x8
+	.long	0x1440
+	.uleb128 0x8
+	.long	0x32c
+	.uleb128 0xe
+	.long	.LASF364
+	.byte	0x10
+	.byte	0xe
+	.byte	0x5d
+	.byte	0x10
+	.long	0x17ff
+	.uleb128 0x7
+	.long	.LASF307
+	.byte	0xe
+	.byte	0x5d
+	.byte	0x28
+	.long	0x111f
+	.byte	0
+	.uleb128 0x7
+	.long	.LASF92
+	.byte	0xe
+	.byte	0x5d
+	.byte	0x46
+	.long	0x17ff
+	.byte	0x8
+	.byte	0
+	.uleb128 0x8
+	.long	0x17d7
+	.uleb128 0x9
+	.long	.LASF365
+	.byte	0xe
+	.byte	0x5d
+	.byte	0x4f
+	.long	0x17ff
+	.uleb128 0x11
+	.long	0x387
+	.long	0x1820
+	.uleb128 0x12
+	.long	0x4a
+	.byte	0x9
+	.byte	0
+	.uleb128 0x8
+	.long	0x3bb
+	.uleb128 0xc
+	.long	.LASF366
+	.byte	0x10
+	.value	0x100
+	.byte	0xf
+	.long	0x31f
+	.uleb128 0x5
+	.long	.LASF367
+	.byte	0x48
+	.byte	0x10
+	.value	0x11e
+	.long	0x18be
+	.uleb128 0x2
+	.long	.LASF368
+	.byte	0x10
+	.value	0x11f
+	.byte	0x6
+	.long	0x603
+	.byte	0
+	.uleb128 0x2
+	.long	.LASF280
+	.byte	0x10
+	.value	0x120
+	.byte	0x7
+	.long	0x10d0
+	.byte	0x8
+	.uleb128 0x2
+	.long	.LASF369
+	.byte	0x10
+	.value	0x121
+	.byte	0x6
+	.long	0x2e
+	.byte	0x10
+	.uleb128 0x2
+	.long	.LASF177
+	.byte	0x10
+	.value	0x122
+	.byte	0x7
+	.long	0x9eb
+	.byte	0x18
+	.uleb128 0x2
+	.long	.LASF188
+	.byte	0x10
+	.value	0x123
+	.byte	0x8
+	.long	0xa98
+	.byte	0x20
+	.uleb128 0x2
+	.long	.LASF370
+	.byte	0x10
+	.value	0x124
+	.byte	0x8
+	.long	0x617
+	.byte	0x28
+	.uleb128 0x2
+	.long	.LASF371
+	.byte	0x10
+	.value	0x125
+	.byte	0xa
+	.long	0x1825
+	.byte	0x30
+	.uleb128 0x2
+	.long	.LASF372
+	.byte	0x10
+	.value	0x126
+	.byte	0x8
+	.long	0x1161
+	.byte	0x38
+	.uleb128 0x2
+	.long	.LASF279
+	.byte	0x10
+	.value	0x127
+	.byte	0xb
+	.long	0x11f8
+	.byte	0x40
+	.byte	0
+	.uleb128 0xc
+	.long	.LASF373
+	.byte	0x10
+	.value	0x12a
+	.byte	0x19
+	.long	0x18cb
+	.uleb128 0x8
+	.long	0x1832
+	.uleb128 0x1b
+	.byte	0x8
+	.byte	0x10
+	.value	0x13a
+	.long	0x18f4
+	.uleb128 0x4
+	.long	.LASF374
+	.byte	0x10
+	.value	0x13b
+	.byte	0x9
+	.long	0xaae
+	.uleb128 0x4
+	.long	.LASF375
+	.byte	0x10
+	.value	0x13c
+	.byte	0x9
+	.long	0xa98
+	.byte	0
+	.uleb128 0x5
+	.long	.LASF103
+	.byte	0x28
+	.byte	0x10
+	.value	0x130
+	.long	0x1964
+	.uleb128 0x3
+	.string	"tag"
+	.byte	0x10
+	.value	0x131
+	.byte	0x8
+	.long	0x305
+	.byte	0
+	.uleb128 0x3
+	.string	"use"
+	.byte	0x10
+	.value	0x132
+	.byte	0x8
+	.long	0x305
+	.byte	0x1
+	.uleb128 0x2
+	.long	.LASF376
+	.byte	0x10
+	.value	0x133
+	.byte	0x8
+	.long	0x305
+	.byte	0x2
+	.uleb128 0x2
+	.long	.LASF377
+	.byte	0x10
+	.value	0x135
+	.byte	0x9
+	.long	0x360
+	.byte	0x8
+	.uleb128 0x3
+	.string	"pos"
+	.byte	0x10
+	.value	0x136
+	.byte	0xe
+	.long	0x584
+	.byte	0x10
+	.uleb128 0x2
+	.long	.LASF378
+	.byte	0x10
+	.value	0x138
+	.byte	0xa
+	.long	0x18be
+	.byte	0x18
+	.uleb128 0x2
+	.long	.LASF182
+	.byte	0x10
+	.value	0x13d
+	.byte	0x4
+	.long	0x18d0
+	.byte	0x20
+	.byte	0
+	.uleb128 0x1b
+	.byte	0x50
+	.byte	0x10
+	.value	0x142
+	.long	0x19a2
+	.uleb128 0x16
+	.string	"sym"
+	.byte	0x10
+	.value	0x143
+	.byte	0xa
+	.long	0x5ca
+	.uleb128 0x16
+	.string	"doc"
+	.byte	0x10
+	.value	0x144
+	.byte	0x7
+	.long	0x603
+	.uleb128 0x16
+	.string	"str"
+	.byte	0x10
+	.value	0x145
+	.byte	0xa
+	.long	0x387
+	.uleb128 0x4
+	.long	.LASF379
+	.byte	0x10
+	.value	0x146
+	.byte	0x9
+	.long	0x19a2
+	.byte	0
+	.uleb128 0x11
+	.long	0x617
+	.long	0x19b2
+	.uleb128 0x12
+	.long	0x4a
+	.byte	0x9
+	.byte	0
+	.uleb128 0x5
+	.long	.LASF104
+	.byte	0x78
+	.byte	0x10
+	.value	0x140
+	.long	0x19dc
+	.uleb128 0x3
+	.string	"hdr"
+	.byte	0x10
+	.value	0x141
+	.byte	0xf
+	.long	0x18f4
+	.byte	0
+	.uleb128 0x2
+	.long	.LASF76
+	.byte	0x10
+	.value	0x147
+	.byte	0x4
+	.long	0x1964
+	.byte	0x28
+	.byte	0
+	.uleb128 0x5
+	.long	.LASF105
+	.byte	0x30
+	.byte	0x10
+	.value	0x14e
+	.long	0x1a06
+	.uleb128 0x3
+	.string	"hdr"
+	.byte	0x10
+	.value	0x14f
+	.byte	0xf
+	.long	0x18f4
+	.byte	0
+	.uleb128 0x3
+	.string	"sym"
+	.byte	0x10
+	.value	0x150
+	.byte	0x9
+	.long	0x5ca
+	.byte	0x28
+	.byte	0
+	.uleb128 0x5
+	.long	.LASF106
+	.byte	0x30
+	.byte	0x10
+	.value	0x153
+	.long	0x1a30
+	.uleb128 0x3
+	.string	"hdr"
+	.byte	0x10
+	.value	0x154
+	.byte	0xf
+	.long	0x18f4
+	.byte	0
+	.uleb128 0x3
+	.string	"sym"
+	.byte	0x10
+	.value	0x155
+	.byte	0x9
+	.long	0x5ca
+	.byte	0x28
+	.byte	0
+	.uleb128 0x5
+	.long	.LASF107
+	.byte	0x30
+	.byte	0x10
+	.value	0x158
+	.long	0x1a5a
+	.uleb128 0x3
+	.string	"hdr"
+	.byte	0x10
+	.value	0x159
+	.byte	0xf
+	.long	0x18f4
+	.byte	0
+	.uleb128 0x3
+	.string	"sym"
+	.byte	0x10
+	.value	0x15a
+	.byte	0x9
+	.long	0x5ca
+	.byte	0x28
+	.byte	0
+	.uleb128 0x5
+	.long	.LASF108
+	.byte	0x30
+	.byte	0x10
+	.value	0x15d
+	.long	0x1a84
+	.uleb128 0x3
+	.string	"hdr"
+	.byte	0x10
+	.value	0x15e
+	.byte	0xf
+	.long	0x18f4
+	.byte	0
+	.uleb128 0x3
+	.string	"doc"
+	.byte	0x10
+	.value	0x15f
+	.byte	0x6
+	.long	0x603
+	.byte	0x28
+	.byte	0
+	.uleb128 0x5
+	.long	.LASF109
+	.byte	0x30
+	.byte	0x10
+	.value	0x162
+	.long	0x1aae
+	.uleb128 0x3
+	.string	"hdr"
+	.byte	0x10
+	.value	0x163
+	.byte	0xf
+	.long	0x18f4
+	.byte	0
+	.uleb128 0x3
+	.string	"str"
+	.byte	0x10
+	.value	0x164
+	.byte	0x9
+	.long	0x387
+	.byte	0x28
+	.byte	0
+	.uleb128 0x5
+	.long	.LASF111
+	.byte	0x30
+	.byte	0x10
+	.value	0x167
+	.long	0x1ad8
+	.uleb128 0x3
+	.string	"hdr"
+	.byte	0x10
+	.value	0x168
+	.byte	0xf
+	.long	0x18f4
+	.byte	0
+	.uleb128 0x3
+	.string	"str"
+	.byte	0x10
+	.value	0x169
+	.byte	0x9
+	.long	0x387
+	.byte	0x28
+	.byte	0
+	.uleb128 0x5
+	.long	.LASF110
+	.byte	0x30
+	.byte	0x10
+	.value	0x16c
+	.long	0x1b02
+	.uleb128 0x3
+	.string	"hdr"
+	.byte	0x10
+	.value	0x16d
+	.byte	0xf
+	.long	0x18f4
+	.byte	0
+	.uleb128 0x3
+	.string	"str"
+	.byte	0x10
+	.value	0x16e
+	.byte	0x9
+	.long	0x387
+	.byte	0x28
+	.byte	0
+	.uleb128 0x5
+	.long	.LASF112
+	.byte	0x38
+	.byte	0x10
+	.value	0x175
+	.long	0x1b3a
+	.uleb128 0x3
+	.string	"hdr"
+	.byte	0x10
+	.value	0x176
+	.byte	0xf
+	.long	0x18f4
+	.byte	0
+	.uleb128 0x2
+	.long	.LASF380
+	.byte	0x10
+	.value	0x177
+	.byte	0x8
+	.long	0x617
+	.byte	0x28
+	.uleb128 0x2
+	.long	.LASF381
+	.byte	0x10
+	.value	0x178
+	.byte	0x8
+	.long	0x617
+	.byte	0x30
+	.byte	0
+	.uleb128 0x5
+	.long	.LASF113
+	.byte	0x78
+	.byte	0x10
+	.value	0x17b
+	.long	0x1b64
+	.uleb128 0x3
+	.string	"hdr"
+	.byte	0x10
+	.value	0x17c
+	.byte	0xf
+	.long	0x18f4
+	.byte	0
+	.uleb128 0x2
+	.long	.LASF379
+	.byte	0x10
+	.value	0x17d
+	.byte	0x8
+	.long	0x19a2
+	.byte	0x28
+	.byte	0
+	.uleb128 0x5
+	.long	.LASF114
+	.byte	0x80
+	.byte	0x10
+	.value	0x180
+	.long	0x1b9b
+	.uleb128 0x3
+	.string	"hdr"
+	.byte	0x10
+	.value	0x181
+	.byte	0xf
+	.long	0x18f4
+	.byte	0
+	.uleb128 0x3
+	.string	"op"
+	.byte	0x10
+	.value	0x182
+	.byte	0x8
+	.long	0x617
+	.byte	0x28
+	.uleb128 0x2
+	.long	.LASF379
+	.byte	0x10
+	.value	0x183
+	.byte	0x8
+	.long	0x19a2
+	.byte	0x30
+	.byte	0
+	.uleb128 0x5
+	.long	.LASF115
+	.byte	0x30
+	.byte	0x10
+	.value	0x186
+	.long	0x1bc5
+	.uleb128 0x3
+	.string	"hdr"
+	.byte	0x10
+	.value	0x187
+	.byte	0xf
+	.long	0x18f4
+	.byte	0
+	.uleb128 0x2
+	.long	.LASF382
+	.byte	0x10
+	.value	0x188
+	.byte	0x8
+	.long	0x617
+	.byte	0x28
+	.byte	0
+	.uleb128 0x5
+	.long	.LASF116
+	.byte	0x38
+	.byte	0x10
+	.value	0x18b
+	.long	0x1bfd
+	.uleb128 0x3
+	.string	"hdr"
+	.byte	0x10
+	.value	0x18c
+	.byte	0xf
+	.long	0x18f4
+	.byte	0
+	.uleb128 0x3
+	.string	"lhs"
+	.byte	0x10
+	.value	0x18d
+	.byte	0x8
+	.long	0x617
+	.byte	0x28
+	.uleb128 0x3
+	.string	"rhs"
+	.byte	0x10
+	.value	0x18e
+	.byte	0x8
+	.long	0x617
+	.byte	0x30
+	.byte	0
+	.uleb128 0x5
+	.long	.LASF117
+	.byte	0x30
+	.byte	0x10
+	.value	0x191
+	.long	0x1c27
+	.uleb128 0x3
+	.string	"hdr"
+	.byte	0x10
+	.value	0x192
+	.byte	0xf
+	.long	0x18f4
+	.byte	0
+	.uleb128 0x2
+	.long	.LASF383
+	.byte	0x10
+	.value	0x193
+	.byte	0x8
+	.long	0x617
+	.byte	0x28
+	.byte	0
+	.uleb128 0x5
+	.long	.LASF118
+	.byte	0x30
+	.byte	0x10
+	.value	0x196
+	.long	0x1c51
+	.uleb128 0x3
+	.string	"hdr"
+	.byte	0x10
+	.value	0x197
+	.byte	0xf
+	.long	0x18f4
+	.byte	0
+	.uleb128 0x2
+	.long	.LASF384
+	.byte	0x10
+	.value	0x198
+	.byte	0x8
+	.long	0x617
+	.byte	0x28
+	.byte	0
+	.uleb128 0x5
+	.long	.LASF119
+	.byte	0x38
+	.byte	0x10
+	.value	0x19b
+	.long	0x1c88
+	.uleb128 0x3
+	.string	"hdr"
+	.byte	0x10
+	.value	0x19c
+	.byte	0xf
+	.long	0x18f4
+	.byte	0
+	.uleb128 0x3
+	.string	"id"
+	.byte	0x10
+	.value	0x19d
+	.byte	0x8
+	.long	0x617
+	.byte	0x28
+	.uleb128 0x2
+	.long	.LASF182
+	.byte	0x10
+	.value	0x19e
+	.byte	0x8
+	.long	0x617
+	.byte	0x30
+	.byte	0
+	.uleb128 0x5
+	.long	.LASF126
+	.byte	0x30
+	.byte	0x10
+	.value	0x1a1
+	.long	0x1cb2
+	.uleb128 0x3
+	.string	"hdr"
+	.byte	0x10
+	.value	0x1a2
+	.byte	0xf
+	.long	0x18f4
+	.byte	0
+	.uleb128 0x2
+	.long	.LASF385
+	.byte	0x10
+	.value	0x1a3
+	.byte	0x8
+	.long	0x617
+	.byte	0x28
+	.byte	0
+	.uleb128 0x5
+	.long	.LASF127
+	.byte	0x38
+	.byte	0x10
+	.value	0x1a6
+	.long	0x1cea
+	.uleb128 0x3
+	.string	"hdr"
+	.byte	0x10
+	.value	0x1a7
+	.byte	0xf
+	.long	0x18f4
+	.byte	0
+	.uleb128 0x2
+	.long	.LASF385
+	.byte	0x10
+	.value	0x1a8
+	.byte	0x8
+	.long	0x617
+	.byte	0x28
+	.uleb128 0x3
+	.string	"doc"
+	.byte	0x10
+	.value	0x1a9
+	.byte	0x8
+	.long	0x617
+	.byte	0x30
+	.byte	0
+	.uleb128 0x5
+	.long	.LASF120
+	.byte	0x38
+	.byte	0x10
+	.value	0x1ac
+	.long	0x1d22
+	.uleb128 0x3
+	.string	"hdr"
+	.byte	0x10
+	.value	0x1ad
+	.byte	0xf
+	.long	0x18f4
+	.byte	0
+	.uleb128 0x2
+	.long	.LASF385
+	.byte	0x10
+	.value	0x1ae
+	.byte	0x8
+	.long	0x617
+	.byte	0x28
+	.uleb128 0x2
+	.long	.LASF182
+	.byte	0x10
+	.value	0x1af
+	.byte	0x8
+	.long	0x617
+	.byte	0x30
+	.byte	0
+	.uleb128 0x5
+	.long	.LASF121
+	.byte	0x80
+	.byte	0x10
+	.value	0x1b2
+	.long	0x1d5a
+	.uleb128 0x3
+	.string	"hdr"
+	.byte	0x10
+	.value	0x1b3
+	.byte	0xf
+	.long	0x18f4
+	.byte	0
+	.uleb128 0x2
+	.long	.LASF386
+	.byte	0x10
+	.value	0x1b4
+	.byte	0x8
+	.long	0x617
+	.byte	0x28
+	.uleb128 0x2
+	.long	.LASF387
+	.byte	0x10
+	.value	0x1b5
+	.byte	0x8
+	.long	0x19a2
+	.byte	0x30
+	.byte	0
+	.uleb128 0x5
+	.long	.LASF122
+	.byte	0x78
+	.byte	0x10
+	.value	0x1b8
+	.long	0x1d84
+	.uleb128 0x3
+	.string	"hdr"
+	.byte	0x10
+	.value	0x1b9
+	.byte	0xf
+	.long	0x18f4
+	.byte	0
+	.uleb128 0x2
+	.long	.LASF379
+	.byte	0x10
+	.value	0x1ba
+	.byte	0x8
+	.long	0x19a2
+	.byte	0x28
+	.byte	0
+	.uleb128 0x5
+	.long	.LASF123
+	.byte	0x30
+	.byte	0x10
+	.value	0x1bd
+	.long	0x1dae
+	.uleb128 0x3
+	.string	"hdr"
+	.byte	0x10
+	.value	0x1be
+	.byte	0xf
+	.long	0x18f4
+	.byte	0
+	.uleb128 0x2
+	.long	.LASF386
+	.byte	0x10
+	.value	0x1bf
+	.byte	0x8
+	.long	0x617
+	.byte	0x28
+	.byte	0
+	.uleb128 0x5
+	.long	.LASF124
+	.byte	0x38
+	.byte	0x10
+	.value	0x1c2
+	.long	0x1de6
+	.uleb128 0x3
+	.string	"hdr"
+	.byte	0x10
+	.value	0x1c3
+	.byte	0xf
+	.long	0x18f4
+	.byte	0
+	.uleb128 0x3
+	.string	"lhs"
+	.byte	0x10
+	.value	0x1c4
+	.byte	0x8
+	.long	0x617
+	.byte	0x28
+	.uleb128 0x3
+	.string	"rhs"
+	.byte	0x10
+	.value	0x1c5
+	.byte	0x8
+	.long	0x617
+	.byte	0x30
+	.byte	0
+	.uleb128 0x5
+	.long	.LASF125
+	.byte	0x30
+	.byte	0x10
+	.value	0x1c8
+	.long	0x1e10
+	.uleb128 0x3
+	.string	"hdr"
+	.byte	0x10
+	.value	0x1c9
+	.byte	0xf
+	.long	0x18f4
+	.byte	0
+	.uleb128 0x2
+	.long	.LASF386
+	.byte	0x10
+	.value	0x1ca
+	.byte	0x8
+	.long	0x617
+	.byte	0x28
+	.byte	0
+	.uleb128 0x5
+	.long	.LASF128
+	.byte	0x38
+	.byte	0x10
+	.value	0x1cd
+	.long	0x1e48
+	.uleb128 0x3
+	.string	"hdr"
+	.byte	0x10
+	.value	0x1ce
+	.byte	0xf
+	.long	0x18f4
+	.byte	0
+	.uleb128 0x2
+	.long	.LASF182
+	.byte	0x10
+	.value	0x1cf
+	.byte	0x8
+	.long	0x617
+	.byte	0x28
+	.uleb128 0x2
+	.long	.LASF388
+	.byte	0x10
+	.value	0x1d0
+	.byte	0x8
+	.long	0x617
+	.byte	0x30
+	.byte	0
+	.uleb128 0x5
+	.long	.LASF129
+	.byte	0x38
+	.byte	0x10
+	.value	0x1d3
+	.long	0x1e80
+	.uleb128 0x3
+	.string	"hdr"
+	.byte	0x10
+	.value	0x1d4
+	.byte	0xf
+	.long	0x18f4
+	.byte	0
+	.uleb128 0x2
+	.long	.LASF382
+	.byte	0x10
+	.value	0x1d5
+	.byte	0x8
+	.long	0x617
+	.byte	0x28
+	.uleb128 0x2
+	.long	.LASF389
+	.byte	0x10
+	.value	0x1d6
+	.byte	0x8
+	.long	0x617
+	.byte	0x30
+	.byte	0
+	.uleb128 0x5
+	.long	.LASF130
+	.byte	0x40
+	.byte	0x10
+	.value	0x1d9
+	.long	0x1ec6
+	.uleb128 0x3
+	.string	"hdr"
+	.byte	0x10
+	.value	0x1da
+	.byte	0xf
+	.long	0x18f4
+	.byte	0
+	.uleb128 0x2
+	.long	.LASF384
+	.byte	0x10
+	.value	0x1db
+	.byte	0x8
+	.long	0x617
+	.byte	0x28
+	.uleb128 0x2
+	.long	.LASF390
+	.byte	0x10
+	.value	0x1dc
+	.byte	0x8
+	.long	0x617
+	.byte	0x30
+	.uleb128 0x2
+	.long	.LASF391
+	.byte	0x10
+	.value	0x1dd
+	.byte	0x8
+	.long	0x617
+	.byte	0x38
+	.byte	0
+	.uleb128 0x5
+	.long	.LASF131
+	.byte	0x30
+	.byte	0x10
+	.value	0x1e0
+	.long	0x1ef0
+	.uleb128 0x3
+	.string	"hdr"
+	.byte	0x10
+	.value	0x1e1
+	.byte	0xf
+	.long	0x18f4
+	.byte	0
+	.uleb128 0x2
+	.long	.LASF386
+	.byte	0x10
+	.value	0x1e2
+	.byte	0x8
+	.long	0x617
+	.byte	0x28
+	.byte	0
+	.uleb128 0x5
+	.long	.LASF132
+	.byte	0x30
+	.byte	0x10
+	.value	0x1e5
+	.long	0x1f1a
+	.uleb128 0x3
+	.string	"hdr"
+	.byte	0x10
+	.value	0x1e6
+	.byte	0xf
+	.long	0x18f4
+	.byte	0
+	.uleb128 0x2
+	.long	.LASF392
+	.byte	0x10
+	.value	0x1e7
+	.byte	0x8
+	.long	0x617
+	.byte	0x28
+	.byte	0
+	.uleb128 0x5
+	.long	.LASF133
+	.byte	0x78
+	.byte	0x10
+	.value	0x1ea
+	.long	0x1f44
+	.uleb128 0x3
+	.string	"hdr"
+	.byte	0x10
+	.value	0x1eb
+	.byte	0xf
+	.long	0x18f4
+	.byte	0
+	.uleb128 0x2
+	.long	.LASF379
+	.byte	0x10
+	.value	0x1ec
+	.byte	0x8
+	.long	0x19a2
+	.byte	0x28
+	.byte	0
+	.uleb128 0x5
+	.long	.LASF134
+	.byte	0x40
+	.byte	0x10
+	.value	0x1ef
+	.long	0x1f8a
+	.uleb128 0x3
+	.string	"hdr"
+	.byte	0x10
+	.value	0x1f0
+	.byte	0xf
+	.long	0x18f4
+	.byte	0
+	.uleb128 0x3
+	.string	"lhs"
+	.byte	0x10
+	.value	0x1f1
+	.byte	0x8
+	.long	0x617
+	.byte	0x28
+	.uleb128 0x2
+	.long	.LASF393
+	.byte	0x10
+	.value	0x1f2
+	.byte	0x8
+	.long	0x617
+	.byte	0x30
+	.uleb128 0x2
+	.long	.LASF382
+	.byte	0x10
+	.value	0x1f3
+	.byte	0x8
+	.long	0x617
+	.byte	0x38
+	.byte	0
+	.uleb128 0x5
+	.long	.LASF135
+	.byte	0x38
+	.byte	0x10
+	.value	0x1f6
+	.long	0x1fc2
+	.uleb128 0x3
+	.string	"hdr"
+	.byte	0x10
+	.value	0x1f7
+	.byte	0xf
+	.long	0x18f4
+	.byte	0
+	.uleb128 0x2
+	.long	.LASF384
+	.byte	0x10
+	.value	0x1f8
+	.byte	0x8
+	.long	0x617
+	.byte	0x28
+	.uleb128 0x2
+	.long	.LASF390
+	.byte	0x10
+	.value	0x1f9
+	.byte	0x8
+	.long	0x617
+	.byte	0x30
+	.byte	0
+	.uleb128 0x5
+	.long	.LASF136
+	.byte	0x38
+	.byte	0x10
+	.value	0x1fc
+	.long	0x1ffa
+	.uleb128 0x3
+	.string	"hdr"
+	.byte	0x10
+	.value	0x1fd
+	.byte	0xf
+	.long	0x18f4
+	.byte	0
+	.uleb128 0x2
+	.long	.LASF384
+	.byte	0x10
+	.value	0x1fe
+	.byte	0x8
+	.long	0x617
+	.byte	0x28
+	.uleb128 0x2
+	.long	.LASF394
+	.byte	0x10
+	.value	0x1ff
+	.byte	0x8
+	.long	0x617
+	.byte	0x30
+	.byte	0
+	.uleb128 0x5
+	.long	.LASF137
+	.byte	0x78
+	.byte	0x10
+	.value	0x202
+	.long	0x2024
+	.uleb128 0x3
+	.string	"hdr"
+	.byte	0x10
+	.value	0x203
+	.byte	0xf
+	.long	0x18f4
+	.byte	0
+	.uleb128 0x2
+	.long	.LASF379
+	.byte	0x10
+	.value	0x204
+	.byte	0x8
+	.long	0x19a2
+	.byte	0x28
+	.byte	0
+	.uleb128 0x5
+	.long	.LASF138
+	.byte	0x38
+	.byte	0x10
+	.value	0x207
+	.long	0x205c
+	.uleb128 0x3
+	.string	"hdr"
+	.byte	0x10
+	.value	0x208
+	.byte	0xf
+	.long	0x18f4
+	.byte	0
+	.uleb128 0x2
+	.long	.LASF395
+	.byte	0x10
+	.value	0x209
+	.byte	0x8
+	.long	0x617
+	.byte	0x28
+	.uleb128 0x2
+	.long	.LASF386
+	.byte	0x10
+	.value	0x20a
+	.byte	0x8
+	.long	0x617
+	.byte	0x30
+	.byte	0
+	.uleb128 0x5
+	.long	.LASF139
+	.byte	0x30
+	.byte	0x10
+	.value	0x20d
+	.long	0x2086
+	.uleb128 0x3
+	.string	"hdr"
+	.byte	0x10
+	.value	0x20e
+	.byte	0xf
+	.long	0x18f4
+	.byte	0
+	.uleb128 0x2
+	.long	.LASF383
+	.byte	0x10
+	.value	0x20f
+	.byte	0x8
+	.long	0x617
+	.byte	0x28
+	.byte	0
+	.uleb128 0x5
+	.long	.LASF140
+	.byte	0x38
+	.byte	0x10
+	.value	0x212
+	.long	0x20be
+	.uleb128 0x3
+	.string	"hdr"
+	.byte	0x10
+	.value	0x213
+	.byte	0xf
+	.long	0x18f4
+	.byte	0
+	.uleb128 0x2
+	.long	.LASF385
+	.byte	0x10
+	.value	0x214
+	.byte	0x8
+	.long	0x617
+	.byte	0x28
+	.uleb128 0x2
+	.long	.LASF396
+	.byte	0x10
+	.value	0x215
+	.byte	0x8
+	.long	0x617
+	.byte	0x30
+	.byte	0
+	.uleb128 0x5
+	.long	.LASF141
+	.byte	0x30
+	.byte	0x10
+	.value	0x218
+	.long	0x20e8
+	.uleb128 0x3
+	.string	"hdr"
+	.byte	0x10
+	.value	0x219
+	.byte	0xf
+	.long	0x18f4
+	.byte	0
+	.uleb128 0x2
+	.long	.LASF182
+	.byte	0x10
+	.value	0x21a
+	.byte	0x8
+	.long	0x617
+	.byte	0x28
+	.byte	0
+	.uleb128 0x5
+	.long	.LASF142
+	.byte	0x30
+	.byte	0x10
+	.value	0x21d
+	.long	0x2112
+	.uleb128 0x3
+	.string	"hdr"
+	.byte	0x10
+	.value	0x21e
+	.byte	0xf
+	.long	0x18f4
+	.byte	0
+	.uleb128 0x2
+	.long	.LASF385
+	.byte	0x10
+	.value	0x21f
+	.byte	0x8
+	.long	0x617
+	.byte	0x28
+	.byte	0
+	.uleb128 0x5
+	.long	.LASF143
+	.byte	0x40
+	.byte	0x10
+	.value	0x222
+	.long	0x2158
+	.uleb128 0x3
+	.string	"hdr"
+	.byte	0x10
+	.value	0x223
+	.byte	0xf
+	.long	0x18f4
+	.byte	0
+	.uleb128 0x2
+	.long	.LASF382
+	.byte	0x10
+	.value	0x224
+	.byte	0x8
+	.long	0x617
+	.byte	0x28
+	.uleb128 0x2
+	.long	.LASF397
+	.byte	0x10
+	.value	0x225
+	.byte	0x8
+	.long	0x617
+	.byte	0x30
+	.uleb128 0x2
+	.long	.LASF398
+	.byte	0x10
+	.value	0x226
+	.byte	0x8
+	.long	0x617
+	.byte	0x38
+	.byte	0
+	.uleb128 0x5
+	.long	.LASF144
+	.byte	0x38
+	.byte	0x10
+	.value	0x229
+	.long	0x2190
+	.uleb128 0x3
+	.string	"hdr"
+	.byte	0x10
+	.value	0x22a
+	.byte	0xf
+	.long	0x18f4
+	.byte	0
+	.uleb128 0x2
+	.long	.LASF384
+	.byte	0x10
+	.value	0x22b
+	.byte	0x8
+	.long	0x617
+	.byte	0x28
+	.uleb128 0x2
+	.long	.LASF390
+	.byte	0x10
+	.value	0x22c
+	.byte	0x8
+	.long	0x617
+	.byte	0x30
+	.byte	0
+	.uleb128 0x5
+	.long	.LASF145
+	.byte	0x38
+	.byte	0x10
+	.value	0x22f
+	.long	0x21c8
+	.uleb128 0x3
+	.string	"hdr"
+	.byte	0x10
+	.value	0x230
+	.byte	0xf
+	.long	0x18f4
+	.byte	0
+	.uleb128 0x2
+	.long	.LASF384
+	.byte	0x10
+	.value	0x231
+	.byte	0x8
+	.long	0x617
+	.byte	0x28
+	.uleb128 0x2
+	.long	.LASF390
+	.byte	0x10
+	.value	0x232
+	.byte	0x8
+	.long	0x617
+	.byte	0x30
+	.byte	0
+	.uleb128 0x5
+	.long	.LASF146
+	.byte	0x30
+	.byte	0x10
+	.value	0x235
+	.long	0x21f2
+	.uleb128 0x3
+	.string	"hdr"
+	.byte	0x10
+	.value	0x236
+	.byte	0xf
+	.long	0x18f4
+	.byte	0
+	.uleb128 0x2
+	.long	.LASF383
+	.byte	0x10
+	.value	0x237
+	.byte	0x8
+	.long	0x617
+	.byte	0x28
+	.byte	0
+	.uleb128 0x5
+	.long	.LASF147
+	.byte	0x38
+	.byte	0x10
+	.value	0x23a
+	.long	0x222a
+	.uleb128 0x3
+	.string	"hdr"
+	.byte	0x10
+	.value	0x23b
+	.byte	0xf
+	.long	0x18f4
+	.byte	0
+	.uleb128 0x2
+	.long	.LASF383
+	.byte	0x10
+	.value	0x23c
+	.byte	0x8
+	.long	0x617
+	.byte	0x28
+	.uleb128 0x2
+	.long	.LASF385
+	.byte	0x10
+	.value	0x23d
+	.byte	0x8
+	.long	0x617
+	.byte	0x30
+	.byte	0
+	.uleb128 0x5
+	.long	.LASF148
+	.byte	0x40
+	.byte	0x10
+	.value	0x240
+	.long	0x2270
+	.uleb128 0x3
+	.string	"hdr"
+	.byte	0x10
+	.value	0x241
+	.byte	0xf
+	.long	0x18f4
+	.byte	0
+	.uleb128 0x2
+	.long	.LASF399
+	.byte	0x10
+	.value	0x242
+	.byte	0x8
+	.long	0x617
+	.byte	0x28
+	.uleb128 0x2
+	.long	.LASF400
+	.byte	0x10
+	.value	0x243
+	.byte	0x8
+	.long	0x617
+	.byte	0x30
+	.uleb128 0x2
+	.long	.LASF386
+	.byte	0x10
+	.value	0x244
+	.byte	0x8
+	.long	0x617
+	.byte	0x38
+	.byte	0
+	.uleb128 0x5
+	.long	.LASF149
+	.byte	0x38
+	.byte	0x10
+	.value	0x247
+	.long	0x22a8
+	.uleb128 0x3
+	.string	"hdr"
+	.byte	0x10
+	.value	0x248
+	.byte	0xf
+	.long	0x18f4
+	.byte	0
+	.uleb128 0x2
+	.long	.LASF401
+	.byte	0x10
+	.value	0x249
+	.byte	0x8
+	.long	0x617
+	.byte	0x28
+	.uleb128 0x2
+	.long	.LASF385
+	.byte	0x10
+	.value	0x24a
+	.byte	0x8
+	.long	0x617
+	.byte	0x30
+	.byte	0
+	.uleb128 0x5
+	.long	.LASF150
+	.byte	0x78
+	.byte	0x10
+	.value	0x24d
+	.long	0x22d2
+	.uleb128 0x3
+	.string	"hdr"
+	.byte	0x10
+	.value	0x24e
+	.byte	0xf
+	.long	0x18f4
+	.byte	0
+	.uleb128 0x2
+	.long	.LASF379
+	.byte	0x10
+	.value	0x24f
+	.byte	0x8
+	.long	0x19a2
+	.byte	0x28
+	.byte	0
+	.uleb128 0x5
+	.long	.LASF151
+	.byte	0x30
+	.byte	0x10
+	.value	0x252
+	.long	0x22fc
+	.uleb128 0x3
+	.string	"hdr"
+	.byte	0x10
+	.value	0x253
+	.byte	0xf
+	.long	0x18f4
+	.byte	0
+	.uleb128 0x2
+	.long	.LASF385
+	.byte	0x10
+	.value	0x254
+	.byte	0x8
+	.long	0x617
+	.byte	0x28
+	.byte	0
+	.uleb128 0x5
+	.long	.LASF152
+	.byte	0x38
+	.byte	0x10
+	.value	0x257
+	.long	0x2334
+	.uleb128 0x3
+	.string	"hdr"
+	.byte	0x10
+	.value	0x258
+	.byte	0xf
+	.long	0x18f4
+	.byte	0
+	.uleb128 0x3
+	.string	"lhs"
+	.byte	0x10
+	.value	0x259
+	.byte	0x8
+	.long	0x617
+	.byte	0x28
+	.uleb128 0x3
+	.string	"rhs"
+	.byte	0x10
+	.value	0x25a
+	.byte	0x8
+	.long	0x617
+	.byte	0x30
+	.byte	0
+	.uleb128 0x5
+	.long	.LASF153
+	.byte	0x38
+	.byte	0x10
+	.value	0x25d
+	.long	0x236c
+	.uleb128 0x3
+	.string	"hdr"
+	.byte	0x10
+	.value	0x25e
+	.byte	0xf
+	.long	0x18f4
+	.byte	0
+	.uleb128 0x2
+	.long	.LASF399
+	.byte	0x10
+	.value	0x25f
+	.byte	0x8
+	.long	0x617
+	.byte	0x28
+	.uleb128 0x2
+	.long	.LASF386
+	.byte	0x10
+	.value	0x260
+	.byte	0x8
+	.long	0x617
+	.byte	0x30
+	.byte	0
+	.uleb128 0x5
+	.long	.LASF154
+	.byte	0x28
+	.byte	0x10
+	.value	0x263
+	.long	0x2388
+	.uleb128 0x3
+	.string	"hdr"
+	.byte	0x10
+	.value	0x264
+	.byte	0xf
+	.long	0x18f4
+	.byte	0
+	.byte	0
+	.uleb128 0x5
+	.long	.LASF155
+	.byte	0x30
+	.byte	0x10
+	.value	0x267
+	.long	0x23b2
+	.uleb128 0x3
+	.string	"hdr"
+	.byte	0x10
+	.value	0x268
+	.byte	0xf
+	.long	0x18f4
+	.byte	0
+	.uleb128 0x2
+	.long	.LASF385
+	.byte	0x10
+	.value	0x269
+	.byte	0x8
+	.long	0x617
+	.byte	0x28
+	.byte	0
+	.uleb128 0x5
+	.long	.LASF156
+	.byte	0x28
+	.byte	0x10
+	.value	0x26c
+	.long	0x23ce
+	.uleb128 0x3
+	.string	"hdr"
+	.byte	0x10
+	.value	0x26d
+	.byte	0xf
+	.long	0x18f4
+	.byte	0
+	.byte	0
+	.uleb128 0x5
+	.long	.LASF157
+	.byte	0x78
+	.byte	0x10
+	.value	0x270
+	.long	0x23f8
+	.uleb128 0x3
+	.string	"hdr"
+	.byte	0x10
+	.value	0x271
+	.byte	0xf
+	.long	0x18f4
+	.byte	0
+	.uleb128 0x2
+	.long	.LASF379
+	.byte	0x10
+	.value	0x272
+	.byte	0x8
+	.long	0x19a2
+	.byte	0x28
+	.byte	0
+	.uleb128 0x5
+	.long	.LASF158
+	.byte	0x30
+	.byte	0x10
+	.value	0x275
+	.long	0x2422
+	.uleb128 0x3
+	.string	"hdr"
+	.byte	0x10
+	.value	0x276
+	.byte	0xf
+	.long	0x18f4
+	.byte	0
+	.uleb128 0x2
+	.long	.LASF385
+	.byte	0x10
+	.value	0x277
+	.byte	0x8
+	.long	0x617
+	.byte	0x28
+	.byte	0
+	.uleb128 0x5
+	.long	.LASF159
+	.byte	0x40
+	.byte	0x10
+	.value	0x27a
+	.long	0x2468
+	.uleb128 0x3
+	.string	"hdr"
+	.byte	0x10
+	.value	0x27b
+	.byte	0xf
+	.long	0x18f4
+	.byte	0
+	.uleb128 0x2
+	.long	.LASF399
+	.byte	0x10
+	.value	0x27c
+	.byte	0x8
+	.long	0x617
+	.byte	0x28
+	.uleb128 0x2
+	.long	.LASF400
+	.byte	0x10
+	.value	0x27d
+	.byte	0x8
+	.long	0x617
+	.byte	0x30
+	.uleb128 0x2
+	.long	.LASF386
+	.byte	0x10
+	.value	0x27e
+	.byte	0x8
+	.long	0x617
+	.byte	0x38
+	.byte	0
+	.uleb128 0x5
+	.long	.LASF160
+	.byte	0x38
+	.byte	0x10
+	.value	0x281
+	.long	0x24a0
+	.uleb128 0x3
+	.string	"hdr"
+	.byte	0x10
+	.value	0x282
+	.byte	0xf
+	.long	0x18f4
+	.byte	0
+	.uleb128 0x2
+	.long	.LASF385
+	.byte	0x10
+	.value	0x283
+	.byte	0x8
+	.long	0x617
+	.byte	0x28
+	.uleb128 0x2
+	.long	.LASF182
+	.byte	0x10
+	.value	0x284
+	.byte	0x8
+	.long	0x617
+	.byte	0x30
+	.byte	0
+	.uleb128 0x5
+	.long	.LASF161
+	.byte	0x38
+	.byte	0x10
+	.value	0x287
+	.long	0x24d8
+	.uleb128 0x3
+	.string	"hdr"
+	.byte	0x10
+	.value	0x288
+	.byte	0xf
+	.long	0x18f4
+	.byte	0
+	.uleb128 0x2
+	.long	.LASF384
+	.byte	0x10
+	.value	0x289
+	.byte	0x8
+	.long	0x617
+	.byte	0x28
+	.uleb128 0x2
+	.long	.LASF390
+	.byte	0x10
+	.value	0x28a
+	.byte	0x8
+	.long	0x617
+	.byte	0x30
+	.byte	0
+	.uleb128 0x5
+	.long	.LASF162
+	.byte	0x30
+	.byte	0x10
+	.value	0x28d
+	.long	0x2502
+	.uleb128 0x3
+	.string	"hdr"
+	.byte	0x10
+	.value	0x28e
+	.byte	0xf
+	.long	0x18f4
+	.byte	0
+	.uleb128 0x2
+	.long	.LASF385
+	.byte	0x10
+	.value	0x28f
+	.byte	0x8
+	.long	0x617
+	.byte	0x28
+	.byte	0
+	.uleb128 0x5
+	.long	.LASF163
+	.byte	0x30
+	.byte	0x10
+	.value	0x292
+	.long	0x252c
+	.uleb128 0x3
+	.string	"hdr"
+	.byte	0x10
+	.value	0x293
+	.byte	0xf
+	.long	0x18f4
+	.byte	0
+	.uleb128 0x2
+	.long	.LASF386
+	.byte	0x10
+	.value	0x294
+	.byte	0x8
+	.long	0x617
+	.byte	0x28
+	.byte	0
+	.uleb128 0x5
+	.long	.LASF164
+	.byte	0x80
+	.byte	0x10
+	.value	0x297
+	.long	0x2564
+	.uleb128 0x3
+	.string	"hdr"
+	.byte	0x10
+	.value	0x298
+	.byte	0xf
+	.long	0x18f4
+	.byte	0
+	.uleb128 0x2
+	.long	.LASF386
+	.byte	0x10
+	.value	0x299
+	.byte	0x8
+	.long	0x617
+	.byte	0x28
+	.uleb128 0x2
+	.long	.LASF387
+	.byte	0x10
+	.value	0x29a
+	.byte	0x8
+	.long	0x19a2
+	.byte	0x30
+	.byte	0
+	.uleb128 0x5
+	.long	.LASF165
+	.byte	0x38
+	.byte	0x10
+	.value	0x29d
+	.long	0x259c
+	.uleb128 0x3
+	.string	"hdr"
+	.byte	0x10
+	.value	0x29e
+	.byte	0xf
+	.long	0x18f4
+	.byte	0
+	.uleb128 0x2
+	.long	.LASF385
+	.byte	0x10
+	.value	0x29f
+	.byte	0x8
+	.long	0x617
+	.byte	0x28
+	.uleb128 0x2
+	.long	.LASF182
+	.byte	0x10
+	.value	0x2a0
+	.byte	0x8
+	.long	0x617
+	.byte	0x30
+	.byte	0
+	.uleb128 0x5
+	.long	.LASF166
+	.byte	0x38
+	.byte	0x10
+	.value	0x2a3
+	.long	0x25d4
+	.uleb128 0x3
+	.string	"hdr"
+	.byte	0x10
+	.value	0x2a4
+	.byte	0xf
+	.long	0x18f4
+	.byte	0
+	.uleb128 0x2
+	.long	.LASF385
+	.byte	0x10
+	.value	0x2a5
+	.byte	0x8
+	.long	0x617
+	.byte	0x28
+	.uleb128 0x2
+	.long	.LASF182
+	.byte	0x10
+	.value	0x2a6
+	.byte	0x8
+	.long	0x617
+	.byte	0x30
+	.byte	0
+	.uleb128 0x5
+	.long	.LASF167
+	.byte	0x30
+	.byte	0x10
+	.value	0x2a9
+	.long	0x25fe
+	.uleb128 0x3
+	.string	"hdr"
+	.byte	0x10
+	.value	0x2aa
+	.byte	0xf
+	.long	0x18f4
+	.byte	0
+	.uleb128 0x2
+	.long	.LASF389
+	.byte	0x10
+	.value	0x2ab
+	.byte	0x8
+	.long	0x617
+	.byte	0x28
+	.byte	0
+	.uleb128 0x5
+	.long	.LASF168
+	.byte	0x38
+	.byte	0x10
+	.value	0x2ae
+	.long	0x2636
+	.uleb128 0x3
+	.string	"hdr"
+	.byte	0x10
+	.value	0x2af
+	.byte	0xf
+	.long	0x18f4
+	.byte	0
+	.uleb128 0x2
+	.long	.LASF402
+	.byte	0x10
+	.value	0x2b0
+	.byte	0x8
+	.long	0x617
+	.byte	0x28
+	.uleb128 0x2
+	.long	.LASF403
+	.byte	0x10
+	.value	0x2b1
+	.byte	0x8
+	.long	0x617
+	.byte	0x30
+	.byte	0
+	.uleb128 0x5
+	.long	.LASF169
+	.byte	0x78
+	.byte	0x10
+	.value	0x2b4
+	.long	0x2660
+	.uleb128 0x3
+	.string	"hdr"
+	.byte	0x10
+	.value	0x2b5
+	.byte	0xf
+	.long	0x18f4
+	.byte	0
+	.uleb128 0x2
+	.long	.LASF379
+	.byte	0x10
+	.value	0x2b6
+	.byte	0x8
+	.long	0x19a2
+	.byte	0x28
+	.byte	0
+	.uleb128 0x5
+	.long	.LASF170
+	.byte	0x30
+	.byte	0x10
+	.value	0x2b9
+	.long	0x268a
+	.uleb128 0x3
+	.string	"hdr"
+	.byte	0x10
+	.value	0x2ba
+	.byte	0xf
+	.long	0x18f4
+	.byte	0
+	.uleb128 0x2
+	.long	.LASF404
+	.byte	0x10
+	.value	0x2bb
+	.byte	0x8
+	.long	0x617
+	.byte	0x28
+	.byte	0
+	.uleb128 0x5
+	.long	.LASF171
+	.byte	0x48
+	.byte	0x10
+	.value	0x2be
+	.long	0x26dd
+	.uleb128 0x3
+	.string	"hdr"
+	.byte	0x10
+	.value	0x2bf
+	.byte	0xf
+	.long	0x18f4
+	.byte	0
+	.uleb128 0x2
+	.long	.LASF385
+	.byte	0x10
+	.value	0x2c0
+	.byte	0x8
+	.long	0x617
+	.byte	0x28
+	.uleb128 0x3
+	.string	"id"
+	.byte	0x10
+	.value	0x2c1
+	.byte	0x8
+	.long	0x617
+	.byte	0x30
+	.uleb128 0x2
+	.long	.LASF388
+	.byte	0x10
+	.value	0x2c2
+	.byte	0x8
+	.long	0x617
+	.byte	0x38
+	.uleb128 0x2
+	.long	.LASF405
+	.byte	0x10
+	.value	0x2c3
+	.byte	0x8
+	.long	0x617
+	.byte	0x40
+	.byte	0
+	.uleb128 0x5
+	.long	.LASF172
+	.byte	0x38
+	.byte	0x10
+	.value	0x2c6
+	.long	0x2715
+	.uleb128 0x3
+	.string	"hdr"
+	.byte	0x10
+	.value	0x2c7
+	.byte	0xf
+	.long	0x18f4
+	.byte	0
+	.uleb128 0x2
+	.long	.LASF401
+	.byte	0x10
+	.value	0x2c8
+	.byte	0x8
+	.long	0x617
+	.byte	0x28
+	.uleb128 0x2
+	.long	.LASF385
+	.byte	0x10
+	.value	0x2c9
+	.byte	0x8
+	.long	0x617
+	.byte	0x30
+	.byte	0
+	.uleb128 0x5
+	.long	.LASF173
+	.byte	0x30
+	.byte	0x10
+	.value	0x2cc
+	.long	0x273f
+	.uleb128 0x3
+	.string	"hdr"
+	.byte	0x10
+	.value	0x2cd
+	.byte	0xf
+	.long	0x18f4
+	.byte	0
+	.uleb128 0x2
+	.long	.LASF382
+	.byte	0x10
+	.value	0x2ce
+	.byte	0x8
+	.long	0x617
+	.byte	0x28
+	.byte	0
+	.uleb128 0x5
+	.long	.LASF174
+	.byte	0x38
+	.byte	0x10
+	.value	0x2d1
+	.long	0x2777
+	.uleb128 0x3
+	.string	"hdr"
+	.byte	0x10
+	.value	0x2d2
+	.byte	0xf
+	.long	0x18f4
+	.byte	0
+	.uleb128 0x2
+	.long	.LASF380
+	.byte	0x10
+	.value	0x2d3
+	.byte	0x8
+	.long	0x617
+	.byte	0x28
+	.uleb128 0x2
+	.long	.LASF406
+	.byte	0x10
+	.value	0x2d4
+	.byte	0x8
+	.long	0x617
+	.byte	0x30
+	.byte	0
+	.uleb128 0x5
+	.long	.LASF175
+	.byte	0x30
+	.byte	0x10
+	.value	0x2d7
+	.long	0x27a1
+	.uleb128 0x3
+	.string	"hdr"
+	.byte	0x10
+	.value	0x2d8
+	.byte	0xf
+	.long	0x18f4
+	.byte	0
+	.uleb128 0x2
+	.long	.LASF389
+	.byte	0x10
+	.value	0x2d9
+	.byte	0x8
+	.long	0x617
+	.byte	0x28
+	.byte	0
+	.uleb128 0x27
+	.long	.LASF506
+	.long	0x43
+	.byte	0x14
+	.long	0x29fc
+	.uleb128 0x1
+	.long	.LASF407
+	.byte	0
+	.uleb128 0x1
+	.long	.LASF408
+	.byte	0
+	.uleb128 0x1
+	.long	.LASF409
+	.byte	0
+	.uleb128 0x1
+	.long	.LASF410
+	.byte	0x1
+	.uleb128 0x1
+	.long	.LASF411
+	.byte	0x2
+	.uleb128 0x1
+	.long	.LASF412
+	.byte	0x3
+	.uleb128 0x1
+	.long	.LASF413
+	.byte	0x4
+	.uleb128 0x1
+	.long	.LASF414
+	.byte	0x5
+	.uleb128 0x1
+	.long	.LASF415
+	.byte	0x6
+	.uleb128 0x1
+	.long	.LASF416
+	.byte	0x7
+	.uleb128 0x1
+	.long	.LASF417
+	.byte	0x8
+	.uleb128 0x1
+	.long	.LASF418
+	.byte	0x9
+	.uleb128 0x1
+	.long	.LASF419
+	.byte	0xa
+	.uleb128 0x1
+	.long	.LASF420
+	.byte	0xb
+	.uleb128 0x1
+	.long	.LASF421
+	.byte	0xc
+	.uleb128 0x1
+	.long	.LASF422
+	.byte	0xd
+	.uleb128 0x1
+	.long	.LASF423
+	.byte	0xe
+	.uleb128 0x1
+	.long	.LASF424
+	.byte	0xf
+	.uleb128 0x1
+	.long	.LASF425
+	.byte	0xf
+	.uleb128 0x1
+	.long	.LASF426
+	.byte	0xf
+	.uleb128 0x1
+	.long	.LASF427
+	.byte	0x10
+	.uleb128 0x1
+	.long	.LASF428
+	.byte	0x11
+	.uleb128 0x1
+	.long	.LASF429
+	.byte	0x12
+	.uleb128 0x1
+	.long	.LASF430
+	.byte	0x13
+	.uleb128 0x1
+	.long	.LASF431
+	.byte	0x14
+	.uleb128 0x1
+	.long	.LASF432
+	.byte	0x15
+	.uleb128 0x1
+	.long	.LASF433
+	.byte	0x16
+	.uleb128 0x1
+	.long	.LASF434
+	.byte	0x17
+	.uleb128 0x1
+	.long	.LASF435
+	.byte	0x18
+	.uleb128 0x1
+	.long	.LASF436
+	.byte	0x19
+	.uleb128 0x1
+	.long	.LASF437
+	.byte	0x1a
+	.uleb128 0x1
+	.long	.LASF438
+	.byte	0x1b
+	.uleb128 0x1
+	.long	.LASF439
+	.byte	0x1c
+	.uleb128 0x1
+	.long	.LASF440
+	.byte	0x1d
+	.uleb128 0x1
+	.long	.LASF441
+	.byte	0x1e
+	.uleb128 0x1
+	.long	.LASF442
+	.byte	0x1f
+	.uleb128 0x1
+	.long	.LASF443
+	.byte	0x20
+	.uleb128 0x1
+	.long	.LASF444
+	.byte	0x21
+	.uleb128 0x1
+	.long	.LASF445
+	.byte	0x22
+	.uleb128 0x1
+	.long	.LASF446
+	.byte	0x23
+	.uleb128 0x1
+	.long	.LASF447
+	.byte	0x24
+	.uleb128 0x1
+	.long	.LASF448
+	.byte	0x25
+	.uleb128 0x1
+	.long	.LASF449
+	.byte	0x26
+	.uleb128 0x1
+	.long	.LASF450
+	.byte	0x27
+	.uleb128 0x1
+	.long	.LASF451
+	.byte	0x28
+	.uleb128 0x1
+	.long	.LASF452
+	.byte	0x29
+	.uleb128 0x1
+	.long	.LASF453
+	.byte	0x2a
+	.uleb128 0x1
+	.long	.LASF454
+	.byte	0x2b
+	.uleb128 0x1
+	.long	.LASF455
+	.byte	0x2c
+	.uleb128 0x1
+	.long	.LASF456
+	.byte	0x2d
+	.uleb128 0x1
+	.long	.LASF457
+	.byte	0x2d
+	.uleb128 0x1
+	.long	.LASF458
+	.byte	0x2d
+	.uleb128 0x1
+	.long	.LASF459
+	.byte	0x2e
+	.uleb128 0x1
+	.long	.LASF460
+	.byte	0x2f
+	.uleb128 0x1
+	.long	.LASF461
+	.byte	0x30
+	.uleb128 0x1
+	.long	.LASF462
+	.byte	0x31
+	.uleb128 0x1
+	.long	.LASF463
+	.byte	0x31
+	.uleb128 0x1
+	.long	.LASF464
+	.byte	0x31
+	.uleb128 0x1
+	.long	.LASF465
+	.byte	0x32
+	.uleb128 0x1
+	.long	.LASF466
+	.byte	0x33
+	.uleb128 0x1
+	.long	.LASF467
+	.byte	0x34
+	.uleb128 0x1
+	.long	.LASF468
+	.byte	0x35
+	.uleb128 0x1
+	.long	.LASF469
+	.byte	0x36
+	.uleb128 0x1
+	.long	.LASF470
+	.byte	0x37
+	.uleb128 0x1
+	.long	.LASF471
+	.byte	0x38
+	.uleb128 0x1
+	.long	.LASF472
+	.byte	0x39
+	.uleb128 0x1
+	.long	.LASF473
+	.byte	0x3a
+	.uleb128 0x1
+	.long	.LASF474
+	.byte	0x3b
+	.uleb128 0x1
+	.long	.LASF475
+	.byte	0x3c
+	.uleb128 0x1
+	.long	.LASF476
+	.byte	0x3d
+	.uleb128 0x1
+	.long	.LASF477
+	.byte	0x3d
+	.uleb128 0x1
+	.long	.LASF478
+	.byte	0x3d
+	.uleb128 0x1
+	.long	.LASF479
+	.byte	0x3e
+	.uleb128 0x1
+	.long	.LASF480
+	.byte	0x3f
+	.uleb128 0x1
+	.long	.LASF481
+	.byte	0x40
+	.uleb128 0x1
+	.long	.LASF482
+	.byte	0x41
+	.uleb128 0x1
+	.long	.LASF483
+	.byte	0x42
+	.uleb128 0x1
+	.long	.LASF484
+	.byte	0x43
+	.uleb128 0x1
+	.long	.LASF485
+	.byte	0x44
+	.uleb128 0x1
+	.long	.LASF486
+	.byte	0x44
+	.uleb128 0x1
+	.long	.LASF487
+	.byte	0x44
+	.uleb128 0x1
+	.long	.LASF488
+	.byte	0x45
+	.uleb128 0x1
+	.long	.LASF489
+	.byte	0x46
+	.uleb128 0x1
+	.long	.LASF490
+	.byte	0x47
+	.uleb128 0x1
+	.long	.LASF491
+	.byte	0x48
+	.uleb128 0x1
+	.long	.LASF492
+	.byte	0x49
+	.uleb128 0x1
+	.long	.LASF493
+	.byte	0x4a
+	.uleb128 0x1
+	.long	.LASF494
+	.byte	0x4b
+	.uleb128 0x1
+	.long	.LASF495
+	.byte	0x4c
+	.uleb128 0x1
+	.long	.LASF496
+	.byte	0x4d
+	.uleb128 0x1
+	.long	.LASF497
+	.byte	0x4e
+	.uleb128 0x1
+	.long	.LASF498
+	.byte	0x4f
+	.uleb128 0x1
+	.long	.LASF499
+	.byte	0x50
+	.uleb128 0x1
+	.long	.LASF500
+	.byte	0x51
+	.uleb128 0x1
+	.long	.LASF501
+	.byte	0x52
+	.uleb128 0x1
+	.long	.LASF502
+	.byte	0x53
+	.uleb128 0x1
+	.long	.LASF503
+	.byte	0x54
+	.uleb128 0x1
+	.long	.LASF504
+	.byte	0x54
+	.byte	0
+	.uleb128 0x9
+	.long	.LASF505
+	.byte	0x12
+	.byte	0x8e
+	.byte	0x16
+	.long	0x27a1
+	.uleb128 0x27
+	.long	.LASF507
+	.long	0x43
+	.byte	0x91
+	.long	0x3055
+	.uleb128 0x1
+	.long	.LASF508
+	.byte	0
+	.uleb128 0x1
+	.long	.LASF509
+	.byte	0
+	.uleb128 0x1
+	.long	.LASF510
+	.byte	0x1
+	.uleb128 0x1
+	.long	.LASF511
+	.byte	0x2
+	.uleb128 0x1
+	.long	.LASF512
+	.byte	0x3
+	.uleb128 0x1
+	.long	.LASF513
+	.byte	0x4
+	.uleb128 0x1
+	.long	.LASF514
+	.byte	0x5
+	.uleb128 0x1
+	.long	.LASF515
+	.byte	0x6
+	.uleb128 0x1
+	.long	.LASF516
+	.byte	0x7
+	.uleb128 0x1
+	.long	.LASF517
+	.byte	0x8
+	.uleb128 0x1
+	.long	.LASF518
+	.byte	0x9
+	.uleb128 0x1
+	.long	.LASF519
+	.byte	0xa
+	.uleb128 0x1
+	.long	.LASF520
+	.byte	0xb
+	.uleb128 0x1
+	.long	.LASF521
+	.byte	0xc
+	.uleb128 0x1
+	.long	.LASF522
+	.byte	0xd
+	.uleb128 0x1
+	.long	.LASF523
+	.byte	0xe
+	.uleb128 0x1
+	.long	.LASF524
+	.byte	0xf
+	.uleb128 0x1
+	.long	.LASF525
+	.byte	0x10
+	.uleb128 0x1
+	.long	.LASF526
+	.byte	0x11
+	.uleb128 0x1
+	.long	.LASF527
+	.byte	0x12
+	.uleb128 0x1
+	.long	.LASF528
+	.byte	0x13
+	.uleb128 0x1
+	.long	.LASF529
+	.byte	0x14
+	.uleb128 0x1
+	.long	.LASF530
+	.byte	0x15
+	.uleb128 0x1
+	.long	.LASF531
+	.byte	0x16
+	.uleb128 0x1
+	.long	.LASF532
+	.byte	0x17
+	.uleb128 0x1
+	.long	.LASF533
+	.byte	0x18
+	.uleb128 0x1
+	.long	.LASF534
+	.byte	0x19
+	.uleb128 0x1
+	.long	.LASF535
+	.byte	0x1a
+	.uleb128 0x1
+	.long	.LASF536
+	.byte	0x1b
+	.uleb128 0x1
+	.long	.LASF537
+	.byte	0x1c
+	.uleb128 0x1
+	.long	.LASF538
+	.byte	0x1d
+	.uleb128 0x1
+	.long	.LASF539
+	.byte	0x1e
+	.uleb128 0x1
+	.long	.LASF540
+	.byte	0x1f
+	.uleb128 0x1
+	.long	.LASF541
+	.byte	0x20
+	.uleb128 0x1
+	.long	.LASF542
+	.byte	0x21
+	.uleb128 0x1
+	.long	.LASF543
+	.byte	0x22
+	.uleb128 0x1
+	.long	.LASF544
+	.byte	0x23
+	.uleb128 0x1
+	.long	.LASF545
+	.byte	0x24
+	.uleb128 0x1
+	.long	.LASF546
+	.byte	0x25
+	.uleb128 0x1
+	.long	.LASF547
+	.byte	0x26
+	.uleb128 0x1
+	.long	.LASF548
+	.byte	0x27
+	.uleb128 0x1
+	.long	.LASF549
+	.byte	0x28
+	.uleb128 0x1
+	.long	.LASF550
+	.byte	0x29
+	.uleb128 0x1
+	.long	.LASF551
+	.byte	0x2a
+	.uleb128 0x1
+	.long	.LASF552
+	.byte	0x2b
+	.uleb128 0x1
+	.long	.LASF553
+	.byte	0x2c
+	.uleb128 0x1
+	.long	.LASF554
+	.byte	0x2d
+	.uleb128 0x1
+	.long	.LASF555
+	.byte	0x2e
+	.uleb128 0x1
+	.long	.LASF556
+	.byte	0x2f
+	.uleb128 0x1
+	.long	.LASF557
+	.byte	0x30
+	.uleb128 0x1
+	.long	.LASF558
+	.byte	0x31
+	.uleb128 0x1
+	.long	.LASF559
+	.byte	0x32
+	.uleb128 0x1
+	.long	.LASF560
+	.byte	0x33
+	.uleb128 0x1
+	.long	.LASF561
+	.byte	0x34
+	.uleb128 0x1
+	.long	.LASF562
+	.byte	0x35
+	.uleb128 0x1
+	.long	.LASF563
+	.byte	0x36
+	.uleb128 0x1
+	.long	.LASF564
+	.byte	0x37
+	.uleb128 0x1
+	.long	.LASF565
+	.byte	0x38
+	.uleb128 0x1
+	.long	.LASF566
+	.byte	0x39
+	.uleb128 0x1
+	.long	.LASF567
+	.byte	0x3a
+	.uleb128 0x1
+	.long	.LASF568
+	.byte	0x3b
+	.uleb128 0x1
+	.long	.LASF569
+	.byte	0x3c
+	.uleb128 0x1
+	.long	.LASF570
+	.byte	0x3d
+	.uleb128 0x1
+	.long	.LASF571
+	.byte	0x3e
+	.uleb128 0x1
+	.long	.LASF572
+	.byte	0x3f
+	.uleb128 0x1
+	.long	.LASF573
+	.byte	0x40
+	.uleb128 0x1
+	.long	.LASF574
+	.byte	0x41
+	.uleb128 0x1
+	.long	.LASF575
+	.byte	0x42
+	.uleb128 0x1
+	.long	.LASF576
+	.byte	0x43
+	.uleb128 0x1
+	.long	.LASF577
+	.byte	0x44
+	.uleb128 0x1
+	.long	.LASF578
+	.byte	0x45
+	.uleb128 0x1
+	.long	.LASF579
+	.byte	0x46
+	.uleb128 0x1
+	.long	.LASF580
+	.byte	0x47
+	.uleb128 0x1
+	.long	.LASF581
+	.byte	0x48
+	.uleb128 0x1
+	.long	.LASF582
+	.byte	0x49
+	.uleb128 0x1
+	.long	.LASF583
+	.byte	0x4a
+	.uleb128 0x1
+	.long	.LASF584
+	.byte	0x4b
+	.uleb128 0x1
+	.long	.LASF585
+	.byte	0x4c
+	.uleb128 0x1
+	.long	.LASF586
+	.byte	0x4d
+	.uleb128 0x1
+	.long	.LASF587
+	.byte	0x4e
+	.uleb128 0x1
+	.long	.LASF588
+	.byte	0x4f
+	.uleb128 0x1
+	.long	.LASF589
+	.byte	0x50
+	.uleb128 0x1
+	.long	.LASF590
+	.byte	0x51
+	.uleb128 0x1
+	.long	.LASF591
+	.byte	0x52
+	.uleb128 0x1
+	.long	.LASF592
+	.byte	0x53
+	.uleb128 0x1
+	.long	.LASF593
+	.byte	0x54
+	.uleb128 0x1
+	.long	.LASF594
+	.byte	0x55
+	.uleb128 0x1
+	.long	.LASF595
+	.byte	0x56
+	.uleb128 0x1
+	.long	.LASF596
+	.byte	0x57
+	.uleb128 0x1
+	.long	.LASF597
+	.byte	0x58
+	.uleb128 0x1
+	.long	.LASF598
+	.byte	0x59
+	.uleb128 0x1
+	.long	.LASF599
+	.byte	0x5a
+	.uleb128 0x1
+	.long	.LASF600
+	.byte	0x5b
+	.uleb128 0x1
+	.long	.LASF601
+	.byte	0x5c
+	.uleb128 0x1
+	.long	.LASF602
+	.byte	0x5d
+	.uleb128 0x1
+	.long	.LASF603
+	.byte	0x5e
+	.uleb128 0x1
+	.long	.LASF604
+	.byte	0x5f
+	.uleb128 0x1
+	.long	.LASF605
+	.byte	0x60
+	.uleb128 0x1
+	.long	.LASF606
+	.byte	0x61
+	.uleb128 0x1
+	.long	.LASF607
+	.byte	0x62
+	.uleb128 0x1
+	.long	.LASF608
+	.byte	0x63
+	.uleb128 0x1
+	.long	.LASF609
+	.byte	0x64
+	.uleb128 0x1
+	.long	.LASF610
+	.byte	0x65
+	.uleb128 0x1
+	.long	.LASF611
+	.byte	0x66
+	.uleb128 0x1
+	.long	.LASF612
+	.byte	0x67
+	.uleb128 0x1
+	.long	.LASF613
+	.byte	0x68
+	.uleb128 0x1
+	.long	.LASF614
+	.byte	0x69
+	.uleb128 0x1
+	.long	.LASF615
+	.byte	0x6a
+	.uleb128 0x1
+	.long	.LASF616
+	.byte	0x6b
+	.uleb128 0x1
+	.long	.LASF617
+	.byte	0x6c
+	.uleb128 0x1
+	.long	.LASF618
+	.byte	0x6d
+	.uleb128 0x1
+	.long	.LASF619
+	.byte	0x6e
+	.uleb128 0x1
+	.long	.LASF620
+	.byte	0x6f
+	.uleb128 0x1
+	.long	.LASF621
+	.byte	0x70
+	.uleb128 0x1
+	.long	.LASF622
+	.byte	0x71
+	.uleb128 0x1
+	.long	.LASF623
+	.byte	0x72
+	.uleb128 0x1
+	.long	.LASF624
+	.byte	0x73
+	.uleb128 0x1
+	.long	.LASF625
+	.byte	0x74
+	.uleb128 0x1
+	.long	.LASF626
+	.byte	0x75
+	.uleb128 0x1
+	.long	.LASF627
+	.byte	0x76
+	.uleb128 0x1
+	.long	.LASF628
+	.byte	0x77
+	.uleb128 0x1
+	.long	.LASF629
+	.byte	0x78
+	.uleb128 0x1
+	.long	.LASF630
+	.byte	0x79
+	.uleb128 0x1
+	.long	.LASF631
+	.byte	0x7a
+	.uleb128 0x1
+	.long	.LASF632
+	.byte	0x7b
+	.uleb128 0x1
+	.long	.LASF633
+	.byte	0x7c
+	.uleb128 0x1
+	.long	.LASF634
+	.byte	0x7d
+	.uleb128 0x1
+	.long	.LASF635
+	.byte	0x7e
+	.uleb128 0x1
+	.long	.LASF636
+	.byte	0x7f
+	.uleb128 0x1
+	.long	.LASF637
+	.byte	0x80
+	.uleb128 0x1
+	.long	.LASF638
+	.byte	0x81
+	.uleb128 0x1
+	.long	.LASF639
+	.byte	0x82
+	.uleb128 0x1
+	.long	.LASF640
+	.byte	0x83
+	.uleb128 0x1
+	.long	.LASF641
+	.byte	0x84
+	.uleb128 0x1
+	.long	.LASF642
+	.byte	0x85
+	.uleb128 0x1
+	.long	.LASF643
+	.byte	0x86
+	.uleb128 0x1
+	.long	.LASF644
+	.byte	0x87
+	.uleb128 0x1
+	.long	.LASF645
+	.byte	0x88
+	.uleb128 0x1
+	.long	.LASF646
+	.byte	0x89
+	.uleb128 0x1
+	.long	.LASF647
+	.byte	0x8a
+	.uleb128 0x1
+	.long	.LASF648
+	.byte	0x8b
+	.uleb128 0x1
+	.long	.LASF649
+	.byte	0x8c
+	.uleb128 0x1
+	.long	.LASF650
+	.byte	0x8d
+	.uleb128 0x1
+	.long	.LASF651
+	.byte	0x8e
+	.uleb128 0x1
+	.long	.LASF652
+	.byte	0x8f
+	.uleb128 0x1
+	.long	.LASF653
+	.byte	0x90
+	.uleb128 0x1
+	.long	.LASF654
+	.byte	0x91
+	.uleb128 0x1
+	.long	.LASF655
+	.byte	0x92
+	.uleb128 0x1
+	.long	.LASF656
+	.byte	0x93
+	.uleb128 0x1
+	.long	.LASF657
+	.byte	0x94
+	.uleb128 0x1
+	.long	.LASF658
+	.byte	0x95
+	.uleb128 0x1
+	.long	.LASF659
+	.byte	0x96
+	.uleb128 0x1
+	.long	.LASF660
+	.byte	0x97
+	.uleb128 0x1
+	.long	.LASF661
+	.byte	0x98
+	.uleb128 0x1
+	.long	.LASF662
+	.byte	0x99
+	.uleb128 0x1
+	.long	.LASF663
+	.byte	0x9a
+	.uleb128 0x1
+	.long	.LASF664
+	.byte	0x9b
+	.uleb128 0x1
+	.long	.LASF665
+	.byte	0x9c
+	.uleb128 0x1
+	.long	.LASF666
+	.byte	0x9d
+	.uleb128 0x1
+	.long	.LASF667
+	.byte	0x9e
+	.uleb128 0x1
+	.long	.LASF668
+	.byte	0x9f
+	.uleb128 0x1
+	.long	.LASF669
+	.byte	0xa0
+	.uleb128 0x1
+	.long	.LASF670
+	.byte	0xa1
+	.uleb128 0x1
+	.long	.LASF671
+	.byte	0xa2
+	.uleb128 0x1
+	.long	.LASF672
+	.byte	0xa3
+	.uleb128 0x1
+	.long	.LASF673
+	.byte	0xa4
+	.uleb128 0x1
+	.long	.LASF674
+	.byte	0xa5
+	.uleb128 0x1
+	.long	.LASF675
+	.byte	0xa6
+	.uleb128 0x1
+	.long	.LASF676
+	.byte	0xa7
+	.uleb128 0x1
+	.long	.LASF677
+	.byte	0xa8
+	.uleb128 0x1
+	.long	.LASF678
+	.byte	0xa9
+	.uleb128 0x1
+	.long	.LASF679
+	.byte	0xaa
+	.uleb128 0x1
+	.long	.LASF680
+	.byte	0xab
+	.uleb128 0x1
+	.long	.LASF681
+	.byte	0xac
+	.uleb128 0x1
+	.long	.LASF682
+	.byte	0xad
+	.uleb128 0x1
+	.long	.LASF683
+	.byte	0xae
+	.uleb128 0x1
+	.long	.LASF684
+	.byte	0xaf
+	.uleb128 0x1
+	.long	.LASF685
+	.byte	0xb0
+	.uleb128 0x1
+	.long	.LASF686
+	.byte	0xb1
+	.uleb128 0x1
+	.long	.LASF687
+	.byte	0xb2
+	.uleb128 0x1
+	.long	.LASF688
+	.byte	0xb3
+	.uleb128 0x1
+	.long	.LASF689
+	.byte	0xb4
+	.uleb128 0x1
+	.long	.LASF690
+	.byte	0xb5
+	.uleb128 0x1
+	.long	.LASF691
+	.byte	0xb6
+	.uleb128 0x1
+	.long	.LASF692
+	.byte	0xb7
+	.uleb128 0x1
+	.long	.LASF693
+	.byte	0xb8
+	.uleb128 0x1
+	.long	.LASF694
+	.byte	0xb9
+	.uleb128 0x1
+	.long	.LASF695
+	.byte	0xba
+	.uleb128 0x1
+	.long	.LASF696
+	.byte	0xbb
+	.uleb128 0x1
+	.long	.LASF697
+	.byte	0xbc
+	.uleb128 0x1
+	.long	.LASF698
+	.byte	0xbd
+	.uleb128 0x1
+	.long	.LASF699
+	.byte	0xbe
+	.uleb128 0x1
+	.long	.LASF700
+	.byte	0xbf
+	.uleb128 0x1
+	.long	.LASF701
+	.byte	0xc0
+	.uleb128 0x1
+	.long	.LASF702
+	.byte	0xc1
+	.uleb128 0x1
+	.long	.LASF703
+	.byte	0xc2
+	.uleb128 0x1
+	.long	.LASF704
+	.byte	0xc3
+	.uleb128 0x1
+	.long	.LASF705
+	.byte	0xc4
+	.uleb128 0x1
+	.long	.LASF706
+	.byte	0xc5
+	.uleb128 0x1
+	.long	.LASF707
+	.byte	0xc6
+	.uleb128 0x1
+	.long	.LASF708
+	.byte	0xc7
+	.uleb128 0x1
+	.long	.LASF709
+	.byte	0xc8
+	.uleb128 0x1
+	.long	.LASF710
+	.byte	0xc9
+	.uleb128 0x1
+	.long	.LASF711
+	.byte	0xca
+	.uleb128 0x1
+	.long	.LASF712
+	.byte	0xcb
+	.uleb128 0x1
+	.long	.LASF713
+	.byte	0xcc
+	.uleb128 0x1
+	.long	.LASF714
+	.byte	0xcd
+	.uleb128 0x1
+	.long	.LASF715
+	.byte	0xce
+	.uleb128 0x1
+	.long	.LASF716
+	.byte	0xcf
+	.uleb128 0x1
+	.long	.LASF717
+	.byte	0xd0
+	.uleb128 0x1
+	.long	.LASF718
+	.byte	0xd1
+	.uleb128 0x1
+	.long	.LASF719
+	.byte	0xd2
+	.uleb128 0x1
+	.long	.LASF720
+	.byte	0xd3
+	.uleb128 0x1
+	.long	.LASF721
+	.byte	0xd4
+	.uleb128 0x1
+	.long	.LASF722
+	.byte	0xd5
+	.uleb128 0x1
+	.long	.LASF723
+	.byte	0xd6
+	.uleb128 0x1
+	.long	.LASF724
+	.byte	0xd7
+	.uleb128 0x1
+	.long	.LASF725
+	.byte	0xd8
+	.uleb128 0x1
+	.long	.LASF726
+	.byte	0xd9
+	.uleb128 0x1
+	.long	.LASF727
+	.byte	0xda
+	.uleb128 0x1
+	.long	.LASF728
+	.byte	0xdb
+	.uleb128 0x1
+	.long	.LASF729
+	.byte	0xdc
+	.uleb128 0x1
+	.long	.LASF730
+	.byte	0xdd
+	.uleb128 0x1
+	.long	.LASF731
+	.byte	0xde
+	.uleb128 0x1
+	.long	.LASF732
+	.byte	0xdf
+	.uleb128 0x1
+	.long	.LASF733
+	.byte	0xe0
+	.uleb128 0x1
+	.long	.LASF734
+	.byte	0xe1
+	.uleb128 0x1
+	.long	.LASF735
+	.byte	0xe2
+	.uleb128 0x1
+	.long	.LASF736
+	.byte	0xe3
+	.uleb128 0x1
+	.long	.LASF737
+	.byte	0xe4
+	.uleb128 0x1
+	.long	.LASF738
+	.byte	0xe5
+	.uleb128 0x1
+	.long	.LASF739
+	.byte	0xe6
+	.uleb128 0x1
+	.long	.LASF740
+	.byte	0xe7
+	.uleb128 0x1
+	.long	.LASF741
+	.byte	0xe8
+	.uleb128 0x1
+	.long	.LASF742
+	.byte	0xe9
+	.uleb128 0x1
+	.long	.LASF743
+	.byte	0xea
+	.uleb128 0x1
+	.long	.LASF744
+	.byte	0xeb
+	.uleb128 0x1
+	.long	.LASF745
+	.byte	0xec
+	.uleb128 0x1
+	.long	.LASF746
+	.byte	0xed
+	.uleb128 0x1
+	.long	.LASF747
+	.byte	0xee
+	.uleb128 0x1
+	.long	.LASF748
+	.byte	0xef
+	.uleb128 0x1
+	.long	.LASF749
+	.byte	0xf0
+	.uleb128 0x1
+	.long	.LASF750
+	.byte	0xf1
+	.uleb128 0x1
+	.long	.LASF751
+	.byte	0xf2
+	.uleb128 0x1
+	.long	.LASF752
+	.byte	0xf3
+	.uleb128 0x1
+	.long	.LASF753
+	.byte	0xf4
+	.uleb128 0x1
+	.long	.LASF754
+	.byte	0xf5
+	.uleb128 0x1
+	.long	.LASF755
+	.byte	0xf6
+	.uleb128 0x1
+	.long	.LASF756
+	.byte	0xf7
+	.uleb128 0x1
+	.long	.LASF757
+	.byte	0xf8
+	.uleb128 0x1
+	.long	.LASF758
+	.byte	0xf9
+	.uleb128 0x1
+	.long	.LASF759
+	.byte	0xfa
+	.uleb128 0x1
+	.long	.LASF760
+	.byte	0xfb
+	.uleb128 0x1
+	.long	.LASF761
+	.byte	0xfc
+	.uleb128 0x1
+	.long	.LASF762
+	.byte	0xfd
+	.uleb128 0x1
+	.long	.LASF763
+	.byte	0xfe
+	.uleb128 0x1
+	.long	.LASF764
+	.byte	0xff
+	.uleb128 0x15
+	.long	.LASF765
+	.value	0x100
+	.uleb128 0x15
+	.long	.LASF766
+	.value	0x101
+	.uleb128 0x15
+	.long	.LASF767
+	.value	0x102
+	.uleb128 0x15
+	.long	.LASF768
+	.value	0x103
+	.uleb128 0x15
+	.long	.LASF769
+	.value	0x104
+	.uleb128 0x15
+	.long	.LASF770
+	.value	0x105
+	.uleb128 0x15
+	.long	.LASF771
+	.value	0x106
+	.uleb128 0x15
+	.long	.LASF772
+	.value	0x107
+	.byte	0
+	.uleb128 0x28
+	.long	.LASF773
+	.long	0x43
+	.value	0x1b9
+	.long	0x30ad
+	.uleb128 0x1
+	.long	.LASF774
+	.byte	0
+	.uleb128 0x1
+	.long	.LASF775
+	.byte	0
+	.uleb128 0x1
+	.long	.LASF776
+	.byte	0x1
+	.uleb128 0x1
+	.long	.LASF777
+	.byte	0x2
+	.uleb128 0x1
+	.long	.LASF778
+	.byte	0x3
+	.uleb128 0x1
+	.long	.LASF779
+	.byte	0x4
+	.uleb128 0x1
+	.long	.LASF780
+	.byte	0x5
+	.uleb128 0x1
+	.long	.LASF781
+	.byte	0x6
+	.uleb128 0x1
+	.long	.LASF782
+	.byte	0x7
+	.uleb128 0x1
+	.long	.LASF783
+	.byte	0x8
+	.uleb128 0x1
+	.long	.LASF784
+	.byte	0x9
+	.uleb128 0x1
+	.long	.LASF785
+	.byte	0xa
+	.byte	0
+	.uleb128 0x28
+	.long	.LASF786
+	.long	0x43
+	.value	0x1c8
+	.long	0x311d
+	.uleb128 0x1
+	.long	.LASF787
+	.byte	0
+	.uleb128 0x1
+	.long	.LASF788
+	.byte	0x1
+	.uleb128 0x1
+	.long	.LASF789
+	.byte	0x2
+	.uleb128 0x1
+	.long	.LASF790
+	.byte	0x3
+	.uleb128 0x1
+	.long	.LASF791
+	.byte	0x4
+	.uleb128 0x1
+	.long	.LASF792
+	.byte	0x5
+	.uleb128 0x1
+	.long	.LASF793
+	.byte	0x6
+	.uleb128 0x1
+	.long	.LASF794
+	.byte	0x7
+	.uleb128 0x1
+	.long	.LASF795
+	.byte	0x8
+	.uleb128 0x1
+	.long	.LASF796
+	.byte	0x9
+	.uleb128 0x1
+	.long	.LASF797
+	.byte	0xa
+	.uleb128 0x1
+	.long	.LASF798
+	.byte	0xb
+	.uleb128 0x1
+	.long	.LASF799
+	.byte	0xc
+	.uleb128 0x1
+	.long	.LASF800
+	.byte	0xd
+	.uleb128 0x1
+	.long	.LASF801
+	.byte	0xe
+	.uleb128 0x1
+	.long	.LASF802
+	.byte	0xf
+	.byte	0
+	.uleb128 0x1b
+	.byte	0x8
+	.byte	0x12
+	.value	0x1fd
+	.long	0x31a9
+	.uleb128 0x16
+	.string	"opt"
+	.byte	0x12
+	.value	0x1fe
+	.byte	0xb
+	.long	0x1109
+	.uleb128 0x4
+	.long	.LASF803
+	.byte	0x12
+	.value	0x1ff
+	.byte	0x8
+	.long	0x346
+	.uleb128 0x4
+	.long	.LASF804
+	.byte	0x12
+	.value	0x200
+	.byte	0x8
+	.long	0x346
+	.uleb128 0x16
+	.string	"sym"
+	.byte	0x12
+	.value	0x201
+	.byte	0xa
+	.long	0x5ca
+	.uleb128 0x4
+	.long	.LASF805
+	.byte	0x12
+	.value	0x202
+	.byte	0x8
+	.long	0x346
+	.uleb128 0x4
+	.long	.LASF806
+	.byte	0x12
+	.value	0x203
+	.byte	0x8
+	.long	0x2e
+	.uleb128 0x4
+	.long	.LASF807
+	.byte	0x12
+	.value	0x204
+	.byte	0xf
+	.long	0x1804
+	.uleb128 0x4
+	.long	.LASF808
+	.byte	0x12
+	.value	0x205
+	.byte	0xb
+	.long	0x1135
+	.uleb128 0x4
+	.long	.LASF809
+	.byte	0x12
+	.value	0x206
+	.byte	0x19
+	.long	0x114b
+	.uleb128 0x4
+	.long	.LASF810
+	.byte	0x12
+	.value	0x208
+	.byte	0xc
+	.long	0x1177
+	.byte	0
+	.uleb128 0x5
+	.long	.LASF811
+	.byte	0x30
+	.byte	0x12
+	.value	0x1f8
+	.long	0x3227
+	.uleb128 0x3
+	.string	"tag"
+	.byte	0x12
+	.value	0x1f9
+	.byte	0x8
+	.long	0x305
+	.byte	0
+	.uleb128 0x2
+	.long	.LASF812
+	.byte	0x12
+	.value	0x1fa
+	.byte	0x8
+	.long	0x305
+	.byte	0x1
+	.uleb128 0x2
+	.long	.LASF813
+	.byte	0x12
+	.value	0x1fb
+	.byte	0x8
+	.long	0x305
+	.byte	0x2
+	.uleb128 0x3
+	.string	"pos"
+	.byte	0x12
+	.value	0x1fc
+	.byte	0x9
+	.long	0x53f
+	.byte	0x8
+	.uleb128 0x2
+	.long	.LASF99
+	.byte	0x12
+	.value	0x20a
+	.byte	0x4
+	.long	0x311d
+	.byte	0x10
+	.uleb128 0x2
+	.long	.LASF814
+	.byte	0x12
+	.value	0x20b
+	.byte	0x6
+	.long	0x2e
+	.byte	0x18
+	.uleb128 0x2
+	.long	.LASF177
+	.byte	0x12
+	.value	0x20c
+	.byte	0x7
+	.long	0x9eb
+	.byte	0x20
+	.uleb128 0x2
+	.long	.LASF377
+	.byte	0x12
+	.value	0x20d
+	.byte	0x9
+	.long	0x360
+	.byte	0x28
+	.byte	0
+	.uleb128 0x1b
+	.byte	0x8
+	.byte	0x12
+	.value	0x212
+	.long	0x3272
+	.uleb128 0x4
+	.long	.LASF815
+	.byte	0x12
+	.value	0x213
+	.byte	0x8
+	.long	0xac4
+	.uleb128 0x4
+	.long	.LASF76
+	.byte	0x12
+	.value	0x214
+	.byte	0x8
+	.long	0x32c
+	.uleb128 0x16
+	.string	"str"
+	.byte	0x12
+	.value	0x215
+	.byte	0xa
+	.long	0x387
+	.uleb128 0x4
+	.long	.LASF96
+	.byte	0x12
+	.value	0x216
+	.byte	0x8
+	.long	0x5b4
+	.uleb128 0x4
+	.long	.LASF816
+	.byte	0x12
+	.value	0x217
+	.byte	0xa
+	.long	0x3a1
+	.byte	0
+	.uleb128 0x5
+	.long	.LASF193
+	.byte	0x80
+	.byte	0x12
+	.value	0x210
+	.long	0x329c
+	.uleb128 0x3
+	.string	"hdr"
+	.byte	0x12
+	.value	0x211
+	.byte	0x11
+	.long	0x31a9
+	.byte	0
+	.uleb128 0x2
+	.long	.LASF379
+	.byte	0x12
+	.value	0x218
+	.byte	0x4
+	.long	0x329c
+	.byte	0x30
+	.byte	0
+	.uleb128 0x11
+	.long	0x3227
+	.long	0x32ac
+	.uleb128 0x12
+	.long	0x4a
+	.byte	0x9
+	.byte	0
+	.uleb128 0x5
+	.long	.LASF194
+	.byte	0x30
+	.byte	0x12
+	.value	0x21e
+	.long	0x32c8
+	.uleb128 0x3
+	.string	"hdr"
+	.byte	0x12
+	.value	0x21f
+	.byte	0x11
+	.long	0x31a9
+	.byte	0
+	.byte	0
+	.uleb128 0x5
+	.long	.LASF195
+	.byte	0x38
+	.byte	0x12
+	.value	0x225
+	.long	0x32f2
+	.uleb128 0x3
+	.string	"hdr"
+	.byte	0x12
+	.value	0x226
+	.byte	0x11
+	.long	0x31a9
+	.byte	0
+	.uleb128 0x2
+	.long	.LASF817
+	.byte	0x12
+	.value	0x227
+	.byte	0x7
+	.long	0x32c
+	.byte	0x30
+	.byte	0
+	.uleb128 0x5
+	.long	.LASF196
+	.byte	0x38
+	.byte	0x12
+	.value	0x22d
+	.long	0x331c
+	.uleb128 0x3
+	.string	"hdr"
+	.byte	0x12
+	.value	0x22e
+	.byte	0x11
+	.long	0x31a9
+	.byte	0
+	.uleb128 0x2
+	.long	.LASF818
+	.byte	0x12
+	.value	0x22f
+	.byte	0x7
+	.long	0x32c
+	.byte	0x30
+	.byte	0
+	.uleb128 0x5
+	.long	.LASF197
+	.byte	0x38
+	.byte	0x12
+	.value	0x235
+	.long	0x3346
+	.uleb128 0x3
+	.string	"hdr"
+	.byte	0x12
+	.value	0x236
+	.byte	0x11
+	.long	0x31a9
+	.byte	0
+	.uleb128 0x2
+	.long	.LASF819
+	.byte	0x12
+	.value	0x237
+	.byte	0x7
+	.long	0x32c
+	.byte	0x30
+	.byte	0
+	.uleb128 0x5
+	.long	.LASF198
+	.byte	0x38
+	.byte	0x12
+	.value	0x23d
+	.long	0x3370
+	.uleb128 0x3
+	.string	"hdr"
+	.byte	0x12
+	.value	0x23e
+	.byte	0x11
+	.long	0x31a9
+	.byte	0
+	.uleb128 0x2
+	.long	.LASF820
+	.byte	0x12
+	.value	0x23f
+	.byte	0x7
+	.long	0x32c
+	.byte	0x30
+	.byte	0
+	.uleb128 0x5
+	.long	.LASF199
+	.byte	0x38
+	.byte	0x12
+	.value	0x245
+	.long	0x339a
+	.uleb128 0x3
+	.string	"hdr"
+	.byte	0x12
+	.value	0x246
+	.byte	0x11
+	.long	0x31a9
+	.byte	0
+	.uleb128 0x2
+	.long	.LASF821
+	.byte	0x12
+	.value	0x247
+	.byte	0x7
+	.long	0x32c
+	.byte	0x30
+	.byte	0
+	.uleb128 0x5
+	.long	.LASF200
+	.byte	0x38
+	.byte	0x12
+	.value	0x24d
+	.long	0x33c4
+	.uleb128 0x3
+	.string	"hdr"
+	.byte	0x12
+	.value	0x24e
+	.byte	0x11
+	.long	0x31a9
+	.byte	0
+	.uleb128 0x2
+	.long	.LASF822
+	.byte	0x12
+	.value	0x24f
+	.byte	0x7
+	.long	0x5b4
+	.byte	0x30
+	.byte	0
+	.uleb128 0x5
+	.long	.LASF201
+	.byte	0x38
+	.byte	0x12
+	.value	0x255
+	.long	0x33ee
+	.uleb128 0x3
+	.string	"hdr"
+	.byte	0x12
+	.value	0x256
+	.byte	0x11
+	.long	0x31a9
+	.byte	0
+	.uleb128 0x2
+	.long	.LASF823
+	.byte	0x12
+	.value	0x257
+	.byte	0x9
+	.long	0x3a1
+	.byte	0x30
+	.byte	0
+	.uleb128 0x5
+	.long	.LASF202
+	.byte	0x38
+	.byte	0x12
+	.value	0x25d
+	.long	0x3418
+	.uleb128 0x3
+	.string	"hdr"
+	.byte	0x12
+	.value	0x25e
+	.byte	0x11
+	.long	0x31a9
+	.byte	0
+	.uleb128 0x2
+	.long	.LASF824
+	.byte	0x12
+	.value	0x25f
+	.byte	0x9
+	.long	0x3ae
+	.byte	0x30
+	.byte	0
+	.uleb128 0x5
+	.long	.LASF203
+	.byte	0x38
+	.byte	0x12
+	.value	0x262
+	.long	0x3442
+	.uleb128 0x3
+	.string	"hdr"
+	.byte	0x12
+	.value	0x263
+	.byte	0x11
+	.long	0x31a9
+	.byte	0
+	.uleb128 0x2
+	.long	.LASF76
+	.byte	0x12
+	.value	0x264
+	.byte	0x7
+	.long	0x32c
+	.byte	0x30
+	.byte	0
+	.uleb128 0x5
+	.long	.LASF204
+	.byte	0x40
+	.byte	0x12
+	.value	0x267
+	.long	0x346c
+	.uleb128 0x3
+	.string	"hdr"
+	.byte	0x12
+	.value	0x268
+	.byte	0x11
+	.long	0x31a9
+	.byte	0
+	.uleb128 0x2
+	.long	.LASF76
+	.byte	0x12
+	.value	0x269
+	.byte	0x7
+	.long	0x346c
+	.byte	0x30
+	.byte	0
+	.uleb128 0x11
+	.long	0x32c
+	.long	0x347c
+	.uleb128 0x12
+	.long	0x4a
+	.byte	0x1
+	.byte	0
+	.uleb128 0x5
+	.long	.LASF205
+	.byte	0x88
+	.byte	0x12
+	.value	0x26c
+	.long	0x34b4
+	.uleb128 0x3
+	.string	"hdr"
+	.byte	0x12
+	.value	0x26d
+	.byte	0x11
+	.long	0x31a9
+	.byte	0
+	.uleb128 0x2
+	.long	.LASF825
+	.byte	0x12
+	.value	0x26e
+	.byte	0x7
+	.long	0x32c
+	.byte	0x30
+	.uleb128 0x2
+	.long	.LASF826
+	.byte	0x12
+	.value	0x26f
+	.byte	0x7
+	.long	0x34b4
+	.byte	0x38
+	.byte	0
+	.uleb128 0x11
+	.long	0x32c
+	.long	0x34c4
+	.uleb128 0x12
+	.long	0x4a
+	.byte	0x9
+	.byte	0
+	.uleb128 0x5
+	.long	.LASF206
+	.byte	0x88
+	.byte	0x12
+	.value	0x274
+	.long	0x34fc
+	.uleb128 0x3
+	.string	"hdr"
+	.byte	0x12
+	.value	0x275
+	.byte	0x11
+	.long	0x31a9
+	.byte	0
+	.uleb128 0x2
+	.long	.LASF827
+	.byte	0x12
+	.value	0x276
+	.byte	0x7
+	.long	0x32c
+	.byte	0x30
+	.uleb128 0x2
+	.long	.LASF826
+	.byte	0x12
+	.value	0x277
+	.byte	0x7
+	.long	0x34fc
+	.byte	0x38
+	.byte	0
+	.uleb128 0x11
+	.long	0xac4
+	.long	0x350c
+	.uleb128 0x12
+	.long	0x4a
+	.byte	0x9
+	.byte	0
+	.uleb128 0x5
+	.long	.LASF207
+	.byte	0x48
+	.byte	0x12
+	.value	0x27a
+	.long	0x3552
+	.uleb128 0x3
+	.string	"hdr"
+	.byte	0x12
+	.value	0x27b
+	.byte	0x11
+	.long	0x31a9
+	.byte	0
+	.uleb128 0x2
+	.long	.LASF828
+	.byte	0x12
+	.value	0x27c
+	.byte	0x7
+	.long	0x32c
+	.byte	0x30
+	.uleb128 0x3
+	.string	"fmt"
+	.byte	0x12
+	.value	0x27d
+	.byte	0x7
+	.long	0xac4
+	.byte	0x38
+	.uleb128 0x2
+	.long	.LASF829
+	.byte	0x12
+	.value	0x27e
+	.byte	0x7
+	.long	0xac4
+	.byte	0x40
+	.byte	0
+	.uleb128 0x5
+	.long	.LASF208
+	.byte	0x98
+	.byte	0x12
+	.value	0x28d
+	.long	0x3624
+	.uleb128 0x3
+	.string	"hdr"
+	.byte	0x12
+	.value	0x28e
+	.byte	0x11
+	.long	0x31a9
+	.byte	0
+	.uleb128 0x2
+	.long	.LASF830
+	.byte	0x12
+	.value	0x28f
+	.byte	0x7
+	.long	0x32c
+	.byte	0x30
+	.uleb128 0x2
+	.long	.LASF831
+	.byte	0x12
+	.value	0x290
+	.byte	0x7
+	.long	0x32c
+	.byte	0x38
+	.uleb128 0x2
+	.long	.LASF832
+	.byte	0x12
+	.value	0x291
+	.byte	0x7
+	.long	0x32c
+	.byte	0x40
+	.uleb128 0x2
+	.long	.LASF827
+	.byte	0x12
+	.value	0x292
+	.byte	0x7
+	.long	0x32c
+	.byte	0x48
+	.uleb128 0x2
+	.long	.LASF833
+	.byte	0x12
+	.value	0x293
+	.byte	0x7
+	.long	0x32c
+	.byte	0x50
+	.uleb128 0x2
+	.long	.LASF834
+	.byte	0x12
+	.value	0x295
+	.byte	0x7
+	.long	0x32c
+	.byte	0x58
+	.uleb128 0x2
+	.long	.LASF835
+	.byte	0x12
+	.value	0x296
+	.byte	0x7
+	.long	0x32c
+	.byte	0x60
+	.uleb128 0x2
+	.long	.LASF836
+	.byte	0x12
+	.value	0x297
+	.byte	0x7
+	.long	0x32c
+	.byte	0x68
+	.uleb128 0x2
+	.long	.LASF837
+	.byte	0x12
+	.value	0x29c
+	.byte	0x7
+	.long	0xac4
+	.byte	0x70
+	.uleb128 0x2
+	.long	.LASF838
+	.byte	0x12
+	.value	0x29e
+	.byte	0x7
+	.long	0xac4
+	.byte	0x78
+	.uleb128 0x2
+	.long	.LASF839
+	.byte	0x12
+	.value	0x29f
+	.byte	0x7
+	.long	0xac4
+	.byte	0x80
+	.uleb128 0x2
+	.long	.LASF840
+	.byte	0x12
+	.value	0x2a0
+	.byte	0x7
+	.long	0xac4
+	.byte	0x88
+	.uleb128 0x2
+	.long	.LASF386
+	.byte	0x12
+	.value	0x2a1
+	.byte	0x7
+	.long	0xac4
+	.byte	0x90
+	.byte	0
+	.uleb128 0x5
+	.long	.LASF209
+	.byte	0x40
+	.byte	0x12
+	.value	0x2a6
+	.long	0x365c
+	.uleb128 0x3
+	.string	"hdr"
+	.byte	0x12
+	.value	0x2a7
+	.byte	0x11
+	.long	0x31a9
+	.byte	0
+	.uleb128 0x3
+	.string	"env"
+	.byte	0x12
+	.value	0x2a8
+	.byte	0x7
+	.long	0xac4
+	.byte	0x30
+	.uleb128 0x2
+	.long	.LASF841
+	.byte	0x12
+	.value	0x2a9
+	.byte	0x7
+	.long	0xac4
+	.byte	0x38
+	.byte	0
+	.uleb128 0x5
+	.long	.LASF211
+	.byte	0x60
+	.byte	0x12
+	.value	0x2b4
+	.long	0x36cb
+	.uleb128 0x3
+	.string	"hdr"
+	.byte	0x12
+	.value	0x2b5
+	.byte	0x11
+	.long	0x31a9
+	.byte	0
+	.uleb128 0x2
+	.long	.LASF182
+	.byte	0x12
+	.value	0x2b6
+	.byte	0x7
+	.long	0x32c
+	.byte	0x30
+	.uleb128 0x3
+	.string	"id"
+	.byte	0x12
+	.value	0x2b7
+	.byte	0x9
+	.long	0x387
+	.byte	0x38
+	.uleb128 0x2
+	.long	.LASF400
+	.byte	0x12
+	.value	0x2b8
+	.byte	0x7
+	.long	0x32c
+	.byte	0x40
+	.uleb128 0x2
+	.long	.LASF827
+	.byte	0x12
+	.value	0x2b9
+	.byte	0x7
+	.long	0x32c
+	.byte	0x48
+	.uleb128 0x3
+	.string	"dir"
+	.byte	0x12
+	.value	0x2ba
+	.byte	0x7
+	.long	0x32c
+	.byte	0x50
+	.uleb128 0x2
+	.long	.LASF842
+	.byte	0x12
+	.value	0x2bb
+	.byte	0x7
+	.long	0x32c
+	.byte	0x58
+	.byte	0
+	.uleb128 0x5
+	.long	.LASF210
+	.byte	0x50
+	.byte	0x12
+	.value	0x2c1
+	.long	0x371e
+	.uleb128 0x3
+	.string	"hdr"
+	.byte	0x12
+	.value	0x2c2
+	.byte	0x11
+	.long	0x31a9
+	.byte	0
+	.uleb128 0x2
+	.long	.LASF182
+	.byte	0x12
+	.value	0x2c3
+	.byte	0x7
+	.long	0x32c
+	.byte	0x30
+	.uleb128 0x3
+	.string	"id"
+	.byte	0x12
+	.value	0x2c4
+	.byte	0x9
+	.long	0x387
+	.byte	0x38
+	.uleb128 0x2
+	.long	.LASF843
+	.byte	0x12
+	.value	0x2c5
+	.byte	0x7
+	.long	0x32c
+	.byte	0x40
+	.uleb128 0x2
+	.long	.LASF827
+	.byte	0x12
+	.value	0x2c6
+	.byte	0x7
+	.long	0x32c
+	.byte	0x48
+	.byte	0
+	.uleb128 0x5
+	.long	.LASF212
+	.byte	0x88
+	.byte	0x12
+	.value	0x2cd
+	.long	0x3756
+	.uleb128 0x3
+	.string	"hdr"
+	.byte	0x12
+	.value	0x2ce
+	.byte	0x11
+	.long	0x31a9
+	.byte	0
+	.uleb128 0x2
+	.long	.LASF844
+	.byte	0x12
+	.value	0x2cf
+	.byte	0x7
+	.long	0x32c
+	.byte	0x30
+	.uleb128 0x2
+	.long	.LASF379
+	.byte	0x12
+	.value	0x2d0
+	.byte	0x7
+	.long	0x34fc
+	.byte	0x38
+	.byte	0
+	.uleb128 0x5
+	.long	.LASF213
+	.byte	0x80
+	.byte	0x12
+	.value	0x2d7
+	.long	0x3780
+	.uleb128 0x3
+	.string	"hdr"
+	.byte	0x12
+	.value	0x2d8
+	.byte	0x11
+	.long	0x31a9
+	.byte	0
+	.uleb128 0x2
+	.long	.LASF379
+	.byte	0x12
+	.value	0x2d9
+	.byte	0x7
+	.long	0x34b4
+	.byte	0x30
+	.byte	0
+	.uleb128 0x5
+	.long	.LASF214
+	.byte	0x80
+	.byte	0x12
+	.value	0x2de
+	.long	0x37aa
+	.uleb128 0x3
+	.string	"hdr"
+	.byte	0x12
+	.value	0x2df
+	.byte	0x11
+	.long	0x31a9
+	.byte	0
+	.uleb128 0x2
+	.long	.LASF379
+	.byte	0x12
+	.value	0x2e0
+	.byte	0x7
+	.long	0x34b4
+	.byte	0x30
+	.byte	0
+	.uleb128 0x5
+	.long	.LASF215
+	.byte	0x80
+	.byte	0x12
+	.value	0x2e5
+	.long	0x37d4
+	.uleb128 0x3
+	.string	"hdr"
+	.byte	0x12
+	.value	0x2e6
+	.byte	0x11
+	.long	0x31a9
+	.byte	0
+	.uleb128 0x2
+	.long	.LASF379
+	.byte	0x12
+	.value	0x2e7
+	.byte	0x7
+	.long	0x34fc
+	.byte	0x30
+	.byte	0
+	.uleb128 0x5
+	.long	.LASF216
+	.byte	0x40
+	.byte	0x12
+	.value	0x2ed
+	.long	0x380c
+	.uleb128 0x3
+	.string	"hdr"
+	.byte	0x12
+	.value	0x2ee
+	.byte	0x11
+	.long	0x31a9
+	.byte	0
+	.uleb128 0x3
+	.string	"lhs"
+	.byte	0x12
+	.value	0x2ef
+	.byte	0x7
+	.long	0xac4
+	.byte	0x30
+	.uleb128 0x3
+	.string	"rhs"
+	.byte	0x12
+	.value	0x2f0
+	.byte	0x7
+	.long	0xac4
+	.byte	0x38
+	.byte	0
+	.uleb128 0x5
+	.long	.LASF217
+	.byte	0x80
+	.byte	0x12
+	.value	0x2f3
+	.long	0x3836
+	.uleb128 0x3
+	.string	"hdr"
+	.byte	0x12
+	.value	0x2f4
+	.byte	0x11
+	.long	0x31a9
+	.byte	0
+	.uleb128 0x2
+	.long	.LASF379
+	.byte	0x12
+	.value	0x2f5
+	.byte	0x7
+	.long	0x34fc
+	.byte	0x30
+	.byte	0
+	.uleb128 0x5
+	.long	.LASF218
+	.byte	0x38
+	.byte	0x12
+	.value	0x2fa
+	.long	0x3860
+	.uleb128 0x3
+	.string	"hdr"
+	.byte	0x12
+	.value	0x2fb
+	.byte	0x11
+	.long	0x31a9
+	.byte	0
+	.uleb128 0x2
+	.long	.LASF845
+	.byte	0x12
+	.value	0x2fc
+	.byte	0x7
+	.long	0x32c
+	.byte	0x30
+	.byte	0
+	.uleb128 0x5
+	.long	.LASF219
+	.byte	0x38
+	.byte	0x12
+	.value	0x303
+	.long	0x388a
+	.uleb128 0x3
+	.string	"hdr"
+	.byte	0x12
+	.value	0x304
+	.byte	0x11
+	.long	0x31a9
+	.byte	0
+	.uleb128 0x2
+	.long	.LASF845
+	.byte	0x12
+	.value	0x305
+	.byte	0x7
+	.long	0x32c
+	.byte	0x30
+	.byte	0
+	.uleb128 0x5
+	.long	.LASF220
+	.byte	0x40
+	.byte	0x12
+	.value	0x30b
+	.long	0x38c2
+	.uleb128 0x3
+	.string	"hdr"
+	.byte	0x12
+	.value	0x30c
+	.byte	0x11
+	.long	0x31a9
+	.byte	0
+	.uleb128 0x2
+	.long	.LASF846
+	.byte	0x12
+	.value	0x30d
+	.byte	0x7
+	.long	0x32c
+	.byte	0x30
+	.uleb128 0x2
+	.long	.LASF845
+	.byte	0x12
+	.value	0x30e
+	.byte	0x7
+	.long	0x32c
+	.byte	0x38
+	.byte	0
+	.uleb128 0x5
+	.long	.LASF221
+	.byte	0x38
+	.byte	0x12
+	.value	0x313
+	.long	0x38ec
+	.uleb128 0x3
+	.string	"hdr"
+	.byte	0x12
+	.value	0x314
+	.byte	0x11
+	.long	0x31a9
+	.byte	0
+	.uleb128 0x2
+	.long	.LASF845
+	.byte	0x12
+	.value	0x315
+	.byte	0x7
+	.long	0x32c
+	.byte	0x30
+	.byte	0
+	.uleb128 0x5
+	.long	.LASF223
+	.byte	0x38
+	.byte	0x12
+	.value	0x31a
+	.long	0x3916
+	.uleb128 0x3
+	.string	"hdr"
+	.byte	0x12
+	.value	0x31b
+	.byte	0x11
+	.long	0x31a9
+	.byte	0
+	.uleb128 0x2
+	.long	.LASF845
+	.byte	0x12
+	.value	0x31c
+	.byte	0x7
+	.long	0x32c
+	.byte	0x30
+	.byte	0
+	.uleb128 0x5
+	.long	.LASF222
+	.byte	0x38
+	.byte	0x12
+	.value	0x321
+	.long	0x3940
+	.uleb128 0x3
+	.string	"hdr"
+	.byte	0x12
+	.value	0x322
+	.byte	0x11
+	.long	0x31a9
+	.byte	0
+	.uleb128 0x2
+	.long	.LASF845
+	.byte	0x12
+	.value	0x323
+	.byte	0x7
+	.long	0x32c
+	.byte	0x30
+	.byte	0
+	.uleb128 0x5
+	.long	.LASF224
+	.byte	0x38
+	.byte	0x12
+	.value	0x328
+	.long	0x396a
+	.uleb128 0x3
+	.string	"hdr"
+	.byte	0x12
+	.value	0x329
+	.byte	0x11
+	.long	0x31a9
+	.byte	0
+	.uleb128 0x2
+	.long	.LASF846
+	.byte	0x12
+	.value	0x32a
+	.byte	0x7
+	.long	0x32c
+	.byte	0x30
+	.byte	0
+	.uleb128 0x5
+	.long	.LASF225
+	.byte	0x40
+	.byte	0x12
+	.value	0x32f
+	.long	0x39a2
+	.uleb128 0x3
+	.string	"hdr"
+	.byte	0x12
+	.value	0x330
+	.byte	0x11
+	.long	0x31a9
+	.byte	0
+	.uleb128 0x2
+	.long	.LASF846
+	.byte	0x12
+	.value	0x331
+	.byte	0x7
+	.long	0x32c
+	.byte	0x30
+	.uleb128 0x3
+	.string	"env"
+	.byte	0x12
+	.value	0x332
+	.byte	0x7
+	.long	0xac4
+	.byte	0x38
+	.byte	0
+	.uleb128 0x5
+	.long	.LASF226
+	.byte	0x40
+	.byte	0x12
+	.value	0x337
+	.long	0x39da
+	.uleb128 0x3
+	.string	"hdr"
+	.byte	0x12
+	.value	0x338
+	.byte	0x11
+	.long	0x31a9
+	.byte	0
+	.uleb128 0x3
+	.string	"idx"
+	.byte	0x12
+	.value	0x339
+	.byte	0x7
+	.long	0x32c
+	.byte	0x30
+	.uleb128 0x2
+	.long	.LASF841
+	.byte	0x12
+	.value	0x33a
+	.byte	0x7
+	.long	0xac4
+	.byte	0x38
+	.byte	0
+	.uleb128 0x5
+	.long	.LASF227
+	.byte	0x38
+	.byte	0x12
+	.value	0x33f
+	.long	0x3a04
+	.uleb128 0x3
+	.string	"hdr"
+	.byte	0x12
+	.value	0x340
+	.byte	0x11
+	.long	0x31a9
+	.byte	0
+	.uleb128 0x2
+	.long	.LASF383
+	.byte	0x12
+	.value	0x341
+	.byte	0x7
+	.long	0x32c
+	.byte	0x30
+	.byte	0
+	.uleb128 0x5
+	.long	.LASF228
+	.byte	0x38
+	.byte	0x12
+	.value	0x346
+	.long	0x3a2e
+	.uleb128 0x3
+	.string	"hdr"
+	.byte	0x12
+	.value	0x347
+	.byte	0x11
+	.long	0x31a9
+	.byte	0
+	.uleb128 0x3
+	.string	"val"
+	.byte	0x12
+	.value	0x348
+	.byte	0x7
+	.long	0xac4
+	.byte	0x30
+	.byte	0
+	.uleb128 0x5
+	.long	.LASF229
+	.byte	0x38
+	.byte	0x12
+	.value	0x34d
+	.long	0x3a58
+	.uleb128 0x3
+	.string	"hdr"
+	.byte	0x12
+	.value	0x34e
+	.byte	0x11
+	.long	0x31a9
+	.byte	0
+	.uleb128 0x2
+	.long	.LASF841
+	.byte	0x12
+	.value	0x34f
+	.byte	0x7
+	.long	0xac4
+	.byte	0x30
+	.byte	0
+	.uleb128 0x5
+	.long	.LASF230
+	.byte	0x38
+	.byte	0x12
+	.value	0x354
+	.long	0x3a82
+	.uleb128 0x3
+	.string	"hdr"
+	.byte	0x12
+	.value	0x355
+	.byte	0x11
+	.long	0x31a9
+	.byte	0
+	.uleb128 0x3
+	.string	"env"
+	.byte	0x12
+	.value	0x356
+	.byte	0x7
+	.long	0xac4
+	.byte	0x30
+	.byte	0
+	.uleb128 0x5
+	.long	.LASF231
+	.byte	0x38
+	.byte	0x12
+	.value	0x35b
+	.long	0x3aac
+	.uleb128 0x3
+	.string	"hdr"
+	.byte	0x12
+	.value	0x35c
+	.byte	0x11
+	.long	0x31a9
+	.byte	0
+	.uleb128 0x3
+	.string	"loc"
+	.byte	0x12
+	.value	0x35d
+	.byte	0x7
+	.long	0xac4
+	.byte	0x30
+	.byte	0
+	.uleb128 0x5
+	.long	.LASF232
+	.byte	0x38
+	.byte	0x12
+	.value	0x362
+	.long	0x3ad6
+	.uleb128 0x3
+	.string	"hdr"
+	.byte	0x12
+	.value	0x363
+	.byte	0x11
+	.long	0x31a9
+	.byte	0
+	.uleb128 0x3
+	.string	"env"
+	.byte	0x12
+	.value	0x364
+	.byte	0x7
+	.long	0xac4
+	.byte	0x30
+	.byte	0
+	.uleb128 0x5
+	.long	.LASF233
+	.byte	0x38
+	.byte	0x12
+	.value	0x369
+	.long	0x3b00
+	.uleb128 0x3
+	.string	"hdr"
+	.byte	0x12
+	.value	0x36a
+	.byte	0x11
+	.long	0x31a9
+	.byte	0
+	.uleb128 0x3
+	.string	"env"
+	.byte	0x12
+	.value	0x36b
+	.byte	0x7
+	.long	0xac4
+	.byte	0x30
+	.byte	0
+	.uleb128 0x5
+	.long	.LASF234
+	.byte	0x48
+	.byte	0x12
+	.value	0x370
+	.long	0x3b46
+	.uleb128 0x3
+	.string	"hdr"
+	.byte	0x12
+	.value	0x371
+	.byte	0x11
+	.long	0x31a9
+	.byte	0
+	.uleb128 0x2
+	.long	.LASF825
+	.byte	0x12
+	.value	0x372
+	.byte	0x7
+	.long	0x32c
+	.byte	0x30
+	.uleb128 0x2
+	.long	.LASF845
+	.byte	0x12
+	.value	0x373
+	.byte	0x7
+	.long	0xac4
+	.byte	0x38
+	.uleb128 0x2
+	.long	.LASF385
+	.byte	0x12
+	.value	0x374
+	.byte	0x7
+	.long	0xac4
+	.byte	0x40
+	.byte	0
+	.uleb128 0x5
+	.long	.LASF249
+	.byte	0x40
+	.byte	0x12
+	.value	0x379
+	.long	0x3b7e
+	.uleb128 0x3
+	.string	"hdr"
+	.byte	0x12
+	.value	0x37a
+	.byte	0x11
+	.long	0x31a9
+	.byte	0
+	.uleb128 0x2
+	.long	.LASF377
+	.byte	0x12
+	.value	0x37b
+	.byte	0x7
+	.long	0x32c
+	.byte	0x30
+	.uleb128 0x3
+	.string	"fmt"
+	.byte	0x12
+	.value	0x37c
+	.byte	0x7
+	.long	0xac4
+	.byte	0x38
+	.byte	0
+	.uleb128 0x5
+	.long	.LASF236
+	.byte	0x48
+	.byte	0x12
+	.value	0x382
+	.long	0x3bc4
+	.uleb128 0x3
+	.string	"hdr"
+	.byte	0x12
+	.value	0x383
+	.byte	0x11
+	.long	0x31a9
+	.byte	0
+	.uleb128 0x2
+	.long	.LASF847
+	.byte	0x12
+	.value	0x384
+	.byte	0x7
+	.long	0x32c
+	.byte	0x30
+	.uleb128 0x3
+	.string	"fmt"
+	.byte	0x12
+	.value	0x385
+	.byte	0x7
+	.long	0xac4
+	.byte	0x38
+	.uleb128 0x2
+	.long	.LASF76
+	.byte	0x12
+	.value	0x386
+	.byte	0x7
+	.long	0xac4
+	.byte	0x40
+	.byte	0
+	.uleb128 0x5
+	.long	.LASF261
+	.byte	0x38
+	.byte	0x12
+	.value	0x38c
+	.long	0x3bee
+	.uleb128 0x3
+	.string	"hdr"
+	.byte	0x12
+	.value	0x38d
+	.byte	0x11
+	.long	0x31a9
+	.byte	0
+	.uleb128 0x3
+	.string	"fmt"
+	.byte	0x12
+	.value	0x38e
+	.byte	0x7
+	.long	0xac4
+	.byte	0x30
+	.byte	0
+	.uleb128 0x5
+	.long	.LASF235
+	.byte	0x48
+	.byte	0x12
+	.value	0x394
+	.long	0x3c34
+	.uleb128 0x3
+	.string	"hdr"
+	.byte	0x12
+	.value	0x395
+	.byte	0x11
+	.long	0x31a9
+	.byte	0
+	.uleb128 0x2
+	.long	.LASF827
+	.byte	0x12
+	.value	0x396
+	.byte	0x7
+	.long	0x32c
+	.byte	0x30
+	.uleb128 0x2
+	.long	.LASF385
+	.byte	0x12
+	.value	0x397
+	.byte	0x7
+	.long	0xac4
+	.byte	0x38
+	.uleb128 0x2
+	.long	.LASF847
+	.byte	0x12
+	.value	0x398
+	.byte	0x7
+	.long	0x32c
+	.byte	0x40
+	.byte	0
+	.uleb128 0x5
+	.long	.LASF237
+	.byte	0x48
+	.byte	0x12
+	.value	0x39d
+	.long	0x3c7a
+	.uleb128 0x3
+	.string	"hdr"
+	.byte	0x12
+	.value	0x39e
+	.byte	0x11
+	.long	0x31a9
+	.byte	0
+	.uleb128 0x2
+	.long	.LASF827
+	.byte	0x12
+	.value	0x39f
+	.byte	0x7
+	.long	0x32c
+	.byte	0x30
+	.uleb128 0x2
+	.long	.LASF385
+	.byte	0x12
+	.value	0x3a0
+	.byte	0x7
+	.long	0xac4
+	.byte	0x38
+	.uleb128 0x2
+	.long	.LASF847
+	.byte	0x12
+	.value	0x3a1
+	.byte	0x7
+	.long	0x32c
+	.byte	0x40
+	.byte	0
+	.uleb128 0x5
+	.long	.LASF238
+	.byte	0x50
+	.byte	0x12
+	.value	0x3a6
+	.long	0x3cce
+	.uleb128 0x3
+	.string	"hdr"
+	.byte	0x12
+	.value	0x3a7
+	.byte	0x11
+	.long	0x31a9
+	.byte	0
+	.uleb128 0x2
+	.long	.LASF827
+	.byte	0x12
+	.value	0x3a8
+	.byte	0x7
+	.long	0x32c
+	.byte	0x30
+	.uleb128 0x2
+	.long	.LASF385
+	.byte	0x12
+	.value	0x3a9
+	.byte	0x7
+	.long	0xac4
+	.byte	0x38
+	.uleb128 0x2
+	.long	.LASF845
+	.byte	0x12
+	.value	0x3aa
+	.byte	0x7
+	.long	0xac4
+	.byte	0x40
+	.uleb128 0x2
+	.long	.LASF847
+	.byte	0x12
+	.value	0x3ab
+	.byte	0x7
+	.long	0x32c
+	.byte	0x48
+	.byte	0
+	.uleb128 0x5
+	.long	.LASF239
+	.byte	0x50
+	.byte	0x12
+	.value	0x3b0
+	.long	0x3d22
+	.uleb128 0x3
+	.string	"hdr"
+	.byte	0x12
+	.value	0x3b1
+	.byte	0x11
+	.long	0x31a9
+	.byte	0
+	.uleb128 0x3
+	.string	"env"
+	.byte	0x12
+	.value	0x3b2
+	.byte	0x7
+	.long	0x32c
+	.byte	0x30
+	.uleb128 0x3
+	.string	"ref"
+	.byte	0x12
+	.value	0x3b3
+	.byte	0x7
+	.long	0xac4
+	.byte	0x38
+	.uleb128 0x2
+	.long	.LASF846
+	.byte	0x12
+	.value	0x3b4
+	.byte	0x7
+	.long	0x32c
+	.byte	0x40
+	.uleb128 0x3
+	.string	"lex"
+	.byte	0x12
+	.value	0x3b5
+	.byte	0x7
+	.long	0x32c
+	.byte	0x48
+	.byte	0
+	.uleb128 0x5
+	.long	.LASF240
+	.byte	0x38
+	.byte	0x12
+	.value	0x3bb
+	.long	0x3d4c
+	.uleb128 0x3
+	.string	"hdr"
+	.byte	0x12
+	.value	0x3bc
+	.byte	0x11
+	.long	0x31a9
+	.byte	0
+	.uleb128 0x2
+	.long	.LASF848
+	.byte	0x12
+	.value	0x3bd
+	.byte	0x7
+	.long	0x32c
+	.byte	0x30
+	.byte	0
+	.uleb128 0x5
+	.long	.LASF241
+	.byte	0x38
+	.byte	0x12
+	.value	0x3c3
+	.long	0x3d76
+	.uleb128 0x3
+	.string	"hdr"
+	.byte	0x12
+	.value	0x3c4
+	.byte	0x11
+	.long	0x31a9
+	.byte	0
+	.uleb128 0x3
+	.string	"str"
+	.byte	0x12
+	.value	0x3c5
+	.byte	0x9
+	.long	0x387
+	.byte	0x30
+	.byte	0
+	.uleb128 0x5
+	.long	.LASF242
+	.byte	0x30
+	.byte	0x12
+	.value	0x3cb
+	.long	0x3d92
+	.uleb128 0x3
+	.string	"hdr"
+	.byte	0x12
+	.value	0x3cc
+	.byte	0x11
+	.long	0x31a9
+	.byte	0
+	.byte	0
+	.uleb128 0x5
+	.long	.LASF243
+	.byte	0x40
+	.byte	0x12
+	.value	0x3d1
+	.long	0x3dca
+	.uleb128 0x3
+	.string	"hdr"
+	.byte	0x12
+	.value	0x3d2
+	.byte	0x11
+	.long	0x31a9
+	.byte	0
+	.uleb128 0x3
+	.string	"lhs"
+	.byte	0x12
+	.value	0x3d3
+	.byte	0x7
+	.long	0xac4
+	.byte	0x30
+	.uleb128 0x3
+	.string	"rhs"
+	.byte	0x12
+	.value	0x3d4
+	.byte	0x7
+	.long	0xac4
+	.byte	0x38
+	.byte	0
+	.uleb128 0x5
+	.long	.LASF244
+	.byte	0x40
+	.byte	0x12
+	.value	0x3d9
+	.long	0x3e02
+	.uleb128 0x3
+	.string	"hdr"
+	.byte	0x12
+	.value	0x3da
+	.byte	0x11
+	.long	0x31a9
+	.byte	0
+	.uleb128 0x2
+	.long	.LASF382
+	.byte	0x12
+	.value	0x3db
+	.byte	0x7
+	.long	0xac4
+	.byte	0x30
+	.uleb128 0x2
+	.long	.LASF383
+	.byte	0x12
+	.value	0x3dc
+	.byte	0x7
+	.long	0x32c
+	.byte	0x38
+	.byte	0
+	.uleb128 0x5
+	.long	.LASF245
+	.byte	0x80
+	.byte	0x12
+	.value	0x3e1
+	.long	0x3e2c
+	.uleb128 0x3
+	.string	"hdr"
+	.byte	0x12
+	.value	0x3e2
+	.byte	0x11
+	.long	0x31a9
+	.byte	0
+	.uleb128 0x2
+	.long	.LASF379
+	.byte	0x12
+	.value	0x3e3
+	.byte	0x7
+	.long	0x34fc
+	.byte	0x30
+	.byte	0
+	.uleb128 0x5
+	.long	.LASF247
+	.byte	0x40
+	.byte	0x12
+	.value	0x3e8
+	.long	0x3e64
+	.uleb128 0x3
+	.string	"hdr"
+	.byte	0x12
+	.value	0x3e9
+	.byte	0x11
+	.long	0x31a9
+	.byte	0
+	.uleb128 0x2
+	.long	.LASF849
+	.byte	0x12
+	.value	0x3ea
+	.byte	0x7
+	.long	0x32c
+	.byte	0x30
+	.uleb128 0x2
+	.long	.LASF834
+	.byte	0x12
+	.value	0x3eb
+	.byte	0x7
+	.long	0xac4
+	.byte	0x38
+	.byte	0
+	.uleb128 0x5
+	.long	.LASF248
+	.byte	0x38
+	.byte	0x12
+	.value	0x3f0
+	.long	0x3e8e
+	.uleb128 0x3
+	.string	"hdr"
+	.byte	0x12
+	.value	0x3f1
+	.byte	0x11
+	.long	0x31a9
+	.byte	0
+	.uleb128 0x2
+	.long	.LASF827
+	.byte	0x12
+	.value	0x3f2
+	.byte	0x7
+	.long	0x32c
+	.byte	0x30
+	.byte	0
+	.uleb128 0x5
+	.long	.LASF250
+	.byte	0x40
+	.byte	0x12
+	.value	0x3f7
+	.long	0x3ec6
+	.uleb128 0x3
+	.string	"hdr"
+	.byte	0x12
+	.value	0x3f8
+	.byte	0x11
+	.long	0x31a9
+	.byte	0
+	.uleb128 0x2
+	.long	.LASF827
+	.byte	0x12
+	.value	0x3f9
+	.byte	0x7
+	.long	0x32c
+	.byte	0x30
+	.uleb128 0x2
+	.long	.LASF834
+	.byte	0x12
+	.value	0x3fa
+	.byte	0x7
+	.long	0xac4
+	.byte	0x38
+	.byte	0
+	.uleb128 0x5
+	.long	.LASF251
+	.byte	0x40
+	.byte	0x12
+	.value	0x3ff
+	.long	0x3efe
+	.uleb128 0x3
+	.string	"hdr"
+	.byte	0x12
+	.value	0x400
+	.byte	0x11
+	.long	0x31a9
+	.byte	0
+	.uleb128 0x2
+	.long	.LASF182
+	.byte	0x12
+	.value	0x401
+	.byte	0x7
+	.long	0x32c
+	.byte	0x30
+	.uleb128 0x2
+	.long	.LASF385
+	.byte	0x12
+	.value	0x402
+	.byte	0x7
+	.long	0xac4
+	.byte	0x38
+	.byte	0
+	.uleb128 0x5
+	.long	.LASF252
+	.byte	0x98
+	.byte	0x12
+	.value	0x408
+	.long	0x3f51
+	.uleb128 0x3
+	.string	"hdr"
+	.byte	0x12
+	.value	0x409
+	.byte	0x11
+	.long	0x31a9
+	.byte	0
+	.uleb128 0x2
+	.long	.LASF842
+	.byte	0x12
+	.value	0x40a
+	.byte	0x7
+	.long	0x32c
+	.byte	0x30
+	.uleb128 0x2
+	.long	.LASF182
+	.byte	0x12
+	.value	0x40b
+	.byte	0x7
+	.long	0x32c
+	.byte	0x38
+	.uleb128 0x3
+	.string	"op"
+	.byte	0x12
+	.value	0x40c
+	.byte	0x7
+	.long	0xac4
+	.byte	0x40
+	.uleb128 0x2
+	.long	.LASF379
+	.byte	0x12
+	.value	0x40d
+	.byte	0x7
+	.long	0x34fc
+	.byte	0x48
+	.byte	0
+	.uleb128 0x5
+	.long	.LASF253
+	.byte	0x88
+	.byte	0x12
+	.value	0x418
+	.long	0x3f88
+	.uleb128 0x3
+	.string	"hdr"
+	.byte	0x12
+	.value	0x419
+	.byte	0x11
+	.long	0x31a9
+	.byte	0
+	.uleb128 0x3
+	.string	"op"
+	.byte	0x12
+	.value	0x41a
+	.byte	0x7
+	.long	0x32c
+	.byte	0x30
+	.uleb128 0x2
+	.long	.LASF379
+	.byte	0x12
+	.value	0x41b
+	.byte	0x7
+	.long	0x34fc
+	.byte	0x38
+	.byte	0
+	.uleb128 0x5
+	.long	.LASF254
+	.byte	0x90
+	.byte	0x12
+	.value	0x421
+	.long	0x3fcd
+	.uleb128 0x3
+	.string	"hdr"
+	.byte	0x12
+	.value	0x422
+	.byte	0x11
+	.long	0x31a9
+	.byte	0
+	.uleb128 0x2
+	.long	.LASF182
+	.byte	0x12
+	.value	0x423
+	.byte	0x7
+	.long	0x32c
+	.byte	0x30
+	.uleb128 0x3
+	.string	"op"
+	.byte	0x12
+	.value	0x424
+	.byte	0x7
+	.long	0xac4
+	.byte	0x38
+	.uleb128 0x2
+	.long	.LASF379
+	.byte	0x12
+	.value	0x425
+	.byte	0x7
+	.long	0x34fc
+	.byte	0x40
+	.byte	0
+	.uleb128 0x5
+	.long	.LASF255
+	.byte	0x98
+	.byte	0x12
+	.value	0x42d
+	.long	0x4020
+	.uleb128 0x3
+	.string	"hdr"
+	.byte	0x12
+	.value	0x42e
+	.byte	0x11
+	.long	0x31a9
+	.byte	0
+	.uleb128 0x2
+	.long	.LASF182
+	.byte	0x12
+	.value	0x42f
+	.byte	0x7
+	.long	0x32c
+	.byte	0x30
+	.uleb128 0x3
+	.string	"op"
+	.byte	0x12
+	.value	0x430
+	.byte	0x7
+	.long	0xac4
+	.byte	0x38
+	.uleb128 0x3
+	.string	"env"
+	.byte	0x12
+	.value	0x431
+	.byte	0x7
+	.long	0xac4
+	.byte	0x40
+	.uleb128 0x2
+	.long	.LASF379
+	.byte	0x12
+	.value	0x432
+	.byte	0x7
+	.long	0x34fc
+	.byte	0x48
+	.byte	0
+	.uleb128 0x5
+	.long	.LASF256
+	.byte	0x50
+	.byte	0x12
+	.value	0x438
+	.long	0x4074
+	.uleb128 0x3
+	.string	"hdr"
+	.byte	0x12
+	.value	0x439
+	.byte	0x11
+	.long	0x31a9
+	.byte	0
+	.uleb128 0x2
+	.long	.LASF850
+	.byte	0x12
+	.value	0x43a
+	.byte	0x7
+	.long	0xac4
+	.byte	0x30
+	.uleb128 0x3
+	.string	"fmt"
+	.byte	0x12
+	.value	0x43b
+	.byte	0x7
+	.long	0x32c
+	.byte	0x38
+	.uleb128 0x2
+	.long	.LASF851
+	.byte	0x12
+	.value	0x43c
+	.byte	0x7
+	.long	0x32c
+	.byte	0x40
+	.uleb128 0x2
+	.long	.LASF852
+	.byte	0x12
+	.value	0x43d
+	.byte	0x7
+	.long	0xac4
+	.byte	0x48
+	.byte	0
+	.uleb128 0x5
+	.long	.LASF257
+	.byte	0x58
+	.byte	0x12
+	.value	0x443
+	.long	0x40d6
+	.uleb128 0x3
+	.string	"hdr"
+	.byte	0x12
+	.value	0x444
+	.byte	0x11
+	.long	0x31a9
+	.byte	0
+	.uleb128 0x2
+	.long	.LASF841
+	.byte	0x12
+	.value	0x445
+	.byte	0x7
+	.long	0xac4
+	.byte	0x30
+	.uleb128 0x3
+	.string	"env"
+	.byte	0x12
+	.value	0x446
+	.byte	0x7
+	.long	0xac4
+	.byte	0x38
+	.uleb128 0x3
+	.string	"fmt"
+	.byte	0x12
+	.value	0x447
+	.byte	0x7
+	.long	0x32c
+	.byte	0x40
+	.uleb128 0x2
+	.long	.LASF851
+	.byte	0x12
+	.value	0x448
+	.byte	0x7
+	.long	0x32c
+	.byte	0x48
+	.uleb128 0x2
+	.long	.LASF852
+	.byte	0x12
+	.value	0x449
+	.byte	0x7
+	.long	0xac4
+	.byte	0x50
+	.byte	0
+	.uleb128 0x5
+	.long	.LASF246
+	.byte	0x88
+	.byte	0x12
+	.value	0x44f
+	.long	0x410d
+	.uleb128 0x3
+	.string	"hdr"
+	.byte	0x12
+	.value	0x450
+	.byte	0x11
+	.long	0x31a9
+	.byte	0
+	.uleb128 0x3
+	.string	"op"
+	.byte	0x12
+	.value	0x451
+	.byte	0x7
+	.long	0xac4
+	.byte	0x30
+	.uleb128 0x2
+	.long	.LASF379
+	.byte	0x12
+	.value	0x452
+	.byte	0x7
+	.long	0x34b4
+	.byte	0x38
+	.byte	0
+	.uleb128 0x5
+	.long	.LASF263
+	.byte	0x40
+	.byte	0x12
+	.value	0x457
+	.long	0x4145
+	.uleb128 0x3
+	.string	"hdr"
+	.byte	0x12
+	.value	0x458
+	.byte	0x11
+	.long	0x31a9
+	.byte	0
+	.uleb128 0x2
+	.long	.LASF299
+	.byte	0x12
+	.value	0x459
+	.byte	0x7
+	.long	0xac4
+	.byte	0x30
+	.uleb128 0x2
+	.long	.LASF853
+	.byte	0x12
+	.value	0x45a
+	.byte	0x7
+	.long	0xac4
+	.byte	0x38
+	.byte	0
+	.uleb128 0x5
+	.long	.LASF258
+	.byte	0x40
+	.byte	0x12
+	.value	0x461
+	.long	0x417d
+	.uleb128 0x3
+	.string	"hdr"
+	.byte	0x12
+	.value	0x462
+	.byte	0x11
+	.long	0x31a9
+	.byte	0
+	.uleb128 0x2
+	.long	.LASF827
+	.byte	0x12
+	.value	0x463
+	.byte	0x7
+	.long	0x32c
+	.byte	0x30
+	.uleb128 0x2
+	.long	.LASF854
+	.byte	0x12
+	.value	0x464
+	.byte	0x7
+	.long	0xac4
+	.byte	0x38
+	.byte	0
+	.uleb128 0x5
+	.long	.LASF259
+	.byte	0x30
+	.byte	0x12
+	.value	0x469
+	.long	0x4199
+	.uleb128 0x3
+	.string	"hdr"
+	.byte	0x12
+	.value	0x46a
+	.byte	0x11
+	.long	0x31a9
+	.byte	0
+	.byte	0
+	.uleb128 0x5
+	.long	.LASF260
+	.byte	0x40
+	.byte	0x12
+	.value	0x46f
+	.long	0x41d1
+	.uleb128 0x3
+	.string	"hdr"
+	.byte	0x12
+	.value	0x470
+	.byte	0x11
+	.long	0x31a9
+	.byte	0
+	.uleb128 0x2
+	.long	.LASF827
+	.byte	0x12
+	.value	0x471
+	.byte	0x7
+	.long	0x32c
+	.byte	0x30
+	.uleb128 0x2
+	.long	.LASF389
+	.byte	0x12
+	.value	0x472
+	.byte	0x7
+	.long	0xac4
+	.byte	0x38
+	.byte	0
+	.uleb128 0x5
+	.long	.LASF262
+	.byte	0x80
+	.byte	0x12
+	.value	0x476
+	.long	0x41fb
+	.uleb128 0x3
+	.string	"hdr"
+	.byte	0x12
+	.value	0x477
+	.byte	0x11
+	.long	0x31a9
+	.byte	0
+	.uleb128 0x2
+	.long	.LASF379
+	.byte	0x12
+	.value	0x478
+	.byte	0x7
+	.long	0x34fc
+	.byte	0x30
+	.byte	0
+	.uleb128 0x5
+	.long	.LASF264
+	.byte	0x38
+	.byte	0x12
+	.value	0x47b
+	.long	0x4225
+	.uleb128 0x3
+	.string	"hdr"
+	.byte	0x12
+	.value	0x47c
+	.byte	0x11
+	.long	0x31a9
+	.byte	0
+	.uleb128 0x2
+	.long	.LASF855
+	.byte	0x12
+	.value	0x47d
+	.byte	0x7
+	.long	0xac4
+	.byte	0x30
+	.byte	0
+	.uleb128 0x5
+	.long	.LASF265
+	.byte	0x38
+	.byte	0x12
+	.value	0x482
+	.long	0x424f
+	.uleb128 0x3
+	.string	"hdr"
+	.byte	0x12
+	.value	0x483
+	.byte	0x11
+	.long	0x31a9
+	.byte	0
+	.uleb128 0x2
+	.long	.LASF855
+	.byte	0x12
+	.value	0x484
+	.byte	0x7
+	.long	0xac4
+	.byte	0x30
+	.byte	0
+	.uleb128 0x5
+	.long	.LASF266
+	.byte	0x38
+	.byte	0x12
+	.value	0x489
+	.long	0x4279
+	.uleb128 0x3
+	.string	"hdr"
+	.byte	0x12
+	.value	0x48a
+	.byte	0x11
+	.long	0x31a9
+	.byte	0
+	.uleb128 0x2
+	.long	.LASF383
+	.byte	0x12
+	.value	0x48b
+	.byte	0x7
+	.long	0x32c
+	.byte	0x30
+	.byte	0
+	.uleb128 0x5
+	.long	.LASF267
+	.byte	0x40
+	.byte	0x12
+	.value	0x490
+	.long	0x42b1
+	.uleb128 0x3
+	.string	"hdr"
+	.byte	0x12
+	.value	0x491
+	.byte	0x11
+	.long	0x31a9
+	.byte	0
+	.uleb128 0x3
+	.string	"tag"
+	.byte	0x12
+	.value	0x492
+	.byte	0x7
+	.long	0xac4
+	.byte	0x30
+	.uleb128 0x3
+	.string	"val"
+	.byte	0x12
+	.value	0x493
+	.byte	0x7
+	.long	0xac4
+	.byte	0x38
+	.byte	0
+	.uleb128 0x5
+	.long	.LASF268
+	.byte	0x40
+	.byte	0x12
+	.value	0x498
+	.long	0x42e9
+	.uleb128 0x3
+	.string	"hdr"
+	.byte	0x12
+	.value	0x499
+	.byte	0x11
+	.long	0x31a9
+	.byte	0
+	.uleb128 0x3
+	.string	"ref"
+	.byte	0x12
+	.value	0x49a
+	.byte	0x7
+	.long	0xac4
+	.byte	0x30
+	.uleb128 0x2
+	.long	.LASF385
+	.byte	0x12
+	.value	0x49b
+	.byte	0x7
+	.long	0xac4
+	.byte	0x38
+	.byte	0
+	.uleb128 0x5
+	.long	.LASF269
+	.byte	0x48
+	.byte	0x12
+	.value	0x4a0
+	.long	0x432f
+	.uleb128 0x3
+	.string	"hdr"
+	.byte	0x12
+	.value	0x4a1
+	.byte	0x11
+	.long	0x31a9
+	.byte	0
+	.uleb128 0x3
+	.string	"val"
+	.byte	0x12
+	.value	0x4a2
+	.byte	0x7
+	.long	0xac4
+	.byte	0x30
+	.uleb128 0x2
+	.long	.LASF385
+	.byte	0x12
+	.value	0x4a3
+	.byte	0x7
+	.long	0xac4
+	.byte	0x38
+	.uleb128 0x2
+	.long	.LASF856
+	.byte	0x12
+	.value	0x4a4
+	.byte	0x7
+	.long	0xac4
+	.byte	0x40
+	.byte	0
+	.uleb128 0x5
+	.long	.LASF270
+	.byte	0x38
+	.byte	0x12
+	.value	0x4a9
+	.long	0x4359
+	.uleb128 0x3
+	.string	"hdr"
+	.byte	0x12
+	.value	0x4aa
+	.byte	0x11
+	.long	0x31a9
+	.byte	0
+	.uleb128 0x2
+	.long	.LASF389
+	.byte	0x12
+	.value	0x4ab
+	.byte	0x7
+	.long	0xac4
+	.byte	0x30
+	.byte	0
+	.uleb128 0xe
+	.long	.LASF857
+	.byte	0x18
+	.byte	0x13
+	.byte	0x33
+	.byte	0x8
+	.long	0x438e
+	.uleb128 0x7
+	.long	.LASF271
+	.byte	0x13
+	.byte	0x34
+	.byte	0x8
+	.long	0x305
+	.byte	0
+	.uleb128 0x7
+	.long	.LASF278
+	.byte	0x13
+	.byte	0x35
+	.byte	0x9
+	.long	0x36d
+	.byte	0x8
+	.uleb128 0x7
+	.long	.LASF858
+	.byte	0x13
+	.byte	0x36
+	.byte	0x9
+	.long	0x36d
+	.byte	0x10
+	.byte	0
+	.uleb128 0x25
+	.long	.LASF859
+	.value	0x228
+	.byte	0x13
+	.byte	0x53
+	.byte	0x8
+	.long	0x43ec
+	.uleb128 0x7
+	.long	.LASF860
+	.byte	0x13
+	.byte	0x54
+	.byte	0x9
+	.long	0x312
+	.byte	0
+	.uleb128 0x7
+	.long	.LASF861
+	.byte	0x13
+	.byte	0x55
+	.byte	0x8
+	.long	0x31f
+	.byte	0x8
+	.uleb128 0x7
+	.long	.LASF862
+	.byte	0x13
+	.byte	0x56
+	.byte	0x8
+	.long	0x31f
+	.byte	0x10
+	.uleb128 0x7
+	.long	.LASF863
+	.byte	0x13
+	.byte	0x57
+	.byte	0x9
+	.long	0x312
+	.byte	0x18
+	.uleb128 0x7
+	.long	.LASF864
+	.byte	0x13
+	.byte	0x59
+	.byte	0x11
+	.long	0x43ec
+	.byte	0x20
+	.uleb128 0x39
+	.long	.LASF865
+	.byte	0x13
+	.byte	0x5a
+	.byte	0x9
+	.long	0x43fc
+	.value	0x200
+	.byte	0
+	.uleb128 0x11
+	.long	0x4359
+	.long	0x43fc
+	.uleb128 0x12
+	.long	0x4a
+	.byte	0x13
+	.byte	0
+	.uleb128 0x11
+	.long	0x312
+	.long	0x440c
+	.uleb128 0x12
+	.long	0x4a
+	.byte	0x13
+	.byte	0
+	.uleb128 0x8
+	.long	0x31f
+	.uleb128 0x8
+	.long	0x312
+	.uleb128 0x1c
+	.long	.LASF870
+	.byte	0x15
+	.byte	0x15
+	.byte	0x6
+	.long	0x4432
+	.uleb128 0x6
+	.long	0x80
+	.uleb128 0x6
+	.long	0x80
+	.uleb128 0x6
+	.long	0x2e
+	.byte	0
+	.uleb128 0x17
+	.long	.LASF866
+	.value	0x5da
+	.byte	0xd
+	.long	0xac4
+	.long	0x444d
+	.uleb128 0x6
+	.long	0x29fc
+	.uleb128 0x6
+	.long	0x360
+	.byte	0
+	.uleb128 0x29
+	.long	.LASF867
+	.byte	0x14
+	.byte	0xf
+	.byte	0x10
+	.long	0x1109
+	.long	0x4472
+	.uleb128 0x6
+	.long	0x10d0
+	.uleb128 0x6
+	.long	0xac4
+	.uleb128 0x6
+	.long	0x9eb
+	.uleb128 0x6
+	.long	0x346
+	.byte	0
+	.uleb128 0x3a
+	.long	.LASF895
+	.byte	0x12
+	.value	0x28b
+	.byte	0xd
+	.long	0xac4
+	.uleb128 0x17
+	.long	.LASF868
+	.value	0x413
+	.byte	0xd
+	.long	0xac4
+	.long	0x4496
+	.uleb128 0x6
+	.long	0x32c
+	.uleb128 0x13
+	.byte	0
+	.uleb128 0x3b
+	.long	.LASF896
+	.byte	0x1a
+	.byte	0x5b
+	.byte	0xd
+	.long	0x44a4
+	.uleb128 0x13
+	.byte	0
+	.uleb128 0x17
+	.long	.LASF869
+	.value	0x5f8
+	.byte	0xc
+	.long	0x2e
+	.long	0x44ba
+	.uleb128 0x6
+	.long	0xac4
+	.byte	0
+	.uleb128 0x1c
+	.long	.LASF871
+	.byte	0x16
+	.byte	0xf
+	.byte	0xd
+	.long	0x44cc
+	.uleb128 0x6
+	.long	0xac4
+	.byte	0
+	.uleb128 0x17
+	.long	.LASF872
+	.value	0x2ca
+	.byte	0xd
+	.long	0xac4
+	.long	0x44e3
+	.uleb128 0x6
+	.long	0x32c
+	.uleb128 0x13
+	.byte	0
+	.uleb128 0x29
+	.long	.LASF873
+	.byte	0x17
+	.byte	0x1c
+	.byte	0xf
+	.long	0x387
+	.long	0x44f9
+	.uleb128 0x6
+	.long	0x394
+	.byte	0
+	.uleb128 0x17
+	.long	.LASF874
+	.value	0x3df
+	.byte	0xd
+	.long	0xac4
+	.long	0x4510
+	.uleb128 0x6
+	.long	0xac4
+	.uleb128 0x13
+	.byte	0
+	.uleb128 0x17
+	.long	.LASF875
+	.value	0x405
+	.byte	0xd
+	.long	0xac4
+	.long	0x4531
+	.uleb128 0x6
+	.long	0x32c
+	.uleb128 0x6
+	.long	0x32c
+	.uleb128 0x6
+	.long	0xac4
+	.uleb128 0x13
+	.byte	0
+	.uleb128 0x17
+	.long	.LASF876
+	.value	0x5db
+	.byte	0xd
+	.long	0xac4
+	.long	0x454d
+	.uleb128 0x6
+	.long	0x29fc
+	.uleb128 0x6
+	.long	0x360
+	.uleb128 0x13
+	.byte	0
+	.uleb128 0x2a
+	.long	.LASF878
+	.byte	0x2a
+	.uleb128 0x1c
+	.long	.LASF877
+	.byte	0x18
+	.byte	0x15
+	.byte	0x6
+	.long	0x456a
+	.uleb128 0x6
+	.long	0x80
+	.uleb128 0x6
+	.long	0x456a
+	.byte	0
+	.uleb128 0x8
+	.long	0x456f
+	.uleb128 0x3c
+	.uleb128 0x2a
+	.long	.LASF879
+	.byte	0x29
+	.uleb128 0x1d
+	.long	.LASF882
+	.byte	0x95
+	.long	0x2e
+	.quad	.LFB5
+	.quad	.LFE5-.LFB5
+	.uleb128 0x1
+	.byte	0x9c
+	.long	0x4600
+	.uleb128 0x3d
+	.string	"seq"
+	.byte	0x1
+	.byte	0x95
+	.byte	0x14
+	.long	0xac4
+	.uleb128 0x2
+	.byte	0x91
+	.sleb128 -56
+	.uleb128 0xf
+	.long	.LASF880
+	.byte	0x97
+	.byte	0x6
+	.long	0x2e
+	.uleb128 0x2
+	.byte	0x91
+	.sleb128 -20
+	.uleb128 0x1e
+	.string	"i"
+	.byte	0x98
+	.byte	0x6
+	.long	0x2e
+	.uleb128 0x2
+	.byte	0x91
+	.sleb128 -24
+	.uleb128 0x2b
+	.quad	.LBB2
+	.quad	.LBE2-.LBB2
+	.uleb128 0xf
+	.long	.LASF881
+	.byte	0x9c
+	.byte	0x8
+	.long	0xac4
+	.uleb128 0x2
+	.byte	0x91
+	.sleb128 -32
+	.uleb128 0x2b
+	.quad	.LBB3
+	.quad	.LBE3-.LBB3
+	.uleb128 0x1e
+	.string	"lno"
+	.byte	0x9e
+	.byte	0x9
+	.long	0x32c
+	.uleb128 0x2
+	.byte	0x91
+	.sleb128 -40
+	.byte	0
+	.byte	0
+	.byte	0
+	.uleb128 0x1d
+	.long	.LASF883
+	.byte	0x7b
+	.long	0xac4
+	.quad	.LFB4
+	.quad	.LFE4-.LFB4
+	.uleb128 0x1
+	.byte	0x9c
+	.long	0x466b
+	.uleb128 0x1f
+	.long	.LASF182
+	.byte	0x7b
+	.byte	0x21
+	.long	0x29fc
+	.uleb128 0x3
+	.byte	0x91
+	.sleb128 -244
+	.uleb128 0x13
+	.uleb128 0xf
+	.long	.LASF884
+	.byte	0x7d
+	.byte	0xa
+	.long	0xf9
+	.uleb128 0x3
+	.byte	0x91
+	.sleb128 -240
+	.uleb128 0xf
+	.long	.LASF192
+	.byte	0x7e
+	.byte	0x7
+	.long	0xac4
+	.uleb128 0x3
+	.byte	0x91
+	.sleb128 -216
+	.uleb128 0x1e
+	.string	"i"
+	.byte	0x7f
+	.byte	0x6
+	.long	0x2e
+	.uleb128 0x3
+	.byte	0x91
+	.sleb128 -196
+	.uleb128 0xf
+	.long	.LASF885
+	.byte	0x80
+	.byte	0xb
+	.long	0x1236
+	.uleb128 0x3
+	.byte	0x91
+	.sleb128 -208
+	.byte	0
+	.uleb128 0x1d
+	.long	.LASF886
+	.byte	0x6a
+	.long	0xac4
+	.quad	.LFB3
+	.quad	.LFE3-.LFB3
+	.uleb128 0x1
+	.byte	0x9c
+	.long	0x46c4
+	.uleb128 0x1f
+	.long	.LASF838
+	.byte	0x6a
+	.byte	0x17
+	.long	0xac4
+	.uleb128 0x2
+	.byte	0x91
+	.sleb128 -40
+	.uleb128 0x1f
+	.long	.LASF386
+	.byte	0x6a
+	.byte	0x24
+	.long	0xac4
+	.uleb128 0x2
+	.byte	0x91
+	.sleb128 -48
+	.uleb128 0xf
+	.long	.LASF841
+	.byte	0x6c
+	.byte	0x7
+	.long	0xac4
+	.uleb128 0x2
+	.byte	0x91
+	.sleb128 -24
+	.uleb128 0xf
+	.long	.LASF831
+	.byte	0x6d
+	.byte	0x6
+	.long	0x2e
+	.uleb128 0x2
+	.byte	0x91
+	.sleb128 -28
+	.byte	0
+	.uleb128 0x2c
+	.long	.LASF887
+	.byte	0x39
+	.quad	.LFB2
+	.quad	.LFE2-.LFB2
+	.uleb128 0x1
+	.byte	0x9c
+	.long	0x470e
+	.uleb128 0xf
+	.long	.LASF386
+	.byte	0x3b
+	.byte	0x7
+	.long	0xac4
+	.uleb128 0x3
+	.byte	0x91
+	.sleb128 -72
+	.uleb128 0xf
+	.long	.LASF838
+	.byte	0x3b
+	.byte	0xd
+	.long	0xac4
+	.uleb128 0x3
+	.byte	0x91
+	.sleb128 -80
+	.uleb128 0xf
+	.long	.LASF841
+	.byte	0x3b
+	.byte	0x15
+	.long	0xac4
+	.uleb128 0x3
+	.byte	0x91
+	.sleb128 -88
+	.byte	0
+	.uleb128 0x2c
+	.long	.LASF888
+	.byte	0x20
+	.quad	.LFB1
+	.quad	.LFE1-.LFB1
+	.uleb128 0x1
+	.byte	0x9c
+	.long	0x4758
+	.uleb128 0xf
+	.long	.LASF386
+	.byte	0x22
+	.byte	0x7
+	.long	0xac4
+	.uleb128 0x3
+	.byte	0x91
+	.sleb128 -72
+	.uleb128 0xf
+	.long	.LASF838
+	.byte	0x22
+	.byte	0xd
+	.long	0xac4
+	.uleb128 0x3
+	.byte	0x91
+	.sleb128 -80
+	.uleb128 0xf
+	.long	.LASF841
+	.byte	0x22
+	.byte	0x15
+	.long	0xac4
+	.uleb128 0x3
+	.byte	0x91
+	.sleb128 -88
+	.byte	0
+	.uleb128 0x3e
+	.long	.LASF897
+	.byte	0x1
+	.byte	0x13
+	.byte	0x1
+	.quad	.LFB0
+	.quad	.LFE0-.LFB0
+	.uleb128 0x1
+	.byte	0x9c
+	.byte	0
+	.section	.debug_abbrev,"",@progbits
+.Ldebug_abbrev0:
+	.uleb128 0x1
+	.uleb128 0x28
+	.byte	0
+	.uleb128 0x3
+	.uleb128 0xe
+	.uleb128 0x1c
+	.uleb128 0xb
+	.byte	0
+	.byte	0
+	.uleb128 0x2
+	.uleb128 0xd
+	.byte	0
+	.uleb128 0x3
+	.uleb128 0xe
+	.uleb128 0x3a
+	.uleb128 0xb
+	.uleb128 0x3b
+	.uleb128 0x5
+	.uleb128 0x39
+	.uleb128 0xb
+	.uleb128 0x49
+	.uleb128 0x13
+	.uleb128 0x38
+	.uleb128 0xb
+	.byte	0
+	.byte	0
+	.uleb128 0x3
+	.uleb128 0xd
+	.byte	0
+	.uleb128 0x3
+	.uleb128 0x8
+	.uleb128 0x3a
+	.uleb128 0xb
+	.uleb128 0x3b
+	.uleb128 0x5
+	.uleb128 0x39
+	.uleb128 0xb
+	.uleb128 0x49
+	.uleb128 0x13
+	.uleb128 0x38
+	.uleb128 0xb
+	.byte	0
+	.byte	0
+	.uleb128 0x4
+	.uleb128 0xd
+	.byte	0
+	.uleb128 0x3
+	.uleb128 0xe
+	.uleb128 0x3a
+	.uleb128 0xb
+	.uleb128 0x3b
+	.uleb128 0x5
+	.uleb128 0x39
+	.uleb128 0xb
+	.uleb128 0x49
+	.uleb128 0x13
+	.byte	0
+	.byte	0
+	.uleb128 0x5
+	.uleb128 0x13
+	.byte	0x1
+	.uleb128 0x3
+	.uleb128 0xe
+	.uleb128 0xb
+	.uleb128 0xb
+	.uleb128 0x3a
+	.uleb128 0xb
+	.uleb128 0x3b
+	.uleb128 0x5
+	.uleb128 0x39
+	.uleb128 0x21
+	.sleb128 8
+	.uleb128 0x1
+	.uleb128 0x13
+	.byte	0
+	.byte	0
+	.uleb128 0x6
+	.uleb128 0x5
+	.byte	0
+	.uleb128 0x49
+	.uleb128 0x13
+	.byte	0
+	.byte	0
+	.uleb128 0x7
+	.uleb128 0xd
+	.byte	0
+	.uleb128 0x3
+	.uleb128 0xe
+	.uleb128 0x3a
+	.uleb128 0xb
+	.uleb128 0x3b
+	.uleb128 0xb
+	.uleb128 0x39
+	.uleb128 0xb
+	.uleb128 0x49
+	.uleb128 0x13
+	.uleb128 0x38
+	.uleb128 0xb
+	.byte	0
+	.byte	0
+	.uleb128 0x8
+	.uleb128 0xf
+	.byte	0
+	.uleb128 0xb
+	.uleb128 0x21
+	.sleb128 8
+	.uleb128 0x49
+	.uleb128 0x13
+	.byte	0
+	.byte	0
+	.uleb128 0x9
+	.uleb128 0x16
+	.byte	0
+	.uleb128 0x3
+	.uleb128 0xe
+	.uleb128 0x3a
+	.uleb128 0xb
+	.uleb128 0x3b
+	.uleb128 0xb
+	.uleb128 0x39
+	.uleb128 0xb
+	.uleb128 0x49
+	.uleb128 0x13
+	.byte	0
+	.byte	0
+	.uleb128 0xa
+	.uleb128 0x15
+	.byte	0x1
+	.uleb128 0x27
+	.uleb128 0x19
+	.uleb128 0x49
+	.uleb128 0x13
+	.uleb128 0x1
+	.uleb128 0x13
+	.byte	0
+	.byte	0
+	.uleb128 0xb
+	.uleb128 0xd
+	.byte	0
+	.uleb128 0x3
+	.uleb128 0xe
+	.uleb128 0x3a
+	.uleb128 0x21
+	.sleb128 14
+	.uleb128 0x3b
+	.uleb128 0x21
+	.sleb128 90
+	.uleb128 0x39
+	.uleb128 0x5
+	.uleb128 0x49
+	.uleb128 0x13
+	.uleb128 0x38
+	.uleb128 0xb
+	.byte	0
+	.byte	0
+	.uleb128 0xc
+	.uleb128 0x16
+	.byte	0
+	.uleb128 0x3
+	.uleb128 0xe
+	.uleb128 0x3a
+	.uleb128 0xb
+	.uleb128 0x3b
+	.uleb128 0x5
+	.uleb128 0x39
+	.uleb128 0xb
+	.uleb128 0x49
+	.uleb128 0x13
+	.byte	0
+	.byte	0
+	.uleb128 0xd
+	.uleb128 0x13
+	.byte	0
+	.uleb128 0x3
+	.uleb128 0xe
+	.uleb128 0x3c
+	.uleb128 0x19
+	.byte	0
+	.byte	0
+	.uleb128 0xe
+	.uleb128 0x13
+	.byte	0x1
+	.uleb128 0x3
+	.uleb128 0xe
+	.uleb128 0xb
+	.uleb128 0xb
+	.uleb128 0x3a
+	.uleb128 0xb
+	.uleb128 0x3b
+	.uleb128 0xb
+	.uleb128 0x39
+	.uleb128 0xb
+	.uleb128 0x1
+	.uleb128 0x13
+	.byte	0
+	.byte	0
+	.uleb128 0xf
+	.uleb128 0x34
+	.byte	0
+	.uleb128 0x3
+	.uleb128 0xe
+	.uleb128 0x3a
+	.uleb128 0x21
+	.sleb128 1
+	.uleb128 0x3b
+	.uleb128 0xb
+	.uleb128 0x39
+	.uleb128 0xb
+	.uleb128 0x49
+	.uleb128 0x13
+	.uleb128 0x2
+	.uleb128 0x18
+	.byte	0
+	.byte	0
+	.uleb128 0x10
+	.uleb128 0x24
+	.byte	0
+	.uleb128 0xb
+	.uleb128 0xb
+	.uleb128 0x3e
+	.uleb128 0xb
+	.uleb128 0x3
+	.uleb128 0xe
+	.byte	0
+	.byte	0
+	.uleb128 0x11
+	.uleb128 0x1
+	.byte	0x1
+	.uleb128 0x49
+	.uleb128 0x13
+	.uleb128 0x1
+	.uleb128 0x13
+	.byte	0
+	.byte	0
+	.uleb128 0x12
+	.uleb128 0x21
+	.byte	0
+	.uleb128 0x49
+	.uleb128 0x13
+	.uleb128 0x2f
+	.uleb128 0xb
+	.byte	0
+	.byte	0
+	.uleb128 0x13
+	.uleb128 0x18
+	.byte	0
+	.byte	0
+	.byte	0
+	.uleb128 0x14
+	.uleb128 0xd
+	.byte	0
+	.uleb128 0x3
+	.uleb128 0xe
+	.uleb128 0x3a
+	.uleb128 0x21
+	.sleb128 14
+	.uleb128 0x3b
+	.uleb128 0x21
+	.sleb128 90
+	.uleb128 0x39
+	.uleb128 0x5
+	.uleb128 0x49
+	.uleb128 0x13
+	.uleb128 0x38
+	.uleb128 0x5
+	.byte	0
+	.byte	0
+	.uleb128 0x15
+	.uleb128 0x28
+	.byte	0
+	.uleb128 0x3
+	.uleb128 0xe
+	.uleb128 0x1c
+	.uleb128 0x5
+	.byte	0
+	.byte	0
+	.uleb128 0x16
+	.uleb128 0xd
+	.byte	0
+	.uleb128 0x3
+	.uleb128 0x8
+	.uleb128 0x3a
+	.uleb128 0xb
+	.uleb128 0x3b
+	.uleb128 0x5
+	.uleb128 0x39
+	.uleb128 0xb
+	.uleb128 0x49
+	.uleb128 0x13
+	.byte	0
+	.byte	0
+	.uleb128 0x17
+	.uleb128 0x2e
+	.byte	0x1
+	.uleb128 0x3f
+	.uleb128 0x19
+	.uleb128 0x3
+	.uleb128 0xe
+	.uleb128 0x3a
+	.uleb128 0x21
+	.sleb128 18
+	.uleb128 0x3b
+	.uleb128 0x5
+	.uleb128 0x39
+	.uleb128 0xb
+	.uleb128 0x27
+	.uleb128 0x19
+	.uleb128 0x49
+	.uleb128 0x13
+	.uleb128 0x3c
+	.uleb128 0x19
+	.uleb128 0x1
+	.uleb128 0x13
+	.byte	0
+	.byte	0
+	.uleb128 0x18
+	.uleb128 0xd
+	.byte	0
+	.uleb128 0x3
+	.uleb128 0x8
+	.uleb128 0x3a
+	.uleb128 0xb
+	.uleb128 0x3b
+	.uleb128 0xb
+	.uleb128 0x39
+	.uleb128 0xb
+	.uleb128 0x49
+	.uleb128 0x13
+	.uleb128 0x38
+	.uleb128 0xb
+	.byte	0
+	.byte	0
+	.uleb128 0x19
+	.uleb128 0x15
+	.byte	0x1
+	.uleb128 0x27
+	.uleb128 0x19
+	.uleb128 0x1
+	.uleb128 0x13
+	.byte	0
+	.byte	0
+	.uleb128 0x1a
+	.uleb128 0xd
+	.byte	0
+	.uleb128 0x3
+	.uleb128 0xe
+	.uleb128 0x3a
+	.uleb128 0x21
+	.sleb128 4
+	.uleb128 0x3b
+	.uleb128 0x21
+	.sleb128 0
+	.uleb128 0x49
+	.uleb128 0x13
+	.uleb128 0x38
+	.uleb128 0xb
+	.byte	0
+	.byte	0
+	.uleb128 0x1b
+	.uleb128 0x17
+	.byte	0x1
+	.uleb128 0xb
+	.uleb128 0xb
+	.uleb128 0x3a
+	.uleb128 0xb
+	.uleb128 0x3b
+	.uleb128 0x5
+	.uleb128 0x39
+	.uleb128 0x21
+	.sleb128 2
+	.uleb128 0x1
+	.uleb128 0x13
+	.byte	0
+	.byte	0
+	.uleb128 0x1c
+	.uleb128 0x2e
+	.byte	0x1
+	.uleb128 0x3f
+	.uleb128 0x19
+	.uleb128 0x3
+	.uleb128 0xe
+	.uleb128 0x3a
+	.uleb128 0xb
+	.uleb128 0x3b
+	.uleb128 0xb
+	.uleb128 0x39
+	.uleb128 0xb
+	.uleb128 0x27
+	.uleb128 0x19
+	.uleb128 0x3c
+	.uleb128 0x19
+	.uleb128 0x1
+	.uleb128 0x13
+	.byte	0
+	.byte	0
+	.uleb128 0x1d
+	.uleb128 0x2e
+	.byte	0x1
+	.uleb128 0x3
+	.uleb128 0xe
+	.uleb128 0x3a
+	.uleb128 0x21
+	.sleb128 1
+	.uleb128 0x3b
+	.uleb128 0xb
+	.uleb128 0x39
+	.uleb128 0x21
+	.sleb128 1
+	.uleb128 0x27
+	.uleb128 0x19
+	.uleb128 0x49
+	.uleb128 0x13
+	.uleb128 0x11
+	.uleb128 0x1
+	.uleb128 0x12
+	.uleb128 0x7
+	.uleb128 0x40
+	.uleb128 0x18
+	.uleb128 0x7c
+	.uleb128 0x19
+	.uleb128 0x1
+	.uleb128 0x13
+	.byte	0
+	.byte	0
+	.uleb128 0x1e
+	.uleb128 0x34
+	.byte	0
+	.uleb128 0x3
+	.uleb128 0x8
+	.uleb128 0x3a
+	.uleb128 0x21
+	.sleb128 1
+	.uleb128 0x3b
+	.uleb128 0xb
+	.uleb128 0x39
+	.uleb128 0xb
+	.uleb128 0x49
+	.uleb128 0x13
+	.uleb128 0x2
+	.uleb128 0x18
+	.byte	0
+	.byte	0
+	.uleb128 0x1f
+	.uleb128 0x5
+	.byte	0
+	.uleb128 0x3
+	.uleb128 0xe
+	.uleb128 0x3a
+	.uleb128 0x21
+	.sleb128 1
+	.uleb128 0x3b
+	.uleb128 0xb
+	.uleb128 0x39
+	.uleb128 0xb
+	.uleb128 0x49
+	.uleb128 0x13
+	.uleb128 0x2
+	.uleb128 0x18
+	.byte	0
+	.byte	0
+	.uleb128 0x20
+	.uleb128 0x26
+	.byte	0
+	.uleb128 0x49
+	.uleb128 0x13
+	.byte	0
+	.byte	0
+	.uleb128 0x21
+	.uleb128 0xd
+	.byte	0
+	.uleb128 0x3
+	.uleb128 0x8
+	.uleb128 0x3a
+	.uleb128 0x21
+	.sleb128 10
+	.uleb128 0x3b
+	.uleb128 0xb
+	.uleb128 0x39
+	.uleb128 0xb
+	.uleb128 0x49
+	.uleb128 0x13
+	.byte	0
+	.byte	0
+	.uleb128 0x22
+	.uleb128 0xd
+	.byte	0
+	.uleb128 0x3
+	.uleb128 0xe
+	.uleb128 0x3a
+	.uleb128 0x21
+	.sleb128 13
+	.uleb128 0x3b
+	.uleb128 0xb
+	.uleb128 0x39
+	.uleb128 0xb
+	.uleb128 0x49
+	.uleb128 0x13
+	.byte	0
+	.byte	0
+	.uleb128 0x23
+	.uleb128 0x16
+	.byte	0
+	.uleb128 0x3
+	.uleb128 0x8
+	.uleb128 0x3a
+	.uleb128 0x21
+	.sleb128 14
+	.uleb128 0x3b
+	.uleb128 0xb
+	.uleb128 0x39
+	.uleb128 0x21
+	.sleb128 22
+	.uleb128 0x49
+	.uleb128 0x13
+	.byte	0
+	.byte	0
+	.uleb128 0x24
+	.uleb128 0x17
+	.byte	0x1
+	.uleb128 0x3
+	.uleb128 0xe
+	.uleb128 0xb
+	.uleb128 0xb
+	.uleb128 0x3a
+	.uleb128 0xb
+	.uleb128 0x3b
+	.uleb128 0x5
+	.uleb128 0x39
+	.uleb128 0x21
+	.sleb128 7
+	.uleb128 0x1
+	.uleb128 0x13
+	.byte	0
+	.byte	0
+	.uleb128 0x25
+	.uleb128 0x13
+	.byte	0x1
+	.uleb128 0x3
+	.uleb128 0xe
+	.uleb128 0xb
+	.uleb128 0x5
+	.uleb128 0x3a
+	.uleb128 0xb
+	.uleb128 0x3b
+	.uleb128 0xb
+	.uleb128 0x39
+	.uleb128 0xb
+	.uleb128 0x1
+	.uleb128 0x13
+	.byte	0
+	.byte	0
+	.uleb128 0x26
+	.uleb128 0xd
+	.byte	0
+	.uleb128 0x3
+	.uleb128 0x8
+	.uleb128 0x3a
+	.uleb128 0x21
+	.sleb128 14
+	.uleb128 0x3b
+	.uleb128 0xb
+	.uleb128 0x39
+	.uleb128 0x5
+	.uleb128 0x49
+	.uleb128 0x13
+	.uleb128 0x38
+	.uleb128 0xb
+	.byte	0
+	.byte	0
+	.uleb128 0x27
+	.uleb128 0x4
+	.byte	0x1
+	.uleb128 0x3
+	.uleb128 0xe
+	.uleb128 0x3e
+	.uleb128 0x21
+	.sleb128 7
+	.uleb128 0xb
+	.uleb128 0x21
+	.sleb128 4
+	.uleb128 0x49
+	.uleb128 0x13
+	.uleb128 0x3a
+	.uleb128 0x21
+	.sleb128 18
+	.uleb128 0x3b
+	.uleb128 0xb
+	.uleb128 0x39
+	.uleb128 0x21
+	.sleb128 6
+	.uleb128 0x1
+	.uleb128 0x13
+	.byte	0
+	.byte	0
+	.uleb128 0x28
+	.uleb128 0x4
+	.byte	0x1
+	.uleb128 0x3
+	.uleb128 0xe
+	.uleb128 0x3e
+	.uleb128 0x21
+	.sleb128 7
+	.uleb128 0xb
+	.uleb128 0x21
+	.sleb128 4
+	.uleb128 0x49
+	.uleb128 0x13
+	.uleb128 0x3a
+	.uleb128 0x21
+	.sleb128 18
+	.uleb128 0x3b
+	.uleb128 0x5
+	.uleb128 0x39
+	.uleb128 0x21
+	.sleb128 6
+	.uleb128 0x1
+	.uleb128 0x13
+	.byte	0
+	.byte	0
+	.uleb128 0x29
+	.uleb128 0x2e
+	.byte	0x1
+	.uleb128 0x3f
+	.uleb128 0x19
+	.uleb128 0x3
+	.uleb128 0xe
+	.uleb128 0x3a
+	.uleb128 0xb
+	.uleb128 0x3b
+	.uleb128 0xb
+	.uleb128 0x39
+	.uleb128 0xb
+	.uleb128 0x27
+	.uleb128 0x19
+	.uleb128 0x49
+	.uleb128 0x13
+	.uleb128 0x3c
+	.uleb128 0x19
+	.uleb128 0x1
+	.uleb128 0x13
+	.byte	0
+	.byte	0
+	.uleb128 0x2a
+	.uleb128 0x2e
+	.byte	0
+	.uleb128 0x3f
+	.uleb128 0x19
+	.uleb128 0x3
+	.uleb128 0xe
+	.uleb128 0x3a
+	.uleb128 0x21
+	.sleb128 25
+	.uleb128 0x3b
+	.uleb128 0xb
+	.uleb128 0x39
+	.uleb128 0x21
+	.sleb128 13
+	.uleb128 0x27
+	.uleb128 0x19
+	.uleb128 0x3c
+	.uleb128 0x19
+	.byte	0
+	.byte	0
+	.uleb128 0x2b
+	.uleb128 0xb
+	.byte	0x1
+	.uleb128 0x11
+	.uleb128 0x1
+	.uleb128 0x12
+	.uleb128 0x7
+	.byte	0
+	.byte	0
+	.uleb128 0x2c
+	.uleb128 0x2e
+	.byte	0x1
+	.uleb128 0x3
+	.uleb128 0xe
+	.uleb128 0x3a
+	.uleb128 0x21
+	.sleb128 1
+	.uleb128 0x3b
+	.uleb128 0xb
+	.uleb128 0x39
+	.uleb128 0x21
+	.sleb128 1
+	.uleb128 0x11
+	.uleb128 0x1
+	.uleb128 0x12
+	.uleb128 0x7
+	.uleb128 0x40
+	.uleb128 0x18
+	.uleb128 0x7c
+	.uleb128 0x19
+	.uleb128 0x1
+	.uleb128 0x13
+	.byte	0
+	.byte	0
+	.uleb128 0x2d
+	.uleb128 0x11
+	.byte	0x1
+	.uleb128 0x25
+	.uleb128 0xe
+	.uleb128 0x13
+	.uleb128 0xb
+	.uleb128 0x3
+	.uleb128 0x1f
+	.uleb128 0x1b
+	.uleb128 0x1f
+	.uleb128 0x11
+	.uleb128 0x1
+	.uleb128 0x12
+	.uleb128 0x7
+	.uleb128 0x10
+	.uleb128 0x17
+	.byte	0
+	.byte	0
+	.uleb128 0x2e
+	.uleb128 0x24
+	.byte	0
+	.uleb128 0xb
+	.uleb128 0xb
+	.uleb128 0x3e
+	.uleb128 0xb
+	.uleb128 0x3
+	.uleb128 0x8
+	.byte	0
+	.byte	0
+	.uleb128 0x2f
+	.uleb128 0xf
+	.byte	0
+	.uleb128 0xb
+	.uleb128 0xb
+	.byte	0
+	.byte	0
+	.uleb128 0x30
+	.uleb128 0x16
+	.byte	0
+	.uleb128 0x3
+	.uleb128 0xe
+	.uleb128 0x49
+	.uleb128 0x13
+	.byte	0
+	.byte	0
+	.uleb128 0x31
+	.uleb128 0x13
+	.byte	0x1
+	.uleb128 0x3
+	.uleb128 0xe
+	.uleb128 0xb
+	.uleb128 0xb
+	.uleb128 0x3a
+	.uleb128 0xb
+	.uleb128 0x3b
+	.uleb128 0xb
+	.uleb128 0x1
+	.uleb128 0x13
+	.byte	0
+	.byte	0
+	.uleb128 0x32
+	.uleb128 0x16
+	.byte	0
+	.uleb128 0x3
+	.uleb128 0xe
+	.uleb128 0x3a
+	.uleb128 0xb
+	.uleb128 0x3b
+	.uleb128 0xb
+	.uleb128 0x39
+	.uleb128 0xb
+	.byte	0
+	.byte	0
+	.uleb128 0x33
+	.uleb128 0x17
+	.byte	0x1
+	.uleb128 0xb
+	.uleb128 0xb
+	.uleb128 0x3a
+	.uleb128 0xb
+	.uleb128 0x3b
+	.uleb128 0xb
+	.uleb128 0x39
+	.uleb128 0xb
+	.uleb128 0x1
+	.uleb128 0x13
+	.byte	0
+	.byte	0
+	.uleb128 0x34
+	.uleb128 0x17
+	.byte	0x1
+	.uleb128 0x3
+	.uleb128 0xe
+	.uleb128 0xb
+	.uleb128 0xb
+	.uleb128 0x3a
+	.uleb128 0xb
+	.uleb128 0x3b
+	.uleb128 0xb
+	.uleb128 0x39
+	.uleb128 0xb
+	.uleb128 0x1
+	.uleb128 0x13
+	.byte	0
+	.byte	0
+	.uleb128 0x35
+	.uleb128 0x13
+	.byte	0
+	.uleb128 0x3
+	.uleb128 0x8
+	.uleb128 0x3c
+	.uleb128 0x19
+	.byte	0
+	.byte	0
+	.uleb128 0x36
+	.uleb128 0x13
+	.byte	0x1
+	.uleb128 0x3
+	.uleb128 0x8
+	.uleb128 0xb
+	.uleb128 0x5
+	.uleb128 0x3a
+	.uleb128 0xb
+	.uleb128 0x3b
+	.uleb128 0xb
+	.uleb128 0x39
+	.uleb128 0xb
+	.uleb128 0x1
+	.uleb128 0x13
+	.byte	0
+	.byte	0
+	.uleb128 0x37
+	.uleb128 0x17
+	.byte	0
+	.uleb128 0x3
+	.uleb128 0xe
+	.uleb128 0x3c
+	.uleb128 0x19
+	.byte	0
+	.byte	0
+	.uleb128 0x38
+	.uleb128 0x34
+	.byte	0
+	.uleb128 0x3
+	.uleb128 0xe
+	.uleb128 0x3a
+	.uleb128 0xb
+	.uleb128 0x3b
+	.uleb128 0xb
+	.uleb128 0x39
+	.uleb128 0x5
+	.uleb128 0x49
+	.uleb128 0x13
+	.uleb128 0x3f
+	.uleb128 0x19
+	.uleb128 0x3c
+	.uleb128 0x19
+	.byte	0
+	.byte	0
+	.uleb128 0x39
+	.uleb128 0xd
+	.byte	0
+	.uleb128 0x3
+	.uleb128 0xe
+	.uleb128 0x3a
+	.uleb128 0xb
+	.uleb128 0x3b
+	.uleb128 0xb
+	.uleb128 0x39
+	.uleb128 0xb
+	.uleb128 0x49
+	.uleb128 0x13
+	.uleb128 0x38
+	.uleb128 0x5
+	.byte	0
+	.byte	0
+	.uleb128 0x3a
+	.uleb128 0x2e
+	.byte	0
+	.uleb128 0x3f
+	.uleb128 0x19
+	.uleb128 0x3
+	.uleb128 0xe
+	.uleb128 0x3a
+	.uleb128 0xb
+	.uleb128 0x3b
+	.uleb128 0x5
+	.uleb128 0x39
+	.uleb128 0xb
+	.uleb128 0x27
+	.uleb128 0x19
+	.uleb128 0x49
+	.uleb128 0x13
+	.uleb128 0x3c
+	.uleb128 0x19
+	.byte	0
+	.byte	0
+	.uleb128 0x3b
+	.uleb128 0x2e
+	.byte	0x1
+	.uleb128 0x3f
+	.uleb128 0x19
+	.uleb128 0x3
+	.uleb128 0xe
+	.uleb128 0x3a
+	.uleb128 0xb
+	.uleb128 0x3b
+	.uleb128 0xb
+	.uleb128 0x39
+	.uleb128 0xb
+	.uleb128 0x3c
+	.uleb128 0x19
+	.uleb128 0x1
+	.uleb128 0x13
+	.byte	0
+	.byte	0
+	.uleb128 0x3c
+	.uleb128 0x15
+	.byte	0
+	.uleb128 0x27
+	.uleb128 0x19
+	.byte	0
+	.byte	0
+	.uleb128 0x3d
+	.uleb128 0x5
+	.byte	0
+	.uleb128 0x3
+	.uleb128 0x8
+	.uleb128 0x3a
+	.uleb128 0xb
+	.uleb128 0x3b
+	.uleb128 0xb
+	.uleb128 0x39
+	.uleb128 0xb
+	.uleb128 0x49
+	.uleb128 0x13
+	.uleb128 0x2
+	.uleb128 0x18
+	.byte	0
+	.byte	0
+	.uleb128 0x3e
+	.uleb128 0x2e
+	.byte	0
+	.uleb128 0x3f
+	.uleb128 0x19
+	.uleb128 0x3
+	.uleb128 0xe
+	.uleb128 0x3a
+	.uleb128 0xb
+	.uleb128 0x3b
+	.uleb128 0xb
+	.uleb128 0x39
+	.uleb128 0xb
+	.uleb128 0x11
+	.uleb128 0x1
+	.uleb128 0x12
+	.uleb128 0x7
+	.uleb128 0x40
+	.uleb128 0x18
+	.uleb128 0x7c
+	.uleb128 0x19
+	.byte	0
+	.byte	0
+	.byte	0
+	.section	.debug_aranges,"",@progbits
+	.long	0x2c
+	.value	0x2
+	.long	.Ldebug_info0
+	.byte	0x8
+	.byte	0
+	.value	0
+	.value	0
+	.quad	.Ltext0
+	.quad	.Letext0-.Ltext0
+	.quad	0
+	.quad	0
+	.section	.debug_line,"",@progbits
+.Ldebug_line0:
+	.section	.debug_str,"MS",@progbits,1
+.LASF229:
+	.string	"foamCProg"
+.LASF622:
+	.string	"FOAM_BVal_SIntLength"
+.LASF630:
+	.string	"FOAM_BVal_SIntHashCombine"
+.LASF319:
+	.string	"TFormListCons"
+.LASF474:
+	.string	"FOAM_RRElt"
+.LASF795:
+	.string	"FOAM_DDecl_TrailingArray"
+.LASF536:
+	.string	"FOAM_BVal_SFloIsZero"
+.LASF685:
+	.string	"FOAM_BVal_SIntToHInt"
+.LASF49:
+	.string	"_unused2"
+.LASF580:
+	.string	"FOAM_BVal_DFloRTimes"
+.LASF35:
+	.string	"_fileno"
+.LASF789:
+	.string	"FOAM_DDecl_Param"
+.LASF725:
+	.string	"FOAM_BVal_TypeInt64"
+.LASF312:
+	.string	"ExpInfo"
+.LASF847:
+	.string	"field"
+.LASF801:
+	.string	"FOAM_DDecl_JavaClass"
+.LASF150:
+	.string	"abLocal"
+.LASF162:
+	.string	"abRaise"
+.LASF617:
+	.string	"FOAM_BVal_SIntGcd"
+.LASF457:
+	.string	"FOAM_VECTOR_START"
+.LASF464:
+	.string	"FOAM_Par"
+.LASF588:
+	.string	"FOAM_BVal_ByteMax"
+.LASF668:
+	.string	"FOAM_BVal_PtrIsNil"
+.LASF249:
+	.string	"foamRRNew"
+.LASF108:
+	.string	"abDocText"
+.LASF356:
+	.string	"ContainsAllq"
+.LASF244:
+	.string	"foamIf"
+.LASF78:
+	.string	"OstWriteStringFn"
+.LASF132:
+	.string	"abFix"
+.LASF165:
+	.string	"abRestrictTo"
+.LASF158:
+	.string	"abParen"
+.LASF450:
+	.string	"FOAM_Unit"
+.LASF449:
+	.string	"FOAM_Protect"
+.LASF675:
+	.string	"FOAM_BVal_FormatBInt"
+.LASF742:
+	.string	"FOAM_BVal_RawRepSize"
+.LASF771:
+	.string	"FOAM_BVal_ssaPhi"
+.LASF275:
+	.string	"intLoaded"
+.LASF254:
+	.string	"foamCCall"
+.LASF118:
+	.string	"abBuiltin"
+.LASF40:
+	.string	"_shortbuf"
+.LASF323:
+	.string	"FoamListCons"
+.LASF810:
+	.string	"fuses"
+.LASF819:
+	.string	"ByteData"
+.LASF77:
+	.string	"OstWriteCharFn"
+.LASF480:
+	.string	"FOAM_IRElt"
+.LASF82:
+	.string	"writeStringFn"
+.LASF104:
+	.string	"abGen"
+.LASF340:
+	.string	"LastCons"
+.LASF855:
+	.string	"place"
+.LASF161:
+	.string	"abQualify"
+.LASF233:
+	.string	"foamEInfo"
+.LASF790:
+	.string	"FOAM_DDecl_Local"
+.LASF264:
+	.string	"foamKill"
+.LASF860:
+	.string	"magic"
+.LASF98:
+	.string	"symbol"
+.LASF660:
+	.string	"FOAM_BVal_BIntBIPower"
+.LASF714:
+	.string	"FOAM_BVal_StoIsWritable"
+.LASF17:
+	.string	"overflow_arg_area"
+.LASF21:
+	.string	"_flags"
+.LASF446:
+	.string	"FOAM_Goto"
+.LASF667:
+	.string	"FOAM_BVal_PtrNil"
+.LASF570:
+	.string	"FOAM_BVal_DFloNegate"
+.LASF858:
+	.string	"length"
+.LASF18:
+	.string	"reg_save_area"
+.LASF560:
+	.string	"FOAM_BVal_DFloMin"
+.LASF212:
+	.string	"foamDDecl"
+.LASF131:
+	.string	"abExtend"
+.LASF9:
+	.string	"__off_t"
+.LASF649:
+	.string	"FOAM_BVal_BIntNext"
+.LASF702:
+	.string	"FOAM_BVal_RoundNearest"
+.LASF296:
+	.string	"unitb"
+.LASF866:
+	.string	"foamNewEmpty"
+.LASF303:
+	.string	"StabLevel"
+.LASF887:
+	.string	"testJFlow2"
+.LASF779:
+	.string	"FOAM_Proto_JavaConstructor"
+.LASF414:
+	.string	"FOAM_SInt"
+.LASF862:
+	.string	"verMinor"
+.LASF353:
+	.string	"NConcat"
+.LASF754:
+	.string	"FOAM_BVal_SizeOfBInt"
+.LASF140:
+	.string	"abHas"
+.LASF41:
+	.string	"_lock"
+.LASF553:
+	.string	"FOAM_BVal_SFloRTimes"
+.LASF207:
+	.string	"foamRRec"
+.LASF593:
+	.string	"FOAM_BVal_SInt0"
+.LASF594:
+	.string	"FOAM_BVal_SInt1"
+.LASF220:
+	.string	"foamLex"
+.LASF618:
+	.string	"FOAM_BVal_SIntPlusMod"
+.LASF748:
+	.string	"FOAM_BVal_SizeOfNil"
+.LASF425:
+	.string	"FOAM_CONTROL_START"
+.LASF427:
+	.string	"FOAM_BVal"
+.LASF812:
+	.string	"mark"
+.LASF753:
+	.string	"FOAM_BVal_SizeOfSInt"
+.LASF80:
+	.string	"ostreamOps"
+.LASF890:
+	.string	"__builtin_va_list"
+.LASF505:
+	.string	"FoamTag"
+.LASF596:
+	.string	"FOAM_BVal_SIntMax"
+.LASF252:
+	.string	"foamPCall"
+.LASF686:
+	.string	"FOAM_BVal_SIntToBInt"
+.LASF512:
+	.string	"FOAM_BVal_BoolAnd"
+.LASF337:
+	.string	"FreeDeeplyTo"
+.LASF144:
+	.string	"abImport"
+.LASF86:
+	.string	"fileName"
+.LASF424:
+	.string	"FOAM_DATA_LIMIT"
+.LASF305:
+	.string	"Stab"
+.LASF262:
+	.string	"foamValues"
+.LASF420:
+	.string	"FOAM_Int16"
+.LASF597:
+	.string	"FOAM_BVal_SIntIsZero"
+.LASF659:
+	.string	"FOAM_BVal_BIntSIPower"
+.LASF134:
+	.string	"abFor"
+.LASF743:
+	.string	"FOAM_BVal_SizeOfInt8"
+.LASF691:
+	.string	"FOAM_BVal_BIntToDFlo"
+.LASF226:
+	.string	"foamPRef"
+.LASF366:
+	.string	"AbEmbed"
+.LASF829:
+	.string	"values"
+.LASF782:
+	.string	"FOAM_Proto_Init"
+.LASF527:
+	.string	"FOAM_BVal_CharLower"
+.LASF326:
+	.string	"Cons"
+.LASF534:
+	.string	"FOAM_BVal_SFloMax"
+.LASF825:
+	.string	"baseType"
+.LASF666:
+	.string	"FOAM_BVal_BIntBit"
+.LASF103:
+	.string	"abHdr"
+.LASF403:
+	.string	"alternatives"
+.LASF27:
+	.string	"_IO_write_end"
+.LASF732:
+	.string	"FOAM_BVal_TypeSInt"
+.LASF841:
+	.string	"prog"
+.LASF273:
+	.string	"rdOnly"
+.LASF141:
+	.string	"abHide"
+.LASF587:
+	.string	"FOAM_BVal_ByteMin"
+.LASF602:
+	.string	"FOAM_BVal_SIntEQ"
+.LASF891:
+	.string	"__va_list_tag"
+.LASF210:
+	.string	"foamDecl"
+.LASF431:
+	.string	"FOAM_Loose"
+.LASF897:
+	.string	"jflowTest"
+.LASF410:
+	.string	"FOAM_Char"
+.LASF97:
+	.string	"Symbol"
+.LASF421:
+	.string	"FOAM_Int32"
+.LASF232:
+	.string	"foamEEnsure"
+.LASF577:
+	.string	"FOAM_BVal_DFloDivide"
+.LASF894:
+	.string	"Foam_listPointer"
+.LASF845:
+	.string	"index"
+.LASF306:
+	.string	"StabLevelListCons"
+.LASF274:
+	.string	"isOutput"
+.LASF831:
+	.string	"nLabels"
+.LASF62:
+	.string	"Length"
+.LASF444:
+	.string	"FOAM_AElt"
+.LASF394:
+	.string	"dest"
+.LASF469:
+	.string	"FOAM_Env"
+.LASF304:
+	.string	"stabLevel"
+.LASF113:
+	.string	"abAnd"
+.LASF345:
+	.string	"Copy"
+.LASF520:
+	.string	"FOAM_BVal_CharMax"
+.LASF579:
+	.string	"FOAM_BVal_DFloRMinus"
+.LASF694:
+	.string	"FOAM_BVal_ArrToSFlo"
+.LASF479:
+	.string	"FOAM_RElt"
+.LASF130:
+	.string	"abExport"
+.LASF857:
+	.string	"libSect"
+.LASF295:
+	.string	"constp"
+.LASF294:
+	.string	"constv"
+.LASF256:
+	.string	"foamCFCall"
+.LASF807:
+	.string	"defList"
+.LASF358:
+	.string	"Position"
+.LASF378:
+	.string	"seman"
+.LASF556:
+	.string	"FOAM_BVal_SFloDissemble"
+.LASF838:
+	.string	"locals"
+.LASF324:
+	.string	"FoamList"
+.LASF235:
+	.string	"foamRElt"
+.LASF680:
+	.string	"FOAM_BVal_SFloToDFlo"
+.LASF268:
+	.string	"foamCatch"
+.LASF799:
+	.string	"FOAM_DDecl_CSig"
+.LASF370:
+	.string	"implicit"
+.LASF563:
+	.string	"FOAM_BVal_DFloIsZero"
+.LASF182:
+	.string	"type"
+.LASF422:
+	.string	"FOAM_Int64"
+.LASF495:
+	.string	"FOAM_Select"
+.LASF793:
+	.string	"FOAM_DDecl_Union"
+.LASF241:
+	.string	"foamUnimp"
+.LASF584:
+	.string	"FOAM_BVal_DFloAssemble"
+.LASF849:
+	.string	"eltType"
+.LASF869:
+	.string	"foamPrintDb"
+.LASF535:
+	.string	"FOAM_BVal_SFloEpsilon"
+.LASF728:
+	.string	"FOAM_BVal_TypeChar"
+.LASF643:
+	.string	"FOAM_BVal_BIntEQ"
+.LASF490:
+	.string	"FOAM_DDef"
+.LASF716:
+	.string	"FOAM_BVal_StoRecode"
+.LASF856:
+	.string	"after"
+.LASF562:
+	.string	"FOAM_BVal_DFloEpsilon"
+.LASF575:
+	.string	"FOAM_BVal_DFloTimes"
+.LASF138:
+	.string	"abGenerate"
+.LASF867:
+	.string	"inlInfoNew"
+.LASF710:
+	.string	"FOAM_BVal_DFloFraction"
+.LASF572:
+	.string	"FOAM_BVal_DFloNext"
+.LASF371:
+	.string	"embed"
+.LASF522:
+	.string	"FOAM_BVal_CharIsLetter"
+.LASF698:
+	.string	"FOAM_BVal_PlatformRTE"
+.LASF768:
+	.string	"FOAM_BVal_NewExportTable"
+.LASF14:
+	.string	"__gnuc_va_list"
+.LASF147:
+	.string	"abLabel"
+.LASF34:
+	.string	"_chain"
+.LASF281:
+	.string	"topc"
+.LASF99:
+	.string	"info"
+.LASF674:
+	.string	"FOAM_BVal_FormatSInt"
+.LASF321:
+	.string	"SymeListCons"
+.LASF276:
+	.string	"idName"
+.LASF129:
+	.string	"abExit"
+.LASF214:
+	.string	"foamDEnv"
+.LASF204:
+	.string	"foamArb"
+.LASF468:
+	.string	"FOAM_Const"
+.LASF2:
+	.string	"unsigned char"
+.LASF467:
+	.string	"FOAM_Fluid"
+.LASF205:
+	.string	"foamArr"
+.LASF369:
+	.string	"defnIdx"
+.LASF607:
+	.string	"FOAM_BVal_SIntPrev"
+.LASF639:
+	.string	"FOAM_BVal_BIntIsPos"
+.LASF713:
+	.string	"FOAM_BVal_StoInHeap"
+.LASF892:
+	.string	"_IO_lock_t"
+.LASF852:
+	.string	"argsPtr"
+.LASF83:
+	.string	"closeFn"
+.LASF12:
+	.string	"float"
+.LASF794:
+	.string	"FOAM_DDecl_Record"
+.LASF473:
+	.string	"FOAM_TRNew"
+.LASF219:
+	.string	"foamLoc"
+.LASF585:
+	.string	"FOAM_BVal_Byte0"
+.LASF586:
+	.string	"FOAM_BVal_Byte1"
+.LASF183:
+	.string	"locmask"
+.LASF605:
+	.string	"FOAM_BVal_SIntLE"
+.LASF548:
+	.string	"FOAM_BVal_SFloTimes"
+.LASF393:
+	.string	"whole"
+.LASF781:
+	.string	"FOAM_Proto_Lisp"
+.LASF455:
+	.string	"FOAM_JavaObj"
+.LASF69:
+	.string	"MostAlignedType"
+.LASF727:
+	.string	"FOAM_BVal_TypeNil"
+.LASF604:
+	.string	"FOAM_BVal_SIntLT"
+.LASF236:
+	.string	"foamRRElt"
+.LASF809:
+	.string	"invInfo"
+.LASF317:
+	.string	"FoamUses"
+.LASF61:
+	.string	"Hash"
+.LASF365:
+	.string	"UdInfoList"
+.LASF492:
+	.string	"FOAM_Rec"
+.LASF211:
+	.string	"foamGDecl"
+.LASF477:
+	.string	"FOAM_MULTINT_START"
+.LASF859:
+	.string	"libHdr"
+.LASF614:
+	.string	"FOAM_BVal_SIntQuo"
+.LASF423:
+	.string	"FOAM_Int128"
+.LASF93:
+	.string	"SrcPosStack"
+.LASF436:
+	.string	"FOAM_Return"
+.LASF634:
+	.string	"FOAM_BVal_WordTimesStep"
+.LASF616:
+	.string	"FOAM_BVal_SIntDivide"
+.LASF434:
+	.string	"FOAM_Kill"
+.LASF677:
+	.string	"FOAM_BVal_ScanDFlo"
+.LASF717:
+	.string	"FOAM_BVal_StoNewObject"
+.LASF406:
+	.string	"within"
+.LASF599:
+	.string	"FOAM_BVal_SIntIsPos"
+.LASF603:
+	.string	"FOAM_BVal_SIntNE"
+.LASF700:
+	.string	"FOAM_BVal_Halt"
+.LASF669:
+	.string	"FOAM_BVal_PtrMagicEQ"
+.LASF94:
+	.string	"stack"
+.LASF850:
+	.string	"clos"
+.LASF654:
+	.string	"FOAM_BVal_BIntMod"
+.LASF709:
+	.string	"FOAM_BVal_DFloTruncate"
+.LASF346:
+	.string	"CopyTo"
+.LASF190:
+	.string	"tposs"
+.LASF315:
+	.string	"_InvInfo"
+.LASF868:
+	.string	"foamNewBCall"
+.LASF202:
+	.string	"foamDFlo"
+.LASF221:
+	.string	"foamGlo"
+.LASF333:
+	.string	"FreeCons"
+.LASF372:
+	.string	"impl"
+.LASF167:
+	.string	"abReturn"
+.LASF519:
+	.string	"FOAM_BVal_CharMin"
+.LASF726:
+	.string	"FOAM_BVal_TypeInt128"
+.LASF137:
+	.string	"abFree"
+.LASF697:
+	.string	"FOAM_BVal_ArrToBInt"
+.LASF26:
+	.string	"_IO_write_ptr"
+.LASF227:
+	.string	"foamLabel"
+.LASF228:
+	.string	"foamPtr"
+.LASF833:
+	.string	"infoBits"
+.LASF546:
+	.string	"FOAM_BVal_SFloPlus"
+.LASF351:
+	.string	"NReverse"
+.LASF215:
+	.string	"foamDFmt"
+.LASF216:
+	.string	"foamDef"
+.LASF398:
+	.string	"elseAlt"
+.LASF646:
+	.string	"FOAM_BVal_BIntLE"
+.LASF628:
+	.string	"FOAM_BVal_SIntOr"
+.LASF382:
+	.string	"test"
+.LASF263:
+	.string	"foamUnit"
+.LASF19:
+	.string	"va_list"
+.LASF645:
+	.string	"FOAM_BVal_BIntLT"
+.LASF433:
+	.string	"FOAM_EInfo"
+.LASF257:
+	.string	"foamOFCall"
+.LASF466:
+	.string	"FOAM_Glo"
+.LASF407:
+	.string	"FOAM_START"
+.LASF428:
+	.string	"FOAM_Ptr"
+.LASF309:
+	.string	"optInfo"
+.LASF843:
+	.string	"symeIndex"
+.LASF718:
+	.string	"FOAM_BVal_StoATracer"
+.LASF497:
+	.string	"FOAM_BCall"
+.LASF608:
+	.string	"FOAM_BVal_SIntNext"
+.LASF834:
+	.string	"size"
+.LASF629:
+	.string	"FOAM_BVal_SIntXOr"
+.LASF124:
+	.string	"abDefine"
+.LASF870:
+	.string	"_do_assert"
+.LASF631:
+	.string	"FOAM_BVal_WordTimesDouble"
+.LASF50:
+	.string	"FILE"
+.LASF581:
+	.string	"FOAM_BVal_DFloRTimesPlus"
+.LASF763:
+	.string	"FOAM_BVal_ListNil"
+.LASF163:
+	.string	"abReference"
+.LASF501:
+	.string	"FOAM_Values"
+.LASF826:
+	.string	"eltv"
+.LASF301:
+	.string	"ArEntry"
+.LASF832:
+	.string	"retType"
+.LASF619:
+	.string	"FOAM_BVal_SIntMinusMod"
+.LASF196:
+	.string	"foamBool"
+.LASF20:
+	.string	"size_t"
+.LASF367:
+	.string	"abSeman"
+.LASF194:
+	.string	"foamNil"
+.LASF92:
+	.string	"rest"
+.LASF258:
+	.string	"foamPushEnv"
+.LASF749:
+	.string	"FOAM_BVal_SizeOfChar"
+.LASF122:
+	.string	"abComma"
+.LASF472:
+	.string	"FOAM_PRef"
+.LASF419:
+	.string	"FOAM_Int8"
+.LASF329:
+	.string	"Listv"
+.LASF387:
+	.string	"iterv"
+.LASF738:
+	.string	"FOAM_BVal_TypePtr"
+.LASF690:
+	.string	"FOAM_BVal_BIntToSFlo"
+.LASF311:
+	.string	"_UdInfo"
+.LASF399:
+	.string	"param"
+.LASF191:
+	.string	"Foam"
+.LASF842:
+	.string	"protocol"
+.LASF166:
+	.string	"abRetractTo"
+.LASF452:
+	.string	"FOAM_PopEnv"
+.LASF500:
+	.string	"FOAM_Seq"
+.LASF531:
+	.string	"FOAM_BVal_SFlo0"
+.LASF442:
+	.string	"FOAM_Set"
+.LASF302:
+	.string	"ar_entry"
+.LASF30:
+	.string	"_IO_save_base"
+.LASF460:
+	.string	"FOAM_Decl"
+.LASF261:
+	.string	"foamRRFmt"
+.LASF574:
+	.string	"FOAM_BVal_DFloMinus"
+.LASF740:
+	.string	"FOAM_BVal_TypeArr"
+.LASF704:
+	.string	"FOAM_BVal_RoundDown"
+.LASF889:
+	.string	"GNU C99 12.2.0 -mtune=generic -march=x86-64 -g -O0 -std=c99 -fasynchronous-unwind-tables"
+.LASF307:
+	.string	"first"
+.LASF335:
+	.string	"FreeTo"
+.LASF208:
+	.string	"foamProg"
+.LASF344:
+	.string	"IsLonger"
+.LASF197:
+	.string	"foamByte"
+.LASF88:
+	.string	"SrcPos"
+.LASF277:
+	.string	"file"
+.LASF820:
+	.string	"HIntData"
+.LASF624:
+	.string	"FOAM_BVal_SIntShiftDn"
+.LASF815:
+	.string	"code"
+.LASF44:
+	.string	"_wide_data"
+.LASF499:
+	.string	"FOAM_OCall"
+.LASF189:
+	.string	"TPoss"
+.LASF152:
+	.string	"abMDefine"
+.LASF711:
+	.string	"FOAM_BVal_DFloRound"
+.LASF806:
+	.string	"defNo"
+.LASF764:
+	.string	"FOAM_BVal_ListEmptyP"
+.LASF269:
+	.string	"foamProtect"
+.LASF871:
+	.string	"jflowProg"
+.LASF864:
+	.string	"Section"
+.LASF445:
+	.string	"FOAM_If"
+.LASF123:
+	.string	"abDefault"
+.LASF218:
+	.string	"foamPar"
+.LASF178:
+	.string	"fieldc"
+.LASF352:
+	.string	"Concat"
+.LASF760:
+	.string	"FOAM_BVal_SizeOfRec"
+.LASF186:
+	.string	"fieldv"
+.LASF817:
+	.string	"CharData"
+.LASF547:
+	.string	"FOAM_BVal_SFloMinus"
+.LASF600:
+	.string	"FOAM_BVal_SIntIsEven"
+.LASF389:
+	.string	"value"
+.LASF797:
+	.string	"FOAM_DDecl_Global"
+.LASF318:
+	.string	"foamuses_struct"
+.LASF876:
+	.string	"foamNew"
+.LASF72:
+	.string	"OStreamPutFun"
+.LASF837:
+	.string	"params"
+.LASF325:
+	.string	"Foam_listOpsStruct"
+.LASF385:
+	.string	"expr"
+.LASF523:
+	.string	"FOAM_BVal_CharEQ"
+.LASF343:
+	.string	"IsShorter"
+.LASF476:
+	.string	"FOAM_INDEX_LIMIT"
+.LASF708:
+	.string	"FOAM_BVal_SFloRound"
+.LASF237:
+	.string	"foamIRElt"
+.LASF880:
+	.string	"maxLabel"
+.LASF576:
+	.string	"FOAM_BVal_DFloTimesPlus"
+.LASF792:
+	.string	"FOAM_DDecl_Multi"
+.LASF851:
+	.string	"retFmt"
+.LASF509:
+	.string	"FOAM_BVal_BoolFalse"
+.LASF606:
+	.string	"FOAM_BVal_SIntNegate"
+.LASF105:
+	.string	"abBlank"
+.LASF715:
+	.string	"FOAM_BVal_StoMarkObject"
+.LASF188:
+	.string	"tform"
+.LASF112:
+	.string	"abAdd"
+.LASF440:
+	.string	"FOAM_RRec"
+.LASF489:
+	.string	"FOAM_DEnv"
+.LASF688:
+	.string	"FOAM_BVal_SIntToSFlo"
+.LASF784:
+	.string	"FOAM_Proto_Other"
+.LASF316:
+	.string	"SImpl"
+.LASF539:
+	.string	"FOAM_BVal_SFloEQ"
+.LASF759:
+	.string	"FOAM_BVal_SizeOfPtr"
+.LASF776:
+	.string	"FOAM_Proto_Fortran"
+.LASF786:
+	.string	"foamDDeclTag"
+.LASF169:
+	.string	"abSequence"
+.LASF803:
+	.string	"pure"
+.LASF300:
+	.string	"macros"
+.LASF877:
+	.string	"showTest"
+.LASF175:
+	.string	"abYield"
+.LASF357:
+	.string	"Posq"
+.LASF125:
+	.string	"abDDefine"
+.LASF744:
+	.string	"FOAM_BVal_SizeOfInt16"
+.LASF549:
+	.string	"FOAM_BVal_SFloTimesPlus"
+.LASF114:
+	.string	"abApply"
+.LASF766:
+	.string	"FOAM_BVal_ListTail"
+.LASF58:
+	.string	"AInt"
+.LASF554:
+	.string	"FOAM_BVal_SFloRTimesPlus"
+.LASF481:
+	.string	"FOAM_TRElt"
+.LASF747:
+	.string	"FOAM_BVal_SizeOfInt128"
+.LASF888:
+	.string	"testJFlow1"
+.LASF774:
+	.string	"FOAM_PROTO_START"
+.LASF271:
+	.string	"name"
+.LASF110:
+	.string	"abLitString"
+.LASF292:
+	.string	"typeb"
+.LASF288:
+	.string	"typec"
+.LASF844:
+	.string	"usage"
+.LASF561:
+	.string	"FOAM_BVal_DFloMax"
+.LASF32:
+	.string	"_IO_save_end"
+.LASF342:
+	.string	"IsLength"
+.LASF291:
+	.string	"typep"
+.LASF696:
+	.string	"FOAM_BVal_ArrToSInt"
+.LASF290:
+	.string	"types"
+.LASF289:
+	.string	"typev"
+.LASF96:
+	.string	"bint"
+.LASF298:
+	.string	"unit"
+.LASF139:
+	.string	"abGoto"
+.LASF620:
+	.string	"FOAM_BVal_SIntTimesMod"
+.LASF652:
+	.string	"FOAM_BVal_BIntTimes"
+.LASF447:
+	.string	"FOAM_Throw"
+.LASF830:
+	.string	"endOffset"
+.LASF895:
+	.string	"foamNewProgEmpty"
+.LASF247:
+	.string	"foamANew"
+.LASF484:
+	.string	"FOAM_OFCall"
+.LASF400:
+	.string	"rtype"
+.LASF16:
+	.string	"fp_offset"
+.LASF557:
+	.string	"FOAM_BVal_SFloAssemble"
+.LASF15:
+	.string	"gp_offset"
+.LASF658:
+	.string	"FOAM_BVal_BIntGcd"
+.LASF405:
+	.string	"always"
+.LASF670:
+	.string	"FOAM_BVal_PtrEQ"
+.LASF159:
+	.string	"abPLambda"
+.LASF676:
+	.string	"FOAM_BVal_ScanSFlo"
+.LASF821:
+	.string	"SIntData"
+.LASF117:
+	.string	"abBreak"
+.LASF100:
+	.string	"AbSyn"
+.LASF416:
+	.string	"FOAM_DFlo"
+.LASF203:
+	.string	"foamWord"
+.LASF397:
+	.string	"thenAlt"
+.LASF146:
+	.string	"abIterate"
+.LASF426:
+	.string	"FOAM_NOp"
+.LASF171:
+	.string	"abTry"
+.LASF707:
+	.string	"FOAM_BVal_SFloFraction"
+.LASF462:
+	.string	"FOAM_VECTOR_LIMIT"
+.LASF201:
+	.string	"foamSFlo"
+.LASF507:
+	.string	"foamBValTag"
+.LASF3:
+	.string	"short unsigned int"
+.LASF573:
+	.string	"FOAM_BVal_DFloPlus"
+.LASF6:
+	.string	"signed char"
+.LASF149:
+	.string	"abLet"
+.LASF491:
+	.string	"FOAM_DFmt"
+.LASF75:
+	.string	"ostream"
+.LASF209:
+	.string	"foamClos"
+.LASF783:
+	.string	"FOAM_Proto_Include"
+.LASF893:
+	.string	"_SImpl"
+.LASF102:
+	.string	"abSyn"
+.LASF251:
+	.string	"foamCast"
+.LASF231:
+	.string	"foamLoose"
+.LASF164:
+	.string	"abRepeat"
+.LASF66:
+	.string	"CString"
+.LASF511:
+	.string	"FOAM_BVal_BoolNot"
+.LASF526:
+	.string	"FOAM_BVal_CharLE"
+.LASF395:
+	.string	"count"
+.LASF513:
+	.string	"FOAM_BVal_BoolOr"
+.LASF198:
+	.string	"foamHInt"
+.LASF172:
+	.string	"abWhere"
+.LASF525:
+	.string	"FOAM_BVal_CharLT"
+.LASF611:
+	.string	"FOAM_BVal_SIntTimes"
+.LASF56:
+	.string	"UShort"
+.LASF133:
+	.string	"abFluid"
+.LASF322:
+	.string	"SymeList"
+.LASF10:
+	.string	"__off64_t"
+.LASF185:
+	.string	"full"
+.LASF187:
+	.string	"TForm"
+.LASF846:
+	.string	"level"
+.LASF338:
+	.string	"FreeIfSat"
+.LASF320:
+	.string	"TFormList"
+.LASF24:
+	.string	"_IO_read_base"
+.LASF224:
+	.string	"foamEnv"
+.LASF42:
+	.string	"_offset"
+.LASF84:
+	.string	"OStreamOps"
+.LASF521:
+	.string	"FOAM_BVal_CharIsDigit"
+.LASF376:
+	.string	"state"
+.LASF29:
+	.string	"_IO_buf_end"
+.LASF360:
+	.string	"FillVector"
+.LASF653:
+	.string	"FOAM_BVal_BIntTimesPlus"
+.LASF411:
+	.string	"FOAM_Bool"
+.LASF314:
+	.string	"InvInfo"
+.LASF381:
+	.string	"capsule"
+.LASF552:
+	.string	"FOAM_BVal_SFloRMinus"
+.LASF796:
+	.string	"FOAM_DDecl_Consts"
+.LASF739:
+	.string	"FOAM_BVal_TypeRec"
+.LASF488:
+	.string	"FOAM_DFluid"
+.LASF524:
+	.string	"FOAM_BVal_CharNE"
+.LASF735:
+	.string	"FOAM_BVal_TypeDFlo"
+.LASF48:
+	.string	"_mode"
+.LASF25:
+	.string	"_IO_write_base"
+.LASF494:
+	.string	"FOAM_TR"
+.LASF692:
+	.string	"FOAM_BVal_PtrToSInt"
+.LASF392:
+	.string	"function"
+.LASF879:
+	.string	"dbInit"
+.LASF722:
+	.string	"FOAM_BVal_TypeInt8"
+.LASF530:
+	.string	"FOAM_BVal_CharNum"
+.LASF564:
+	.string	"FOAM_BVal_DFloIsNeg"
+.LASF612:
+	.string	"FOAM_BVal_SIntTimesPlus"
+.LASF712:
+	.string	"FOAM_BVal_StoForceGC"
+.LASF734:
+	.string	"FOAM_BVal_TypeSFlo"
+.LASF408:
+	.string	"FOAM_DATA_START"
+.LASF791:
+	.string	"FOAM_DDecl_Fluid"
+.LASF582:
+	.string	"FOAM_BVal_DFloRDivide"
+.LASF681:
+	.string	"FOAM_BVal_DFloToSFlo"
+.LASF180:
+	.string	"bits"
+.LASF835:
+	.string	"time"
+.LASF706:
+	.string	"FOAM_BVal_SFloTruncate"
+.LASF429:
+	.string	"FOAM_CProg"
+.LASF89:
+	.string	"SrcPosCell"
+.LASF840:
+	.string	"levels"
+.LASF193:
+	.string	"foamGen"
+.LASF8:
+	.string	"long int"
+.LASF330:
+	.string	"ListNull"
+.LASF627:
+	.string	"FOAM_BVal_SIntAnd"
+.LASF456:
+	.string	"FOAM_CONTROL_LIMIT"
+.LASF502:
+	.string	"FOAM_Prog"
+.LASF827:
+	.string	"format"
+.LASF656:
+	.string	"FOAM_BVal_BIntRem"
+.LASF51:
+	.string	"_IO_marker"
+.LASF259:
+	.string	"foamPopEnv"
+.LASF459:
+	.string	"FOAM_GDecl"
+.LASF90:
+	.string	"sposCell"
+.LASF412:
+	.string	"FOAM_Byte"
+.LASF788:
+	.string	"FOAM_DDecl_NonLocalEnv"
+.LASF348:
+	.string	"CopyDeeplyTo"
+.LASF439:
+	.string	"FOAM_RRNew"
+.LASF404:
+	.string	"cond"
+.LASF435:
+	.string	"FOAM_Free"
+.LASF383:
+	.string	"label"
+.LASF544:
+	.string	"FOAM_BVal_SFloPrev"
+.LASF625:
+	.string	"FOAM_BVal_SIntBit"
+.LASF401:
+	.string	"context"
+.LASF223:
+	.string	"foamConst"
+.LASF705:
+	.string	"FOAM_BVal_RoundDontCare"
+.LASF537:
+	.string	"FOAM_BVal_SFloIsNeg"
+.LASF168:
+	.string	"abSelect"
+.LASF310:
+	.string	"UdInfo"
+.LASF222:
+	.string	"foamFluid"
+.LASF308:
+	.string	"OptInfo"
+.LASF529:
+	.string	"FOAM_BVal_CharOrd"
+.LASF52:
+	.string	"_IO_codecvt"
+.LASF533:
+	.string	"FOAM_BVal_SFloMin"
+.LASF174:
+	.string	"abWith"
+.LASF532:
+	.string	"FOAM_BVal_SFlo1"
+.LASF375:
+	.string	"unique"
+.LASF498:
+	.string	"FOAM_CCall"
+.LASF729:
+	.string	"FOAM_BVal_TypeBool"
+.LASF516:
+	.string	"FOAM_BVal_CharSpace"
+.LASF679:
+	.string	"FOAM_BVal_ScanBInt"
+.LASF872:
+	.string	"foamNewDDecl"
+.LASF250:
+	.string	"foamTRNew"
+.LASF85:
+	.string	"FileName"
+.LASF773:
+	.string	"foamProtoTag"
+.LASF589:
+	.string	"FOAM_BVal_HInt0"
+.LASF590:
+	.string	"FOAM_BVal_HInt1"
+.LASF644:
+	.string	"FOAM_BVal_BIntNE"
+.LASF775:
+	.string	"FOAM_Proto_Foam"
+.LASF260:
+	.string	"foamMFmt"
+.LASF65:
+	.string	"String"
+.LASF200:
+	.string	"foamBInt"
+.LASF373:
+	.string	"AbSeman"
+.LASF5:
+	.string	"long unsigned int"
+.LASF874:
+	.string	"foamNewSeq"
+.LASF657:
+	.string	"FOAM_BVal_BIntDivide"
+.LASF798:
+	.string	"FOAM_DDecl_FortranSig"
+.LASF671:
+	.string	"FOAM_BVal_PtrNE"
+.LASF60:
+	.string	"Bool"
+.LASF650:
+	.string	"FOAM_BVal_BIntPlus"
+.LASF177:
+	.string	"syme"
+.LASF206:
+	.string	"foamRec"
+.LASF813:
+	.string	"dvMark"
+.LASF558:
+	.string	"FOAM_BVal_DFlo0"
+.LASF559:
+	.string	"FOAM_BVal_DFlo1"
+.LASF673:
+	.string	"FOAM_BVal_FormatDFlo"
+.LASF651:
+	.string	"FOAM_BVal_BIntMinus"
+.LASF336:
+	.string	"FreeDeeply"
+.LASF11:
+	.string	"char"
+.LASF487:
+	.string	"FOAM_DDecl"
+.LASF528:
+	.string	"FOAM_BVal_CharUpper"
+.LASF87:
+	.string	"partv"
+.LASF265:
+	.string	"foamFree"
+.LASF875:
+	.string	"foamNewPCall"
+.LASF239:
+	.string	"foamEElt"
+.LASF687:
+	.string	"FOAM_BVal_BIntToSInt"
+.LASF432:
+	.string	"FOAM_EEnsure"
+.LASF388:
+	.string	"except"
+.LASF621:
+	.string	"FOAM_BVal_SIntTimesModInv"
+.LASF28:
+	.string	"_IO_buf_base"
+.LASF811:
+	.string	"foamHdr"
+.LASF595:
+	.string	"FOAM_BVal_SIntMin"
+.LASF824:
+	.string	"DFloData"
+.LASF299:
+	.string	"formats"
+.LASF478:
+	.string	"FOAM_Lex"
+.LASF23:
+	.string	"_IO_read_end"
+.LASF578:
+	.string	"FOAM_BVal_DFloRPlus"
+.LASF240:
+	.string	"foamBVal"
+.LASF57:
+	.string	"ULong"
+.LASF808:
+	.string	"expInfo"
+.LASF181:
+	.string	"hash"
+.LASF664:
+	.string	"FOAM_BVal_BIntShiftDn"
+.LASF74:
+	.string	"_IO_FILE"
+.LASF363:
+	.string	"Format"
+.LASF53:
+	.string	"_IO_wide_data"
+.LASF248:
+	.string	"foamRNew"
+.LASF816:
+	.string	"sfloat"
+.LASF818:
+	.string	"BoolData"
+.LASF115:
+	.string	"abAssert"
+.LASF496:
+	.string	"FOAM_PCall"
+.LASF881:
+	.string	"stmt"
+.LASF71:
+	.string	"buffer"
+.LASF770:
+	.string	"FOAM_BVal_FreeExportTable"
+.LASF279:
+	.string	"self"
+.LASF225:
+	.string	"foamEEnv"
+.LASF545:
+	.string	"FOAM_BVal_SFloNext"
+.LASF81:
+	.string	"writeCharFn"
+.LASF610:
+	.string	"FOAM_BVal_SIntMinus"
+.LASF334:
+	.string	"Free"
+.LASF154:
+	.string	"abNever"
+.LASF682:
+	.string	"FOAM_BVal_ByteToSInt"
+.LASF59:
+	.string	"UAInt"
+.LASF253:
+	.string	"foamBCall"
+.LASF67:
+	.string	"SFloat"
+.LASF756:
+	.string	"FOAM_BVal_SizeOfDFlo"
+.LASF550:
+	.string	"FOAM_BVal_SFloDivide"
+.LASF767:
+	.string	"FOAM_BVal_ListCons"
+.LASF313:
+	.string	"_ExpInfo"
+.LASF126:
+	.string	"abDo"
+.LASF270:
+	.string	"foamReturn"
+.LASF804:
+	.string	"fixed"
+.LASF106:
+	.string	"abId"
+.LASF143:
+	.string	"abIf"
+.LASF438:
+	.string	"FOAM_ANew"
+.LASF873:
+	.string	"strCopy"
+.LASF878:
+	.string	"dbFini"
+.LASF47:
+	.string	"__pad5"
+.LASF551:
+	.string	"FOAM_BVal_SFloRPlus"
+.LASF583:
+	.string	"FOAM_BVal_DFloDissemble"
+.LASF730:
+	.string	"FOAM_BVal_TypeByte"
+.LASF417:
+	.string	"FOAM_Word"
+.LASF633:
+	.string	"FOAM_BVal_WordPlusStep"
+.LASF689:
+	.string	"FOAM_BVal_SIntToDFlo"
+.LASF33:
+	.string	"_markers"
+.LASF805:
+	.string	"lazy"
+.LASF615:
+	.string	"FOAM_BVal_SIntRem"
+.LASF230:
+	.string	"foamCEnv"
+.LASF769:
+	.string	"FOAM_BVal_AddToExportTable"
+.LASF234:
+	.string	"foamAElt"
+.LASF719:
+	.string	"FOAM_BVal_StoCTracer"
+.LASF68:
+	.string	"DFloat"
+.LASF415:
+	.string	"FOAM_SFlo"
+.LASF286:
+	.string	"codev"
+.LASF384:
+	.string	"what"
+.LASF43:
+	.string	"_codecvt"
+.LASF684:
+	.string	"FOAM_BVal_HIntToSInt"
+.LASF665:
+	.string	"FOAM_BVal_BIntShiftRem"
+.LASF13:
+	.string	"double"
+.LASF441:
+	.string	"FOAM_Clos"
+.LASF437:
+	.string	"FOAM_Cast"
+.LASF635:
+	.string	"FOAM_BVal_BInt0"
+.LASF636:
+	.string	"FOAM_BVal_BInt1"
+.LASF245:
+	.string	"foamSeq"
+.LASF243:
+	.string	"foamSet"
+.LASF377:
+	.string	"argc"
+.LASF508:
+	.string	"FOAM_BVAL_START"
+.LASF896:
+	.string	"cmdDebugReset"
+.LASF413:
+	.string	"FOAM_HInt"
+.LASF750:
+	.string	"FOAM_BVal_SizeOfBool"
+.LASF884:
+	.string	"argp"
+.LASF293:
+	.string	"constc"
+.LASF885:
+	.string	"args"
+.LASF156:
+	.string	"abNothing"
+.LASF368:
+	.string	"comment"
+.LASF120:
+	.string	"abCoerceTo"
+.LASF655:
+	.string	"FOAM_BVal_BIntQuo"
+.LASF592:
+	.string	"FOAM_BVal_HIntMax"
+.LASF787:
+	.string	"FOAM_DDecl_LocalEnv"
+.LASF566:
+	.string	"FOAM_BVal_DFloEQ"
+.LASF76:
+	.string	"data"
+.LASF613:
+	.string	"FOAM_BVal_SIntMod"
+.LASF485:
+	.string	"FOAM_MULTINT_LIMIT"
+.LASF170:
+	.string	"abTest"
+.LASF255:
+	.string	"foamOCall"
+.LASF101:
+	.string	"sposStack"
+.LASF176:
+	.string	"Syme"
+.LASF506:
+	.string	"foamTag"
+.LASF192:
+	.string	"foam"
+.LASF448:
+	.string	"FOAM_Catch"
+.LASF135:
+	.string	"abForeignImport"
+.LASF70:
+	.string	"Buffer"
+.LASF736:
+	.string	"FOAM_BVal_TypeWord"
+.LASF364:
+	.string	"UdInfoListCons"
+.LASF362:
+	.string	"GPrint"
+.LASF380:
+	.string	"base"
+.LASF458:
+	.string	"FOAM_Unimp"
+.LASF839:
+	.string	"fluids"
+.LASF148:
+	.string	"abLambda"
+.LASF662:
+	.string	"FOAM_BVal_BIntLength"
+.LASF514:
+	.string	"FOAM_BVal_BoolEQ"
+.LASF79:
+	.string	"OstCloseFn"
+.LASF640:
+	.string	"FOAM_BVal_BIntIsEven"
+.LASF272:
+	.string	"arent"
+.LASF751:
+	.string	"FOAM_BVal_SizeOfByte"
+.LASF737:
+	.string	"FOAM_BVal_TypeClos"
+.LASF822:
+	.string	"BIntData"
+.LASF64:
+	.string	"Pointer"
+.LASF647:
+	.string	"FOAM_BVal_BIntNegate"
+.LASF396:
+	.string	"property"
+.LASF213:
+	.string	"foamDFluid"
+.LASF46:
+	.string	"_freeres_buf"
+.LASF91:
+	.string	"spos"
+.LASF731:
+	.string	"FOAM_BVal_TypeHInt"
+.LASF568:
+	.string	"FOAM_BVal_DFloLT"
+.LASF157:
+	.string	"abOr"
+.LASF278:
+	.string	"offset"
+.LASF861:
+	.string	"verMajor"
+.LASF38:
+	.string	"_cur_column"
+.LASF418:
+	.string	"FOAM_Arb"
+.LASF173:
+	.string	"abWhile"
+.LASF179:
+	.string	"kind"
+.LASF504:
+	.string	"FOAM_LIMIT"
+.LASF266:
+	.string	"foamGoto"
+.LASF518:
+	.string	"FOAM_BVal_CharTab"
+.LASF493:
+	.string	"FOAM_Arr"
+.LASF678:
+	.string	"FOAM_BVal_ScanSInt"
+.LASF772:
+	.string	"FOAM_BVAL_LIMIT"
+.LASF683:
+	.string	"FOAM_BVal_SIntToByte"
+.LASF145:
+	.string	"abInline"
+.LASF350:
+	.string	"Reverse"
+.LASF111:
+	.string	"abLitFloat"
+.LASF151:
+	.string	"abMacro"
+.LASF465:
+	.string	"FOAM_Loc"
+.LASF571:
+	.string	"FOAM_BVal_DFloPrev"
+.LASF199:
+	.string	"foamSInt"
+.LASF121:
+	.string	"abCollect"
+.LASF517:
+	.string	"FOAM_BVal_CharNewline"
+.LASF31:
+	.string	"_IO_backup_base"
+.LASF22:
+	.string	"_IO_read_ptr"
+.LASF246:
+	.string	"foamSelect"
+.LASF720:
+	.string	"FOAM_BVal_StoShow"
+.LASF136:
+	.string	"abForeignExport"
+.LASF542:
+	.string	"FOAM_BVal_SFloLE"
+.LASF184:
+	.string	"hasmask"
+.LASF107:
+	.string	"abIdSy"
+.LASF541:
+	.string	"FOAM_BVal_SFloLT"
+.LASF45:
+	.string	"_freeres_list"
+.LASF723:
+	.string	"FOAM_BVal_TypeInt16"
+.LASF160:
+	.string	"abPretendTo"
+.LASF865:
+	.string	"Index"
+.LASF153:
+	.string	"abMLambda"
+.LASF453:
+	.string	"FOAM_MFmt"
+.LASF762:
+	.string	"FOAM_BVal_SizeOfTR"
+.LASF461:
+	.string	"FOAM_BInt"
+.LASF638:
+	.string	"FOAM_BVal_BIntIsNeg"
+.LASF778:
+	.string	"FOAM_Proto_Java"
+.LASF361:
+	.string	"Print"
+.LASF828:
+	.string	"nargs"
+.LASF693:
+	.string	"FOAM_BVal_SIntToPtr"
+.LASF341:
+	.string	"_Length"
+.LASF37:
+	.string	"_old_offset"
+.LASF238:
+	.string	"foamTRElt"
+.LASF626:
+	.string	"FOAM_BVal_SIntNot"
+.LASF780:
+	.string	"FOAM_Proto_JavaMethod"
+.LASF567:
+	.string	"FOAM_BVal_DFloNE"
+.LASF543:
+	.string	"FOAM_BVal_SFloNegate"
+.LASF282:
+	.string	"symec"
+.LASF155:
+	.string	"abNot"
+.LASF285:
+	.string	"symep"
+.LASF569:
+	.string	"FOAM_BVal_DFloLE"
+.LASF284:
+	.string	"symes"
+.LASF283:
+	.string	"symev"
+.LASF54:
+	.string	"long long int"
+.LASF540:
+	.string	"FOAM_BVal_SFloNE"
+.LASF267:
+	.string	"foamThrow"
+.LASF331:
+	.string	"Equal"
+.LASF36:
+	.string	"_flags2"
+.LASF486:
+	.string	"FOAM_NARY_START"
+.LASF823:
+	.string	"SFloData"
+.LASF142:
+	.string	"abHook"
+.LASF672:
+	.string	"FOAM_BVal_FormatSFlo"
+.LASF482:
+	.string	"FOAM_EElt"
+.LASF128:
+	.string	"abExcept"
+.LASF127:
+	.string	"abDocumented"
+.LASF475:
+	.string	"FOAM_Label"
+.LASF591:
+	.string	"FOAM_BVal_HIntMin"
+.LASF443:
+	.string	"FOAM_Def"
+.LASF374:
+	.string	"poss"
+.LASF116:
+	.string	"abAssign"
+.LASF623:
+	.string	"FOAM_BVal_SIntShiftUp"
+.LASF339:
+	.string	"Drop"
+.LASF386:
+	.string	"body"
+.LASF777:
+	.string	"FOAM_Proto_C"
+.LASF609:
+	.string	"FOAM_BVal_SIntPlus"
+.LASF463:
+	.string	"FOAM_INDEX_START"
+.LASF741:
+	.string	"FOAM_BVal_TypeTR"
+.LASF195:
+	.string	"foamChar"
+.LASF242:
+	.string	"foamNOp"
+.LASF63:
+	.string	"Offset"
+.LASF598:
+	.string	"FOAM_BVal_SIntIsNeg"
+.LASF883:
+	.string	"fmTestSideEffectingStmt"
+.LASF510:
+	.string	"FOAM_BVal_BoolTrue"
+.LASF637:
+	.string	"FOAM_BVal_BIntIsZero"
+.LASF854:
+	.string	"parent"
+.LASF349:
+	.string	"NMap"
+.LASF471:
+	.string	"FOAM_RNew"
+.LASF355:
+	.string	"Member"
+.LASF483:
+	.string	"FOAM_CFCall"
+.LASF703:
+	.string	"FOAM_BVal_RoundUp"
+.LASF119:
+	.string	"abDeclare"
+.LASF746:
+	.string	"FOAM_BVal_SizeOfInt64"
+.LASF73:
+	.string	"OStream"
+.LASF359:
+	.string	"NRemove"
+.LASF733:
+	.string	"FOAM_BVal_TypeBInt"
+.LASF470:
+	.string	"FOAM_EEnv"
+.LASF55:
+	.string	"UByte"
+.LASF695:
+	.string	"FOAM_BVal_ArrToDFlo"
+.LASF390:
+	.string	"origin"
+.LASF701:
+	.string	"FOAM_BVal_RoundZero"
+.LASF347:
+	.string	"CopyDeeply"
+.LASF721:
+	.string	"FOAM_BVal_StoShowArgs"
+.LASF391:
+	.string	"destination"
+.LASF853:
+	.string	"defs"
+.LASF409:
+	.string	"FOAM_Nil"
+.LASF757:
+	.string	"FOAM_BVal_SizeOfWord"
+.LASF745:
+	.string	"FOAM_BVal_SizeOfInt32"
+.LASF565:
+	.string	"FOAM_BVal_DFloIsPos"
+.LASF642:
+	.string	"FOAM_BVal_BIntIsSingle"
+.LASF800:
+	.string	"FOAM_DDecl_JavaSig"
+.LASF765:
+	.string	"FOAM_BVal_ListHead"
+.LASF297:
+	.string	"postbl"
+.LASF802:
+	.string	"FOAM_DDECL_LIMIT"
+.LASF661:
+	.string	"FOAM_BVal_BIntPowerMod"
+.LASF886:
+	.string	"fmTestProgFrCode"
+.LASF515:
+	.string	"FOAM_BVal_BoolNE"
+.LASF755:
+	.string	"FOAM_BVal_SizeOfSFlo"
+.LASF327:
+	.string	"Singleton"
+.LASF724:
+	.string	"FOAM_BVal_TypeInt32"
+.LASF836:
+	.string	"auxInfo"
+.LASF641:
+	.string	"FOAM_BVal_BIntIsOdd"
+.LASF4:
+	.string	"unsigned int"
+.LASF863:
+	.string	"numSect"
+.LASF758:
+	.string	"FOAM_BVal_SizeOfClos"
+.LASF354:
+	.string	"Memq"
+.LASF402:
+	.string	"testPart"
+.LASF95:
+	.string	"BInt"
+.LASF7:
+	.string	"short int"
+.LASF328:
+	.string	"List"
+.LASF555:
+	.string	"FOAM_BVal_SFloRDivide"
+.LASF451:
+	.string	"FOAM_PushEnv"
+.LASF601:
+	.string	"FOAM_BVal_SIntIsOdd"
+.LASF699:
+	.string	"FOAM_BVal_PlatformOS"
+.LASF430:
+	.string	"FOAM_CEnv"
+.LASF752:
+	.string	"FOAM_BVal_SizeOfHInt"
+.LASF785:
+	.string	"FOAM_PROTO_LIMIT"
+.LASF39:
+	.string	"_vtable_offset"
+.LASF454:
+	.string	"FOAM_RRFmt"
+.LASF663:
+	.string	"FOAM_BVal_BIntShiftUp"
+.LASF287:
+	.string	"triggers"
+.LASF503:
+	.string	"FOAM_NARY_LIMIT"
+.LASF379:
+	.string	"argv"
+.LASF648:
+	.string	"FOAM_BVal_BIntPrev"
+.LASF217:
+	.string	"foamDDef"
+.LASF280:
+	.string	"stab"
+.LASF814:
+	.string	"defnId"
+.LASF761:
+	.string	"FOAM_BVal_SizeOfArr"
+.LASF882:
+	.string	"fmTestNLabels"
+.LASF538:
+	.string	"FOAM_BVal_SFloIsPos"
+.LASF632:
+	.string	"FOAM_BVal_WordDivideDouble"
+.LASF109:
+	.string	"abLitInteger"
+.LASF332:
+	.string	"Find"
+.LASF848:
+	.string	"builtinTag"
+	.section	.debug_line_str,"MS",@progbits,1
+.LASF0:
+	.string	"test/test_jflow.c"
+.LASF1:
+	.string	"/repo/aldor/aldor/src"
+	.ident	"GCC: (Debian 12.2.0-14+deb12u1) 12.2.0"
+	.section	.note.GNU-stack,"",@progbits
